@@ -16,1457 +16,1342 @@ Definition terms (ts : list tok) (t : pt) : string :=
   digest (show_toks (Some ts)) ++ " " ++ digest (show_pt (Some t)) ++ " " ++ digest (show_pt (parse ts)).
 Definition terms_full (ts : list tok) (t : pt) : string :=
   show_toks (Some ts) ++ nl ++ show_pt (Some t) ++ nl ++ show_pt (parse ts).
-Eval vm_compute in ("<<<M18>>>" ++ check (runes_of_ascii "root  packet
-Pad {
-@tag(65535 ) @lengthOf(
-matchKey) //
-int32 pack
-    , // `tick` ""quote"" 'q'
-zchar[65535  ]
-charz @calculatedFrom(""""
-    )
-`crlf
-line` , }
-MetaData
-options1
-    {charz crc
-//
-// " ++ [27880; 37322]%N ++ runes_of_ascii "
-, body packetx `// not a comment`, } packet string_ { char[	7 // @lengthOf(
-]
-T	@calculatedFrom(""\" ++ [233]%N ++ runes_of_ascii """) // c
-, @leftPad ( '\x00')@calculatedFrom(
-""packet"" )
-@tag( 42
-// " ++ [128512]%N ++ runes_of_ascii " emoji
-// " ++ [128512]%N ++ runes_of_ascii " emoji
-) string string_ @calculatedFrom( """ ++ [28040; 24687]%N ++ runes_of_ascii """ ) `a\` , }
+Eval vm_compute in ("<<<M18>>>" ++ check (runes_of_ascii "MetaData zchar
+{ uint64 Z9_, As f32a  `" ++ [28040; 24687; 31867; 22411]%N ++ runes_of_ascii "` // " ++ [128512]%N ++ runes_of_ascii " emoji
+, char[ 10 ]	options1 //	t
+`tab	here` , rootA trueish //x
+``, i32 Foo `{ , }` ,}
 ")).
-Eval vm_compute in ("<<<M50>>>" ++ check (runes_of_ascii "  options { zchar =  007
-Header =
-char[// c
-007 ] ;
-    lengthOf= char[
-7 ]; chars =//
-"""" // a // b
-;
-}
-")).
-Eval vm_compute in ("<<<M82>>>" ++ check (runes_of_ascii "packet u8x {
-    //	t
-    }
-
-")).
-Eval vm_compute in ("<<<M114>>>" ++ check (runes_of_ascii "packet i64_
-{	@tag( // a // b
-0123456789) x_y_z@calculatedFrom( ""it's"" ) , @rightPad ( ' ' ) @tag( 007
-    ) leftPad {
-    zchar[00 ]Pad , }
-,int32 _x@lengthOf( BodyLength
-/// triple
-//
-) ,
-}
-")).
-Eval vm_compute in ("<<<M146>>>" ++ check (runes_of_ascii "packet Logon {
-    stringy
-crc	`crlf
-line`
-, T
-@calculatedFrom( ""a\""b""
-    ) // packet A { u8 x, }
-`u8 x,` // " ++ [27880; 37322]%N ++ runes_of_ascii "
-, }  options {	leftPad =  '\x00'}
-")).
-Eval vm_compute in ("<<<T146>>>" ++ terms [mkTok 35 "packet" 1 0 false; mkTok 42 "Logon" 1 7 false; mkTok 2 "{" 1 13 false; mkTok 42 "stringy" 2 4 false; mkTok 42 "crc" 3 0 false; mkTok 43 (string_of_bytes [96; 99; 114; 108; 102; 13; 10; 108; 105; 110; 101; 96]%N) 3 4 false; mkTok 40 "," 5 0 false; mkTok 42 "T" 5 2 false; mkTok 5 "@calculatedFrom(" 6 0 false; mkTok 31 """a\""b""" 6 17 false; mkTok 6 ")" 7 4 false; mkTok 44 "// packet A { u8 x, }" 7 6 true; mkTok 43 "`u8 x,`" 8 0 false; mkTok 44 (string_of_bytes [47; 47; 32; 230; 179; 168; 233; 135; 138]%N) 8 8 true; mkTok 40 "," 9 0 false; mkTok 3 "}" 9 2 false; mkTok 1 "options" 9 5 false; mkTok 2 "{" 9 13 false; mkTok 42 "leftPad" 9 15 false; mkTok 4 "=" 9 23 false; mkTok 33 "'\x00'" 9 26 false; mkTok 3 "}" 9 32 false; mkTok 0 "<EOF>" 10 0 false] (mkPacket (mkPtok 35 "packet" 1 0 0) (Some (mkPtok 3 "}" 9 32 21)) [(DPacket (mkPacketDef (mkSpan (mkPtok 35 "packet" 1 0 0) (mkPtok 3 "}" 9 2 15)) None (mkPtok 35 "packet" 1 0 0) (mkPtok 42 "Logon" 1 7 1) (mkPtok 2 "{" 1 13 2) [(mkFieldWithAttr (mkSpan (mkPtok 42 "stringy" 2 4 3) (mkPtok 40 "," 5 0 6)) [] (ObjectField (mkSpan (mkPtok 42 "stringy" 2 4 3) (mkPtok 40 "," 5 0 6)) None (mkPtok 42 "stringy" 2 4 3) (Some (mkPtok 42 "crc" 3 0 4)) (Some (mkPtok 43 (string_of_bytes [96; 99; 114; 108; 102; 13; 10; 108; 105; 110; 101; 96]%N) 3 4 5)) (mkPtok 40 "," 5 0 6))); (mkFieldWithAttr (mkSpan (mkPtok 42 "T" 5 2 7) (mkPtok 40 "," 9 0 14)) [] (CheckSumField (mkSpan (mkPtok 42 "T" 5 2 7) (mkPtok 40 "," 9 0 14)) (mkChecksumFieldDecl (mkSpan (mkPtok 42 "T" 5 2 7) (mkPtok 40 "," 9 0 14)) None (mkPtok 42 "T" 5 2 7) (mkCalculatedFrom (mkSpan (mkPtok 5 "@calculatedFrom(" 6 0 8) (mkPtok 6 ")" 7 4 10)) (mkPtok 5 "@calculatedFrom(" 6 0 8) (mkPtok 31 """a\""b""" 6 17 9) (mkPtok 6 ")" 7 4 10)) (Some (mkPtok 43 "`u8 x,`" 8 0 12)) (mkPtok 40 "," 9 0 14))))] (mkPtok 3 "}" 9 2 15))); (DOption (mkOptionDef (mkSpan (mkPtok 1 "options" 9 5 16) (mkPtok 3 "}" 9 32 21)) (mkPtok 1 "options" 9 5 16) (mkPtok 2 "{" 9 13 17) [(mkOptionDecl (mkSpan (mkPtok 42 "leftPad" 9 15 18) (mkPtok 33 "'\x00'" 9 26 20)) (mkPtok 42 "leftPad" 9 15 18) (mkPtok 4 "=" 9 23 19) (VPaddingChar (mkSpan (mkPtok 33 "'\x00'" 9 26 20) (mkPtok 33 "'\x00'" 9 26 20)) (mkPtok 33 "'\x00'" 9 26 20)) None)] (mkPtok 3 "}" 9 32 21)))])).
-Eval vm_compute in ("<<<M178>>>" ++ check (runes_of_ascii "packet options1 {  }
-
-")).
-Eval vm_compute in ("<<<M210>>>" ++ check (runes_of_ascii "packet u128  { @calculatedFrom(
-""a	b"" ) repeat  uint8x u128
-`line1
-line2`  , }
-    packet string_ { @calculatedFrom(
-// `tick` ""quote"" 'q'
-// packet A { u8 x, }
-""" ++ [128512]%N ++ runes_of_ascii """ )
-uint8 Pad
-    @lengthOf(
-    o )
-`{ , }`, }")).
-Eval vm_compute in ("<<<M242>>>" ++ check (runes_of_ascii "
-options { }
-")).
-Eval vm_compute in ("<<<M274>>>" ++ check (runes_of_ascii "root
-packet i8i8 { @lengthOf(
-Packet)
-    u32 u8x, }")).
-Eval vm_compute in ("<<<M306>>>" ++ check (runes_of_ascii "options { asx = ""{,}"" } packet len{repeat	float
-    As, char[] Packet ,
-i8 body @lengthOf( T
-) //
-,
-}// @lengthOf(
-packet
-    Pad {uint32
-u8x // packet A { u8 x, }
-, /// triple
-@tag( 4294967296 ) @tag(65535)
-@rightPad(
-    )rootA
-    trueish `{ , }`
-    ,
-    } 	 ")).
-Eval vm_compute in ("<<<M338>>>" ++ check (runes_of_ascii "MetaData As  {
-// " ++ [128512]%N ++ runes_of_ascii " emoji
-// @lengthOf(
-a1 Pad , zchar[ 00 ] // `tick` ""quote"" 'q'
-body`// not a comment` ,
-crc uint8x `// not a comment` ,uint32
-packetx ``
-    ,}
-")).
-Eval vm_compute in ("<<<M370>>>" ++ check (runes_of_ascii "MetaData	matchKey
-{ float64	string_, string pack`doc`	,Foo float `` ,x chars
-    `crlf
-line`
-    ,
-} packet Header { float64 lengthOf //x
-@lengthOf(
-    calculatedFrom ) `crlf
-line` , zchar[1 ]
-int @lengthOf( int),u8  string_,
-//x
-// c
-@tag(3 // packet A { u8 x, }
-) @tag( 10 // c
-)
-i64_
-    // " ++ [128512]%N ++ runes_of_ascii " emoji
-    {repeat	i16 body
-    //x
-    `crlf
-line` , f64 repeatCount @lengthOf( x_y_z )
-    , x{ char[ 0 ]// a // b
-int , }
-, match u128
-    as
-    MetaDataX { [ 007 ,
-    //x
-    ""// no comment"" ] : string_,
-// a // b
-// trailing space 
-0 : int,  [  42 , ""`tick`"" , 0123456789
-, ""\" ++ [233]%N ++ runes_of_ascii """  , ""1"", ""packet"" , 255
-, ""{,}"" ]:	crc ,
-0123456789  :	rootA [ ""\n"" ] :
-    // packet A { u8 x, }
-    charz , [ ""packet"", 10 ]
-:T , }
-, }//
-, // packet A { u8 x, }
-repeat
-zchar[ 007  ]matchKey `crlf
-line` ,
-    @rightPad // `tick` ""quote"" 'q'
-(
-    '0' )
-    // `tick` ""quote"" 'q'
-    repeat char[ 00	]
-pack`{ , }` , // " ++ [27880; 37322]%N ++ runes_of_ascii "
-i8i8
-, f32a
-    { u128
-    packetx , MetaDataX msg_type ,
-char[ 65535] falsey `" ++ [28040; 24687; 31867; 22411]%N ++ runes_of_ascii "`
-, }
-    , } packet uint8x { uint32 msg_type`u8 x,` , char[ 65535 ] // c
-o // trailing space 
-`u8 x,` , @rightPad
-( '\x00' )
-int @lengthOf( int )`crlf
-line` ,}packet Logon{ char[] string_ ,
-    string repeatCount// trailing space 
-@lengthOf( _x
-)
-    // packet A { u8 x, }
-    ,  @calculatedFrom( ""\" ++ [233]%N ++ runes_of_ascii """ )@lengthOf( trueish) @tag(
-//
-// `tick` ""quote"" 'q'
-007 ) i8
-    a1
-@lengthOf(
-BodyLength
-) `it's` ,	@rightPad ( ' ') @calculatedFrom(
-    ""{,}"" // c
-) @lengthOf(
-    // `tick` ""quote"" 'q'
-    zchar
-// c
-//	t
-) repeat
-    _x {
-    len
-, repeat	uint16
-    /// triple
-    trueish `say ""hi""` , u16 roots `two words` ,},} // `tick` ""quote"" 'q'")).
-Eval vm_compute in ("<<<T370>>>" ++ terms [mkTok 37 "MetaData" 1 0 false; mkTok 42 "matchKey" 1 9 false; mkTok 2 "{" 2 0 false; mkTok 29 "float64" 2 2 false; mkTok 42 "string_" 2 10 false; mkTok 40 "," 2 17 false; mkTok 15 "string" 2 19 false; mkTok 42 "pack" 2 26 false; mkTok 43 "`doc`" 2 30 false; mkTok 40 "," 2 36 false; mkTok 42 "Foo" 2 37 false; mkTok 42 "float" 2 41 false; mkTok 43 "``" 2 47 false; mkTok 40 "," 2 50 false; mkTok 42 "x" 2 51 false; mkTok 42 "chars" 2 53 false; mkTok 43 (string_of_bytes [96; 99; 114; 108; 102; 13; 10; 108; 105; 110; 101; 96]%N) 3 4 false; mkTok 40 "," 5 4 false; mkTok 3 "}" 6 0 false; mkTok 35 "packet" 6 2 false; mkTok 42 "Header" 6 9 false; mkTok 2 "{" 6 16 false; mkTok 29 "float64" 6 18 false; mkTok 42 "lengthOf" 6 26 false; mkTok 44 "//x" 6 35 true; mkTok 7 "@lengthOf(" 7 0 false; mkTok 42 "calculatedFrom" 8 4 false; mkTok 6 ")" 8 19 false; mkTok 43 (string_of_bytes [96; 99; 114; 108; 102; 13; 10; 108; 105; 110; 101; 96]%N) 8 21 false; mkTok 40 "," 9 6 false; mkTok 14 "zchar[" 9 8 false; mkTok 30 "1" 9 14 false; mkTok 13 "]" 9 16 false; mkTok 42 "int" 10 0 false; mkTok 7 "@lengthOf(" 10 4 false; mkTok 42 "int" 10 15 false; mkTok 6 ")" 10 18 false; mkTok 40 "," 10 19 false; mkTok 20 "u8" 10 20 false; mkTok 42 "string_" 10 24 false; mkTok 40 "," 10 31 false; mkTok 44 "//x" 11 0 true; mkTok 44 "// c" 12 0 true; mkTok 9 "@tag(" 13 0 false; mkTok 30 "3" 13 5 false; mkTok 44 "// packet A { u8 x, }" 13 7 true; mkTok 6 ")" 14 0 false; mkTok 9 "@tag(" 14 2 false; mkTok 30 "10" 14 8 false; mkTok 44 "// c" 14 11 true; mkTok 6 ")" 15 0 false; mkTok 42 "i64_" 16 0 false; mkTok 44 (string_of_bytes [47; 47; 32; 240; 159; 152; 128; 32; 101; 109; 111; 106; 105]%N) 17 4 true; mkTok 2 "{" 18 4 false; mkTok 36 "repeat" 18 5 false; mkTok 25 "i16" 18 12 false; mkTok 42 "body" 18 16 false; mkTok 44 "//x" 19 4 true; mkTok 43 (string_of_bytes [96; 99; 114; 108; 102; 13; 10; 108; 105; 110; 101; 96]%N) 20 4 false; mkTok 40 "," 21 6 false; mkTok 29 "f64" 21 8 false; mkTok 42 "repeatCount" 21 12 false; mkTok 7 "@lengthOf(" 21 24 false; mkTok 42 "x_y_z" 21 35 false; mkTok 6 ")" 21 41 false; mkTok 40 "," 22 4 false; mkTok 42 "x" 22 6 false; mkTok 2 "{" 22 7 false; mkTok 12 "char[" 22 9 false; mkTok 30 "0" 22 15 false; mkTok 13 "]" 22 17 false; mkTok 44 "// a // b" 22 18 true; mkTok 42 "int" 23 0 false; mkTok 40 "," 23 4 false; mkTok 3 "}" 23 6 false; mkTok 40 "," 24 0 false; mkTok 38 "match" 24 2 false; mkTok 42 "u128" 24 8 false; mkTok 17 "as" 25 4 false; mkTok 42 "MetaDataX" 26 4 false; mkTok 2 "{" 26 14 false; mkTok 18 "[" 26 16 false; mkTok 30 "007" 26 18 false; mkTok 40 "," 26 22 false; mkTok 44 "//x" 27 4 true; mkTok 31 """// no comment""" 28 4 false; mkTok 13 "]" 28 20 false; mkTok 39 ":" 28 22 false; mkTok 42 "string_" 28 24 false; mkTok 40 "," 28 31 false; mkTok 44 "// a // b" 29 0 true; mkTok 44 "// trailing space " 30 0 true; mkTok 30 "0" 31 0 false; mkTok 39 ":" 31 2 false; mkTok 42 "int" 31 4 false; mkTok 40 "," 31 7 false; mkTok 18 "[" 31 10 false; mkTok 30 "42" 31 13 false; mkTok 40 "," 31 16 false; mkTok 31 """`tick`""" 31 18 false; mkTok 40 "," 31 27 false; mkTok 30 "0123456789" 31 29 false; mkTok 40 "," 32 0 false; mkTok 31 (string_of_bytes [34; 92; 195; 169; 34]%N) 32 2 false; mkTok 40 "," 32 8 false; mkTok 31 """1""" 32 10 false; mkTok 40 "," 32 13 false; mkTok 31 """packet""" 32 15 false; mkTok 40 "," 32 24 false; mkTok 30 "255" 32 26 false; mkTok 40 "," 33 0 false; mkTok 31 """{,}""" 33 2 false; mkTok 13 "]" 33 8 false; mkTok 39 ":" 33 9 false; mkTok 42 "crc" 33 11 false; mkTok 40 "," 33 15 false; mkTok 30 "0123456789" 34 0 false; mkTok 39 ":" 34 12 false; mkTok 42 "rootA" 34 14 false; mkTok 18 "[" 34 20 false; mkTok 31 """\n""" 34 22 false; mkTok 13 "]" 34 27 false; mkTok 39 ":" 34 29 false; mkTok 44 "// packet A { u8 x, }" 35 4 true; mkTok 42 "charz" 36 4 false; mkTok 40 "," 36 10 false; mkTok 18 "[" 36 12 false; mkTok 31 """packet""" 36 14 false; mkTok 40 "," 36 22 false; mkTok 30 "10" 36 24 false; mkTok 13 "]" 36 27 false; mkTok 39 ":" 37 0 false; mkTok 42 "T" 37 1 false; mkTok 40 "," 37 3 false; mkTok 3 "}" 37 5 false; mkTok 40 "," 38 0 false; mkTok 3 "}" 38 2 false; mkTok 44 "//" 38 3 true; mkTok 40 "," 39 0 false; mkTok 44 "// packet A { u8 x, }" 39 2 true; mkTok 36 "repeat" 40 0 false; mkTok 14 "zchar[" 41 0 false; mkTok 30 "007" 41 7 false; mkTok 13 "]" 41 12 false; mkTok 42 "matchKey" 41 13 false; mkTok 43 (string_of_bytes [96; 99; 114; 108; 102; 13; 10; 108; 105; 110; 101; 96]%N) 41 22 false; mkTok 40 "," 42 6 false; mkTok 32 "@rightPad" 43 4 false; mkTok 44 "// `tick` ""quote"" 'q'" 43 14 true; mkTok 8 "(" 44 0 false; mkTok 33 "'0'" 45 4 false; mkTok 6 ")" 45 8 false; mkTok 44 "// `tick` ""quote"" 'q'" 46 4 true; mkTok 36 "repeat" 47 4 false; mkTok 12 "char[" 47 11 false; mkTok 30 "00" 47 17 false; mkTok 13 "]" 47 20 false; mkTok 42 "pack" 48 0 false; mkTok 43 "`{ , }`" 48 4 false; mkTok 40 "," 48 12 false; mkTok 44 (string_of_bytes [47; 47; 32; 230; 179; 168; 233; 135; 138]%N) 48 14 true; mkTok 42 "i8i8" 49 0 false; mkTok 40 "," 50 0 false; mkTok 42 "f32a" 50 2 false; mkTok 2 "{" 51 4 false; mkTok 42 "u128" 51 6 false; mkTok 42 "packetx" 52 4 false; mkTok 40 "," 52 12 false; mkTok 42 "MetaDataX" 52 14 false; mkTok 42 "msg_type" 52 24 false; mkTok 40 "," 52 33 false; mkTok 12 "char[" 53 0 false; mkTok 30 "65535" 53 6 false; mkTok 13 "]" 53 11 false; mkTok 42 "falsey" 53 13 false; mkTok 43 (string_of_bytes [96; 230; 182; 136; 230; 129; 175; 231; 177; 187; 229; 158; 139; 96]%N) 53 20 false; mkTok 40 "," 54 0 false; mkTok 3 "}" 54 2 false; mkTok 40 "," 55 4 false; mkTok 3 "}" 55 6 false; mkTok 35 "packet" 55 8 false; mkTok 42 "uint8x" 55 15 false; mkTok 2 "{" 55 22 false; mkTok 22 "uint32" 55 24 false; mkTok 42 "msg_type" 55 31 false; mkTok 43 "`u8 x,`" 55 39 false; mkTok 40 "," 55 47 false; mkTok 12 "char[" 55 49 false; mkTok 30 "65535" 55 55 false; mkTok 13 "]" 55 61 false; mkTok 44 "// c" 55 63 true; mkTok 42 "o" 56 0 false; mkTok 44 "// trailing space " 56 2 true; mkTok 43 "`u8 x,`" 57 0 false; mkTok 40 "," 57 8 false; mkTok 32 "@rightPad" 57 10 false; mkTok 8 "(" 58 0 false; mkTok 33 "'\x00'" 58 2 false; mkTok 6 ")" 58 9 false; mkTok 42 "int" 59 0 false; mkTok 7 "@lengthOf(" 59 4 false; mkTok 42 "int" 59 15 false; mkTok 6 ")" 59 19 false; mkTok 43 (string_of_bytes [96; 99; 114; 108; 102; 13; 10; 108; 105; 110; 101; 96]%N) 59 20 false; mkTok 40 "," 60 6 false; mkTok 3 "}" 60 7 false; mkTok 35 "packet" 60 8 false; mkTok 42 "Logon" 60 15 false; mkTok 2 "{" 60 20 false; mkTok 16 "char[]" 60 22 false; mkTok 42 "string_" 60 29 false; mkTok 40 "," 60 37 false; mkTok 15 "string" 61 4 false; mkTok 42 "repeatCount" 61 11 false; mkTok 44 "// trailing space " 61 22 true; mkTok 7 "@lengthOf(" 62 0 false; mkTok 42 "_x" 62 11 false; mkTok 6 ")" 63 0 false; mkTok 44 "// packet A { u8 x, }" 64 4 true; mkTok 40 "," 65 4 false; mkTok 5 "@calculatedFrom(" 65 7 false; mkTok 31 (string_of_bytes [34; 92; 195; 169; 34]%N) 65 24 false; mkTok 6 ")" 65 29 false; mkTok 7 "@lengthOf(" 65 30 false; mkTok 42 "trueish" 65 41 false; mkTok 6 ")" 65 48 false; mkTok 9 "@tag(" 65 50 false; mkTok 44 "//" 66 0 true; mkTok 44 "// `tick` ""quote"" 'q'" 67 0 true; mkTok 30 "007" 68 0 false; mkTok 6 ")" 68 4 false; mkTok 24 "i8" 68 6 false; mkTok 42 "a1" 69 4 false; mkTok 7 "@lengthOf(" 70 0 false; mkTok 42 "BodyLength" 71 0 false; mkTok 6 ")" 72 0 false; mkTok 43 "`it's`" 72 2 false; mkTok 40 "," 72 9 false; mkTok 32 "@rightPad" 72 11 false; mkTok 8 "(" 72 21 false; mkTok 33 "' '" 72 23 false; mkTok 6 ")" 72 26 false; mkTok 5 "@calculatedFrom(" 72 28 false; mkTok 31 """{,}""" 73 4 false; mkTok 44 "// c" 73 10 true; mkTok 6 ")" 74 0 false; mkTok 7 "@lengthOf(" 74 2 false; mkTok 44 "// `tick` ""quote"" 'q'" 75 4 true; mkTok 42 "zchar" 76 4 false; mkTok 44 "// c" 77 0 true; mkTok 44 (string_of_bytes [47; 47; 9; 116]%N) 78 0 true; mkTok 6 ")" 79 0 false; mkTok 36 "repeat" 79 2 false; mkTok 42 "_x" 80 4 false; mkTok 2 "{" 80 7 false; mkTok 42 "len" 81 4 false; mkTok 40 "," 82 0 false; mkTok 36 "repeat" 82 2 false; mkTok 21 "uint16" 82 9 false; mkTok 44 "/// triple" 83 4 true; mkTok 42 "trueish" 84 4 false; mkTok 43 "`say ""hi""`" 84 12 false; mkTok 40 "," 84 23 false; mkTok 21 "u16" 84 25 false; mkTok 42 "roots" 84 29 false; mkTok 43 "`two words`" 84 35 false; mkTok 40 "," 84 47 false; mkTok 3 "}" 84 48 false; mkTok 40 "," 84 49 false; mkTok 3 "}" 84 50 false; mkTok 44 "// `tick` ""quote"" 'q'" 84 52 true; mkTok 0 "<EOF>" 84 73 false] (mkPacket (mkPtok 37 "MetaData" 1 0 0) (Some (mkPtok 3 "}" 84 50 269)) [(DMeta (mkMetaDef (mkSpan (mkPtok 37 "MetaData" 1 0 0) (mkPtok 3 "}" 6 0 18)) (mkPtok 37 "MetaData" 1 0 0) (mkPtok 42 "matchKey" 1 9 1) (mkPtok 2 "{" 2 0 2) [(MIDecl (mkMetaDecl (mkSpan (mkPtok 29 "float64" 2 2 3) (mkPtok 40 "," 2 17 5)) (TyBasic (mkSpan (mkPtok 29 "float64" 2 2 3) (mkPtok 29 "float64" 2 2 3)) (mkBasicType (mkSpan (mkPtok 29 "float64" 2 2 3) (mkPtok 29 "float64" 2 2 3)) (mkPtok 29 "float64" 2 2 3))) (mkPtok 42 "string_" 2 10 4) None (mkPtok 40 "," 2 17 5))); (MIDecl (mkMetaDecl (mkSpan (mkPtok 15 "string" 2 19 6) (mkPtok 40 "," 2 36 9)) (TyDynamic (mkSpan (mkPtok 15 "string" 2 19 6) (mkPtok 15 "string" 2 19 6)) (mkDynamicString (mkSpan (mkPtok 15 "string" 2 19 6) (mkPtok 15 "string" 2 19 6)) (mkPtok 15 "string" 2 19 6))) (mkPtok 42 "pack" 2 26 7) (Some (mkPtok 43 "`doc`" 2 30 8)) (mkPtok 40 "," 2 36 9))); (MIRef (mkRefMetaDecl (mkSpan (mkPtok 42 "Foo" 2 37 10) (mkPtok 40 "," 2 50 13)) (mkPtok 42 "Foo" 2 37 10) (mkPtok 42 "float" 2 41 11) (Some (mkPtok 43 "``" 2 47 12)) (mkPtok 40 "," 2 50 13))); (MIRef (mkRefMetaDecl (mkSpan (mkPtok 42 "x" 2 51 14) (mkPtok 40 "," 5 4 17)) (mkPtok 42 "x" 2 51 14) (mkPtok 42 "chars" 2 53 15) (Some (mkPtok 43 (string_of_bytes [96; 99; 114; 108; 102; 13; 10; 108; 105; 110; 101; 96]%N) 3 4 16)) (mkPtok 40 "," 5 4 17)))] (mkPtok 3 "}" 6 0 18))); (DPacket (mkPacketDef (mkSpan (mkPtok 35 "packet" 6 2 19) (mkPtok 3 "}" 55 6 179)) None (mkPtok 35 "packet" 6 2 19) (mkPtok 42 "Header" 6 9 20) (mkPtok 2 "{" 6 16 21) [(mkFieldWithAttr (mkSpan (mkPtok 29 "float64" 6 18 22) (mkPtok 40 "," 9 6 29)) [] (LengthField (mkSpan (mkPtok 29 "float64" 6 18 22) (mkPtok 40 "," 9 6 29)) (mkLengthFieldDecl (mkSpan (mkPtok 29 "float64" 6 18 22) (mkPtok 40 "," 9 6 29)) (Some (TyBasic (mkSpan (mkPtok 29 "float64" 6 18 22) (mkPtok 29 "float64" 6 18 22)) (mkBasicType (mkSpan (mkPtok 29 "float64" 6 18 22) (mkPtok 29 "float64" 6 18 22)) (mkPtok 29 "float64" 6 18 22)))) (mkPtok 42 "lengthOf" 6 26 23) (mkLengthOf (mkSpan (mkPtok 7 "@lengthOf(" 7 0 25) (mkPtok 6 ")" 8 19 27)) (mkPtok 7 "@lengthOf(" 7 0 25) (mkPtok 42 "calculatedFrom" 8 4 26) (mkPtok 6 ")" 8 19 27)) (Some (mkPtok 43 (string_of_bytes [96; 99; 114; 108; 102; 13; 10; 108; 105; 110; 101; 96]%N) 8 21 28)) (mkPtok 40 "," 9 6 29)))); (mkFieldWithAttr (mkSpan (mkPtok 14 "zchar[" 9 8 30) (mkPtok 40 "," 10 19 37)) [] (LengthField (mkSpan (mkPtok 14 "zchar[" 9 8 30) (mkPtok 40 "," 10 19 37)) (mkLengthFieldDecl (mkSpan (mkPtok 14 "zchar[" 9 8 30) (mkPtok 40 "," 10 19 37)) (Some (TyFixed (mkSpan (mkPtok 14 "zchar[" 9 8 30) (mkPtok 13 "]" 9 16 32)) (mkFixedString (mkSpan (mkPtok 14 "zchar[" 9 8 30) (mkPtok 13 "]" 9 16 32)) (mkPtok 14 "zchar[" 9 8 30) (mkPtok 30 "1" 9 14 31) (mkPtok 13 "]" 9 16 32)))) (mkPtok 42 "int" 10 0 33) (mkLengthOf (mkSpan (mkPtok 7 "@lengthOf(" 10 4 34) (mkPtok 6 ")" 10 18 36)) (mkPtok 7 "@lengthOf(" 10 4 34) (mkPtok 42 "int" 10 15 35) (mkPtok 6 ")" 10 18 36)) None (mkPtok 40 "," 10 19 37)))); (mkFieldWithAttr (mkSpan (mkPtok 20 "u8" 10 20 38) (mkPtok 40 "," 10 31 40)) [] (MetaField (mkSpan (mkPtok 20 "u8" 10 20 38) (mkPtok 40 "," 10 31 40)) None (mkMetaDecl (mkSpan (mkPtok 20 "u8" 10 20 38) (mkPtok 40 "," 10 31 40)) (TyBasic (mkSpan (mkPtok 20 "u8" 10 20 38) (mkPtok 20 "u8" 10 20 38)) (mkBasicType (mkSpan (mkPtok 20 "u8" 10 20 38) (mkPtok 20 "u8" 10 20 38)) (mkPtok 20 "u8" 10 20 38))) (mkPtok 42 "string_" 10 24 39) None (mkPtok 40 "," 10 31 40)))); (mkFieldWithAttr (mkSpan (mkPtok 9 "@tag(" 13 0 43) (mkPtok 40 "," 39 0 138)) [(FATag (mkSpan (mkPtok 9 "@tag(" 13 0 43) (mkPtok 6 ")" 14 0 46)) (mkTagAttr (mkSpan (mkPtok 9 "@tag(" 13 0 43) (mkPtok 6 ")" 14 0 46)) (mkPtok 9 "@tag(" 13 0 43) (mkPtok 30 "3" 13 5 44) (mkPtok 6 ")" 14 0 46))); (FATag (mkSpan (mkPtok 9 "@tag(" 14 2 47) (mkPtok 6 ")" 15 0 50)) (mkTagAttr (mkSpan (mkPtok 9 "@tag(" 14 2 47) (mkPtok 6 ")" 15 0 50)) (mkPtok 9 "@tag(" 14 2 47) (mkPtok 30 "10" 14 8 48) (mkPtok 6 ")" 15 0 50)))] (InerObjectField (mkSpan (mkPtok 42 "i64_" 16 0 51) (mkPtok 40 "," 39 0 138)) None (InerObjectDecl (mkSpan (mkPtok 42 "i64_" 16 0 51) (mkPtok 3 "}" 38 2 136)) (mkPtok 42 "i64_" 16 0 51) (mkPtok 2 "{" 18 4 53) [(MetaField (mkSpan (mkPtok 36 "repeat" 18 5 54) (mkPtok 40 "," 21 6 59)) (Some (mkPtok 36 "repeat" 18 5 54)) (mkMetaDecl (mkSpan (mkPtok 25 "i16" 18 12 55) (mkPtok 40 "," 21 6 59)) (TyBasic (mkSpan (mkPtok 25 "i16" 18 12 55) (mkPtok 25 "i16" 18 12 55)) (mkBasicType (mkSpan (mkPtok 25 "i16" 18 12 55) (mkPtok 25 "i16" 18 12 55)) (mkPtok 25 "i16" 18 12 55))) (mkPtok 42 "body" 18 16 56) (Some (mkPtok 43 (string_of_bytes [96; 99; 114; 108; 102; 13; 10; 108; 105; 110; 101; 96]%N) 20 4 58)) (mkPtok 40 "," 21 6 59))); (LengthField (mkSpan (mkPtok 29 "f64" 21 8 60) (mkPtok 40 "," 22 4 65)) (mkLengthFieldDecl (mkSpan (mkPtok 29 "f64" 21 8 60) (mkPtok 40 "," 22 4 65)) (Some (TyBasic (mkSpan (mkPtok 29 "f64" 21 8 60) (mkPtok 29 "f64" 21 8 60)) (mkBasicType (mkSpan (mkPtok 29 "f64" 21 8 60) (mkPtok 29 "f64" 21 8 60)) (mkPtok 29 "f64" 21 8 60)))) (mkPtok 42 "repeatCount" 21 12 61) (mkLengthOf (mkSpan (mkPtok 7 "@lengthOf(" 21 24 62) (mkPtok 6 ")" 21 41 64)) (mkPtok 7 "@lengthOf(" 21 24 62) (mkPtok 42 "x_y_z" 21 35 63) (mkPtok 6 ")" 21 41 64)) None (mkPtok 40 "," 22 4 65))); (InerObjectField (mkSpan (mkPtok 42 "x" 22 6 66) (mkPtok 40 "," 24 0 75)) None (InerObjectDecl (mkSpan (mkPtok 42 "x" 22 6 66) (mkPtok 3 "}" 23 6 74)) (mkPtok 42 "x" 22 6 66) (mkPtok 2 "{" 22 7 67) [(MetaField (mkSpan (mkPtok 12 "char[" 22 9 68) (mkPtok 40 "," 23 4 73)) None (mkMetaDecl (mkSpan (mkPtok 12 "char[" 22 9 68) (mkPtok 40 "," 23 4 73)) (TyFixed (mkSpan (mkPtok 12 "char[" 22 9 68) (mkPtok 13 "]" 22 17 70)) (mkFixedString (mkSpan (mkPtok 12 "char[" 22 9 68) (mkPtok 13 "]" 22 17 70)) (mkPtok 12 "char[" 22 9 68) (mkPtok 30 "0" 22 15 69) (mkPtok 13 "]" 22 17 70))) (mkPtok 42 "int" 23 0 72) None (mkPtok 40 "," 23 4 73)))] (mkPtok 3 "}" 23 6 74)) (mkPtok 40 "," 24 0 75)); (MatchField (mkSpan (mkPtok 38 "match" 24 2 76) (mkPtok 40 "," 38 0 135)) (mkMatchFieldDecl (mkSpan (mkPtok 38 "match" 24 2 76) (mkPtok 3 "}" 37 5 134)) (mkPtok 38 "match" 24 2 76) (mkPtok 42 "u128" 24 8 77) (mkPtok 17 "as" 25 4 78) (mkPtok 42 "MetaDataX" 26 4 79) (mkPtok 2 "{" 26 14 80) [(mkMatchPair (mkSpan (mkPtok 18 "[" 26 16 81) (mkPtok 40 "," 28 31 89)) (MKList (mkKeyList (mkSpan (mkPtok 18 "[" 26 16 81) (mkPtok 13 "]" 28 20 86)) (mkPtok 18 "[" 26 16 81) (mkPtok 30 "007" 26 18 82) [((mkPtok 40 "," 26 22 83), (mkPtok 31 """// no comment""" 28 4 85))] (mkPtok 13 "]" 28 20 86))) (mkPtok 39 ":" 28 22 87) (mkPtok 42 "string_" 28 24 88) (Some (mkPtok 40 "," 28 31 89))); (mkMatchPair (mkSpan (mkPtok 30 "0" 31 0 92) (mkPtok 40 "," 31 7 95)) (MKDigits (mkPtok 30 "0" 31 0 92)) (mkPtok 39 ":" 31 2 93) (mkPtok 42 "int" 31 4 94) (Some (mkPtok 40 "," 31 7 95))); (mkMatchPair (mkSpan (mkPtok 18 "[" 31 10 96) (mkPtok 40 "," 33 15 115)) (MKList (mkKeyList (mkSpan (mkPtok 18 "[" 31 10 96) (mkPtok 13 "]" 33 8 112)) (mkPtok 18 "[" 31 10 96) (mkPtok 30 "42" 31 13 97) [((mkPtok 40 "," 31 16 98), (mkPtok 31 """`tick`""" 31 18 99)); ((mkPtok 40 "," 31 27 100), (mkPtok 30 "0123456789" 31 29 101)); ((mkPtok 40 "," 32 0 102), (mkPtok 31 (string_of_bytes [34; 92; 195; 169; 34]%N) 32 2 103)); ((mkPtok 40 "," 32 8 104), (mkPtok 31 """1""" 32 10 105)); ((mkPtok 40 "," 32 13 106), (mkPtok 31 """packet""" 32 15 107)); ((mkPtok 40 "," 32 24 108), (mkPtok 30 "255" 32 26 109)); ((mkPtok 40 "," 33 0 110), (mkPtok 31 """{,}""" 33 2 111))] (mkPtok 13 "]" 33 8 112))) (mkPtok 39 ":" 33 9 113) (mkPtok 42 "crc" 33 11 114) (Some (mkPtok 40 "," 33 15 115))); (mkMatchPair (mkSpan (mkPtok 30 "0123456789" 34 0 116) (mkPtok 42 "rootA" 34 14 118)) (MKDigits (mkPtok 30 "0123456789" 34 0 116)) (mkPtok 39 ":" 34 12 117) (mkPtok 42 "rootA" 34 14 118) None); (mkMatchPair (mkSpan (mkPtok 18 "[" 34 20 119) (mkPtok 40 "," 36 10 125)) (MKList (mkKeyList (mkSpan (mkPtok 18 "[" 34 20 119) (mkPtok 13 "]" 34 27 121)) (mkPtok 18 "[" 34 20 119) (mkPtok 31 """\n""" 34 22 120) [] (mkPtok 13 "]" 34 27 121))) (mkPtok 39 ":" 34 29 122) (mkPtok 42 "charz" 36 4 124) (Some (mkPtok 40 "," 36 10 125))); (mkMatchPair (mkSpan (mkPtok 18 "[" 36 12 126) (mkPtok 40 "," 37 3 133)) (MKList (mkKeyList (mkSpan (mkPtok 18 "[" 36 12 126) (mkPtok 13 "]" 36 27 130)) (mkPtok 18 "[" 36 12 126) (mkPtok 31 """packet""" 36 14 127) [((mkPtok 40 "," 36 22 128), (mkPtok 30 "10" 36 24 129))] (mkPtok 13 "]" 36 27 130))) (mkPtok 39 ":" 37 0 131) (mkPtok 42 "T" 37 1 132) (Some (mkPtok 40 "," 37 3 133)))] (mkPtok 3 "}" 37 5 134)) (mkPtok 40 "," 38 0 135))] (mkPtok 3 "}" 38 2 136)) (mkPtok 40 "," 39 0 138))); (mkFieldWithAttr (mkSpan (mkPtok 36 "repeat" 40 0 140) (mkPtok 40 "," 42 6 146)) [] (MetaField (mkSpan (mkPtok 36 "repeat" 40 0 140) (mkPtok 40 "," 42 6 146)) (Some (mkPtok 36 "repeat" 40 0 140)) (mkMetaDecl (mkSpan (mkPtok 14 "zchar[" 41 0 141) (mkPtok 40 "," 42 6 146)) (TyFixed (mkSpan (mkPtok 14 "zchar[" 41 0 141) (mkPtok 13 "]" 41 12 143)) (mkFixedString (mkSpan (mkPtok 14 "zchar[" 41 0 141) (mkPtok 13 "]" 41 12 143)) (mkPtok 14 "zchar[" 41 0 141) (mkPtok 30 "007" 41 7 142) (mkPtok 13 "]" 41 12 143))) (mkPtok 42 "matchKey" 41 13 144) (Some (mkPtok 43 (string_of_bytes [96; 99; 114; 108; 102; 13; 10; 108; 105; 110; 101; 96]%N) 41 22 145)) (mkPtok 40 "," 42 6 146)))); (mkFieldWithAttr (mkSpan (mkPtok 32 "@rightPad" 43 4 147) (mkPtok 40 "," 48 12 159)) [(FAPadding (mkSpan (mkPtok 32 "@rightPad" 43 4 147) (mkPtok 6 ")" 45 8 151)) (mkPaddingAttr (mkSpan (mkPtok 32 "@rightPad" 43 4 147) (mkPtok 6 ")" 45 8 151)) (mkPtok 32 "@rightPad" 43 4 147) (mkPtok 8 "(" 44 0 149) (Some (mkPtok 33 "'0'" 45 4 150)) (mkPtok 6 ")" 45 8 151)))] (MetaField (mkSpan (mkPtok 36 "repeat" 47 4 153) (mkPtok 40 "," 48 12 159)) (Some (mkPtok 36 "repeat" 47 4 153)) (mkMetaDecl (mkSpan (mkPtok 12 "char[" 47 11 154) (mkPtok 40 "," 48 12 159)) (TyFixed (mkSpan (mkPtok 12 "char[" 47 11 154) (mkPtok 13 "]" 47 20 156)) (mkFixedString (mkSpan (mkPtok 12 "char[" 47 11 154) (mkPtok 13 "]" 47 20 156)) (mkPtok 12 "char[" 47 11 154) (mkPtok 30 "00" 47 17 155) (mkPtok 13 "]" 47 20 156))) (mkPtok 42 "pack" 48 0 157) (Some (mkPtok 43 "`{ , }`" 48 4 158)) (mkPtok 40 "," 48 12 159)))); (mkFieldWithAttr (mkSpan (mkPtok 42 "i8i8" 49 0 161) (mkPtok 40 "," 50 0 162)) [] (ObjectField (mkSpan (mkPtok 42 "i8i8" 49 0 161) (mkPtok 40 "," 50 0 162)) None (mkPtok 42 "i8i8" 49 0 161) None None (mkPtok 40 "," 50 0 162))); (mkFieldWithAttr (mkSpan (mkPtok 42 "f32a" 50 2 163) (mkPtok 40 "," 55 4 178)) [] (InerObjectField (mkSpan (mkPtok 42 "f32a" 50 2 163) (mkPtok 40 "," 55 4 178)) None (InerObjectDecl (mkSpan (mkPtok 42 "f32a" 50 2 163) (mkPtok 3 "}" 54 2 177)) (mkPtok 42 "f32a" 50 2 163) (mkPtok 2 "{" 51 4 164) [(ObjectField (mkSpan (mkPtok 42 "u128" 51 6 165) (mkPtok 40 "," 52 12 167)) None (mkPtok 42 "u128" 51 6 165) (Some (mkPtok 42 "packetx" 52 4 166)) None (mkPtok 40 "," 52 12 167)); (ObjectField (mkSpan (mkPtok 42 "MetaDataX" 52 14 168) (mkPtok 40 "," 52 33 170)) None (mkPtok 42 "MetaDataX" 52 14 168) (Some (mkPtok 42 "msg_type" 52 24 169)) None (mkPtok 40 "," 52 33 170)); (MetaField (mkSpan (mkPtok 12 "char[" 53 0 171) (mkPtok 40 "," 54 0 176)) None (mkMetaDecl (mkSpan (mkPtok 12 "char[" 53 0 171) (mkPtok 40 "," 54 0 176)) (TyFixed (mkSpan (mkPtok 12 "char[" 53 0 171) (mkPtok 13 "]" 53 11 173)) (mkFixedString (mkSpan (mkPtok 12 "char[" 53 0 171) (mkPtok 13 "]" 53 11 173)) (mkPtok 12 "char[" 53 0 171) (mkPtok 30 "65535" 53 6 172) (mkPtok 13 "]" 53 11 173))) (mkPtok 42 "falsey" 53 13 174) (Some (mkPtok 43 (string_of_bytes [96; 230; 182; 136; 230; 129; 175; 231; 177; 187; 229; 158; 139; 96]%N) 53 20 175)) (mkPtok 40 "," 54 0 176)))] (mkPtok 3 "}" 54 2 177)) (mkPtok 40 "," 55 4 178)))] (mkPtok 3 "}" 55 6 179))); (DPacket (mkPacketDef (mkSpan (mkPtok 35 "packet" 55 8 180) (mkPtok 3 "}" 60 7 205)) None (mkPtok 35 "packet" 55 8 180) (mkPtok 42 "uint8x" 55 15 181) (mkPtok 2 "{" 55 22 182) [(mkFieldWithAttr (mkSpan (mkPtok 22 "uint32" 55 24 183) (mkPtok 40 "," 55 47 186)) [] (MetaField (mkSpan (mkPtok 22 "uint32" 55 24 183) (mkPtok 40 "," 55 47 186)) None (mkMetaDecl (mkSpan (mkPtok 22 "uint32" 55 24 183) (mkPtok 40 "," 55 47 186)) (TyBasic (mkSpan (mkPtok 22 "uint32" 55 24 183) (mkPtok 22 "uint32" 55 24 183)) (mkBasicType (mkSpan (mkPtok 22 "uint32" 55 24 183) (mkPtok 22 "uint32" 55 24 183)) (mkPtok 22 "uint32" 55 24 183))) (mkPtok 42 "msg_type" 55 31 184) (Some (mkPtok 43 "`u8 x,`" 55 39 185)) (mkPtok 40 "," 55 47 186)))); (mkFieldWithAttr (mkSpan (mkPtok 12 "char[" 55 49 187) (mkPtok 40 "," 57 8 194)) [] (MetaField (mkSpan (mkPtok 12 "char[" 55 49 187) (mkPtok 40 "," 57 8 194)) None (mkMetaDecl (mkSpan (mkPtok 12 "char[" 55 49 187) (mkPtok 40 "," 57 8 194)) (TyFixed (mkSpan (mkPtok 12 "char[" 55 49 187) (mkPtok 13 "]" 55 61 189)) (mkFixedString (mkSpan (mkPtok 12 "char[" 55 49 187) (mkPtok 13 "]" 55 61 189)) (mkPtok 12 "char[" 55 49 187) (mkPtok 30 "65535" 55 55 188) (mkPtok 13 "]" 55 61 189))) (mkPtok 42 "o" 56 0 191) (Some (mkPtok 43 "`u8 x,`" 57 0 193)) (mkPtok 40 "," 57 8 194)))); (mkFieldWithAttr (mkSpan (mkPtok 32 "@rightPad" 57 10 195) (mkPtok 40 "," 60 6 204)) [(FAPadding (mkSpan (mkPtok 32 "@rightPad" 57 10 195) (mkPtok 6 ")" 58 9 198)) (mkPaddingAttr (mkSpan (mkPtok 32 "@rightPad" 57 10 195) (mkPtok 6 ")" 58 9 198)) (mkPtok 32 "@rightPad" 57 10 195) (mkPtok 8 "(" 58 0 196) (Some (mkPtok 33 "'\x00'" 58 2 197)) (mkPtok 6 ")" 58 9 198)))] (LengthField (mkSpan (mkPtok 42 "int" 59 0 199) (mkPtok 40 "," 60 6 204)) (mkLengthFieldDecl (mkSpan (mkPtok 42 "int" 59 0 199) (mkPtok 40 "," 60 6 204)) None (mkPtok 42 "int" 59 0 199) (mkLengthOf (mkSpan (mkPtok 7 "@lengthOf(" 59 4 200) (mkPtok 6 ")" 59 19 202)) (mkPtok 7 "@lengthOf(" 59 4 200) (mkPtok 42 "int" 59 15 201) (mkPtok 6 ")" 59 19 202)) (Some (mkPtok 43 (string_of_bytes [96; 99; 114; 108; 102; 13; 10; 108; 105; 110; 101; 96]%N) 59 20 203)) (mkPtok 40 "," 60 6 204))))] (mkPtok 3 "}" 60 7 205))); (DPacket (mkPacketDef (mkSpan (mkPtok 35 "packet" 60 8 206) (mkPtok 3 "}" 84 50 269)) None (mkPtok 35 "packet" 60 8 206) (mkPtok 42 "Logon" 60 15 207) (mkPtok 2 "{" 60 20 208) [(mkFieldWithAttr (mkSpan (mkPtok 16 "char[]" 60 22 209) (mkPtok 40 "," 60 37 211)) [] (MetaField (mkSpan (mkPtok 16 "char[]" 60 22 209) (mkPtok 40 "," 60 37 211)) None (mkMetaDecl (mkSpan (mkPtok 16 "char[]" 60 22 209) (mkPtok 40 "," 60 37 211)) (TyDynamic (mkSpan (mkPtok 16 "char[]" 60 22 209) (mkPtok 16 "char[]" 60 22 209)) (mkDynamicString (mkSpan (mkPtok 16 "char[]" 60 22 209) (mkPtok 16 "char[]" 60 22 209)) (mkPtok 16 "char[]" 60 22 209))) (mkPtok 42 "string_" 60 29 210) None (mkPtok 40 "," 60 37 211)))); (mkFieldWithAttr (mkSpan (mkPtok 15 "string" 61 4 212) (mkPtok 40 "," 65 4 219)) [] (LengthField (mkSpan (mkPtok 15 "string" 61 4 212) (mkPtok 40 "," 65 4 219)) (mkLengthFieldDecl (mkSpan (mkPtok 15 "string" 61 4 212) (mkPtok 40 "," 65 4 219)) (Some (TyDynamic (mkSpan (mkPtok 15 "string" 61 4 212) (mkPtok 15 "string" 61 4 212)) (mkDynamicString (mkSpan (mkPtok 15 "string" 61 4 212) (mkPtok 15 "string" 61 4 212)) (mkPtok 15 "string" 61 4 212)))) (mkPtok 42 "repeatCount" 61 11 213) (mkLengthOf (mkSpan (mkPtok 7 "@lengthOf(" 62 0 215) (mkPtok 6 ")" 63 0 217)) (mkPtok 7 "@lengthOf(" 62 0 215) (mkPtok 42 "_x" 62 11 216) (mkPtok 6 ")" 63 0 217)) None (mkPtok 40 "," 65 4 219)))); (mkFieldWithAttr (mkSpan (mkPtok 5 "@calculatedFrom(" 65 7 220) (mkPtok 40 "," 72 9 237)) [(FACalculatedFrom (mkSpan (mkPtok 5 "@calculatedFrom(" 65 7 220) (mkPtok 6 ")" 65 29 222)) (mkCalculatedFrom (mkSpan (mkPtok 5 "@calculatedFrom(" 65 7 220) (mkPtok 6 ")" 65 29 222)) (mkPtok 5 "@calculatedFrom(" 65 7 220) (mkPtok 31 (string_of_bytes [34; 92; 195; 169; 34]%N) 65 24 221) (mkPtok 6 ")" 65 29 222))); (FALengthOf (mkSpan (mkPtok 7 "@lengthOf(" 65 30 223) (mkPtok 6 ")" 65 48 225)) (mkLengthOf (mkSpan (mkPtok 7 "@lengthOf(" 65 30 223) (mkPtok 6 ")" 65 48 225)) (mkPtok 7 "@lengthOf(" 65 30 223) (mkPtok 42 "trueish" 65 41 224) (mkPtok 6 ")" 65 48 225))); (FATag (mkSpan (mkPtok 9 "@tag(" 65 50 226) (mkPtok 6 ")" 68 4 230)) (mkTagAttr (mkSpan (mkPtok 9 "@tag(" 65 50 226) (mkPtok 6 ")" 68 4 230)) (mkPtok 9 "@tag(" 65 50 226) (mkPtok 30 "007" 68 0 229) (mkPtok 6 ")" 68 4 230)))] (LengthField (mkSpan (mkPtok 24 "i8" 68 6 231) (mkPtok 40 "," 72 9 237)) (mkLengthFieldDecl (mkSpan (mkPtok 24 "i8" 68 6 231) (mkPtok 40 "," 72 9 237)) (Some (TyBasic (mkSpan (mkPtok 24 "i8" 68 6 231) (mkPtok 24 "i8" 68 6 231)) (mkBasicType (mkSpan (mkPtok 24 "i8" 68 6 231) (mkPtok 24 "i8" 68 6 231)) (mkPtok 24 "i8" 68 6 231)))) (mkPtok 42 "a1" 69 4 232) (mkLengthOf (mkSpan (mkPtok 7 "@lengthOf(" 70 0 233) (mkPtok 6 ")" 72 0 235)) (mkPtok 7 "@lengthOf(" 70 0 233) (mkPtok 42 "BodyLength" 71 0 234) (mkPtok 6 ")" 72 0 235)) (Some (mkPtok 43 "`it's`" 72 2 236)) (mkPtok 40 "," 72 9 237)))); (mkFieldWithAttr (mkSpan (mkPtok 32 "@rightPad" 72 11 238) (mkPtok 40 "," 84 49 268)) [(FAPadding (mkSpan (mkPtok 32 "@rightPad" 72 11 238) (mkPtok 6 ")" 72 26 241)) (mkPaddingAttr (mkSpan (mkPtok 32 "@rightPad" 72 11 238) (mkPtok 6 ")" 72 26 241)) (mkPtok 32 "@rightPad" 72 11 238) (mkPtok 8 "(" 72 21 239) (Some (mkPtok 33 "' '" 72 23 240)) (mkPtok 6 ")" 72 26 241))); (FACalculatedFrom (mkSpan (mkPtok 5 "@calculatedFrom(" 72 28 242) (mkPtok 6 ")" 74 0 245)) (mkCalculatedFrom (mkSpan (mkPtok 5 "@calculatedFrom(" 72 28 242) (mkPtok 6 ")" 74 0 245)) (mkPtok 5 "@calculatedFrom(" 72 28 242) (mkPtok 31 """{,}""" 73 4 243) (mkPtok 6 ")" 74 0 245))); (FALengthOf (mkSpan (mkPtok 7 "@lengthOf(" 74 2 246) (mkPtok 6 ")" 79 0 251)) (mkLengthOf (mkSpan (mkPtok 7 "@lengthOf(" 74 2 246) (mkPtok 6 ")" 79 0 251)) (mkPtok 7 "@lengthOf(" 74 2 246) (mkPtok 42 "zchar" 76 4 248) (mkPtok 6 ")" 79 0 251)))] (InerObjectField (mkSpan (mkPtok 36 "repeat" 79 2 252) (mkPtok 40 "," 84 49 268)) (Some (mkPtok 36 "repeat" 79 2 252)) (InerObjectDecl (mkSpan (mkPtok 42 "_x" 80 4 253) (mkPtok 3 "}" 84 48 267)) (mkPtok 42 "_x" 80 4 253) (mkPtok 2 "{" 80 7 254) [(ObjectField (mkSpan (mkPtok 42 "len" 81 4 255) (mkPtok 40 "," 82 0 256)) None (mkPtok 42 "len" 81 4 255) None None (mkPtok 40 "," 82 0 256)); (MetaField (mkSpan (mkPtok 36 "repeat" 82 2 257) (mkPtok 40 "," 84 23 262)) (Some (mkPtok 36 "repeat" 82 2 257)) (mkMetaDecl (mkSpan (mkPtok 21 "uint16" 82 9 258) (mkPtok 40 "," 84 23 262)) (TyBasic (mkSpan (mkPtok 21 "uint16" 82 9 258) (mkPtok 21 "uint16" 82 9 258)) (mkBasicType (mkSpan (mkPtok 21 "uint16" 82 9 258) (mkPtok 21 "uint16" 82 9 258)) (mkPtok 21 "uint16" 82 9 258))) (mkPtok 42 "trueish" 84 4 260) (Some (mkPtok 43 "`say ""hi""`" 84 12 261)) (mkPtok 40 "," 84 23 262))); (MetaField (mkSpan (mkPtok 21 "u16" 84 25 263) (mkPtok 40 "," 84 47 266)) None (mkMetaDecl (mkSpan (mkPtok 21 "u16" 84 25 263) (mkPtok 40 "," 84 47 266)) (TyBasic (mkSpan (mkPtok 21 "u16" 84 25 263) (mkPtok 21 "u16" 84 25 263)) (mkBasicType (mkSpan (mkPtok 21 "u16" 84 25 263) (mkPtok 21 "u16" 84 25 263)) (mkPtok 21 "u16" 84 25 263))) (mkPtok 42 "roots" 84 29 264) (Some (mkPtok 43 "`two words`" 84 35 265)) (mkPtok 40 "," 84 47 266)))] (mkPtok 3 "}" 84 48 267)) (mkPtok 40 "," 84 49 268)))] (mkPtok 3 "}" 84 50 269)))])).
-Eval vm_compute in ("<<<M402>>>" ++ check (runes_of_ascii "packet
-len
-    /// triple
-    { @tag(1
-) zchar[1 ] Foo
-@lengthOf( Foo )
-,T zchar
-``
-, }
-
-")).
-Eval vm_compute in ("<<<M434>>>" ++ check (runes_of_ascii "// " ++ [128512]%N ++ runes_of_ascii " emoji
-")).
-Eval vm_compute in ("<<<M466>>>" ++ check (runes_of_ascii "
-")).
-Eval vm_compute in ("<<<M498>>>" ++ check (runes_of_ascii "options { i64_	= ""\n""; BodyLength
-    = float64 i64_ =
-    false ; }MetaData  Packet  {	uint16 A `u8 x,` ,
-    zchar[ 007 ]i64_ , char[ 007	]
-chars ,
-    float64
-x_y_z,MetaDataX stringy`// not a comment`, }
-MetaData
-msg_type { }")).
-Eval vm_compute in ("<<<M530>>>" ++ check (runes_of_ascii "
-root
-packet  a1 { uint64
-    charz
-,
-BodyLength	_x`
+Eval vm_compute in ("<<<M50>>>" ++ check (runes_of_ascii "MetaData leftPad
+    { uint64 tag	`{ , }`
+, i64
+    chars
 `
-    ,	u64 roots `tab	here`	,
-match calculatedFrom as calculatedFrom { 10:  leftPad } ,
-i64_ @calculatedFrom( ""// no comment"" )
-,
-match
-// a // b
-/// triple
-len as BodyLength { [ ""CRC32"" //x
-, ""\" ++ [233]%N ++ runes_of_ascii """]
-:  MetaDataX , } ,uint64 trueish `u8 x,`// trailing space 
-, repeat
-i32 options1
-,// @lengthOf(
-}
-packet pack//	t
-{float32 asx
-    `a\` , int64 charz
-    //	t
-    @lengthOf(  repeatCount ) `" ++ [28040; 24687; 31867; 22411]%N ++ runes_of_ascii "`, @lengthOf(	u8x )
-BodyLength @calculatedFrom(  ""a\\"")  , @lengthOf(
-    Packet )repeat
-    u32 Pad	,/// triple
-}	packet options1{
-    @rightPad  ('0'
-    )i8i8  @lengthOf( stringy) ,
-int64
-    As ,	f64 crc
-    @lengthOf( u128 ) , rootA @calculatedFrom( ""1"" ) `a\`	,
-    }packet _x { repeat T x_y_z
-// trailing space 
-// @lengthOf(
-`line1
-line2`
-, }root	packet //x
-Foo
-{ @lengthOf(
-Logon
-) @calculatedFrom( ""{,}""
-    ) @calculatedFrom( ""`tick`"" )match roots// packet A { u8 x, }
-as charz	{ 7 :
-string_
-//
-// `tick` ""quote"" 'q'
-},u64// trailing space 
-u@calculatedFrom( ""\" ++ [233]%N ++ runes_of_ascii """ )
-// trailing space 
-// a // b
-,
-@tag(
-007 )
-    // packet A { u8 x, }
-    @lengthOf( zchar ) match body as trueish
-{ [ 10
-, ""packet"" ,3 ,
-    0 ,
-    00 , """"	]
-:repeatCount
-    // a // b
-    , // " ++ [128512]%N ++ runes_of_ascii " emoji
-[ // `tick` ""quote"" 'q'
-4294967296 ]  : Logon [ ""CRC32"" , ""it's""
-] :  x_y_z ,} ,  T x
-,Pad , u8x T
-`{ , }`  ,@lengthOf( As
-    ) match o as repeatCount// a // b
-{[
-    255  ] :uint8x// a // b
-, } , u128 Foo ,} 	 ")).
-Eval vm_compute in ("<<<M562>>>" ++ check (runes_of_ascii "
-packet x_y_z // " ++ [27880; 37322]%N ++ runes_of_ascii "
-{ x_y_z @calculatedFrom(""CRC32"" )
-, x{ char[	0123456789 ]
-    msg_type @lengthOf( float
-    ), body
-    calculatedFrom `line1
-line2`
-, match
-Header
-as stringy
-    { [ 255 ] :x , 10: options1 // trailing space 
-, } ,
-    } , repeat char[] options1 `u8 x,`// " ++ [128512]%N ++ runes_of_ascii " emoji
-, metadata @calculatedFrom(""\" ++ [233]%N ++ runes_of_ascii """
-    //
-    )
-`` , string
-falsey ,
-    @rightPad
-    // packet A { u8 x, }
-    ( ' '
-) @tag( 007 ) string repeatCount ,
-    options1 @calculatedFrom(
-// c
-//
-""packet"")// @lengthOf(
-,
-@lengthOf(
-    BodyLength ) char[] matchKey//x
-@calculatedFrom( ""a	b"" ),} // packet A { u8 x, }")).
-Eval vm_compute in ("<<<M594>>>" ++ check (runes_of_ascii "options {
-    uint8x= 3	;
-    crc= 42 Logon  = '\x00' falsey= false }  root
-    packet zchar {int16// trailing space 
-u, } root packet
-Header {@rightPad ( ' ' )@lengthOf( a1 )repeat body, zchar[
-65535 ] string_ // `tick` ""quote"" 'q'
-@lengthOf( MetaDataX ) , // @lengthOf(
-}
-")).
-Eval vm_compute in ("<<<T594>>>" ++ terms [mkTok 1 "options" 1 0 false; mkTok 2 "{" 1 8 false; mkTok 42 "uint8x" 2 4 false; mkTok 4 "=" 2 10 false; mkTok 30 "3" 2 12 false; mkTok 41 ";" 2 14 false; mkTok 42 "crc" 3 4 false; mkTok 4 "=" 3 7 false; mkTok 30 "42" 3 9 false; mkTok 42 "Logon" 3 12 false; mkTok 4 "=" 3 19 false; mkTok 33 "'\x00'" 3 21 false; mkTok 42 "falsey" 3 28 false; mkTok 4 "=" 3 34 false; mkTok 11 "false" 3 36 false; mkTok 3 "}" 3 42 false; mkTok 34 "root" 3 45 false; mkTok 35 "packet" 4 4 false; mkTok 42 "zchar" 4 11 false; mkTok 2 "{" 4 17 false; mkTok 25 "int16" 4 18 false; mkTok 44 "// trailing space " 4 23 true; mkTok 42 "u" 5 0 false; mkTok 40 "," 5 1 false; mkTok 3 "}" 5 3 false; mkTok 34 "root" 5 5 false; mkTok 35 "packet" 5 10 false; mkTok 42 "Header" 6 0 false; mkTok 2 "{" 6 7 false; mkTok 32 "@rightPad" 6 8 false; mkTok 8 "(" 6 18 false; mkTok 33 "' '" 6 20 false; mkTok 6 ")" 6 24 false; mkTok 7 "@lengthOf(" 6 25 false; mkTok 42 "a1" 6 36 false; mkTok 6 ")" 6 39 false; mkTok 36 "repeat" 6 40 false; mkTok 42 "body" 6 47 false; mkTok 40 "," 6 51 false; mkTok 14 "zchar[" 6 53 false; mkTok 30 "65535" 7 0 false; mkTok 13 "]" 7 6 false; mkTok 42 "string_" 7 8 false; mkTok 44 "// `tick` ""quote"" 'q'" 7 16 true; mkTok 7 "@lengthOf(" 8 0 false; mkTok 42 "MetaDataX" 8 11 false; mkTok 6 ")" 8 21 false; mkTok 40 "," 8 23 false; mkTok 44 "// @lengthOf(" 8 25 true; mkTok 3 "}" 9 0 false; mkTok 0 "<EOF>" 10 0 false] (mkPacket (mkPtok 1 "options" 1 0 0) (Some (mkPtok 3 "}" 9 0 49)) [(DOption (mkOptionDef (mkSpan (mkPtok 1 "options" 1 0 0) (mkPtok 3 "}" 3 42 15)) (mkPtok 1 "options" 1 0 0) (mkPtok 2 "{" 1 8 1) [(mkOptionDecl (mkSpan (mkPtok 42 "uint8x" 2 4 2) (mkPtok 41 ";" 2 14 5)) (mkPtok 42 "uint8x" 2 4 2) (mkPtok 4 "=" 2 10 3) (VDigits (mkSpan (mkPtok 30 "3" 2 12 4) (mkPtok 30 "3" 2 12 4)) (mkPtok 30 "3" 2 12 4)) (Some (mkPtok 41 ";" 2 14 5))); (mkOptionDecl (mkSpan (mkPtok 42 "crc" 3 4 6) (mkPtok 30 "42" 3 9 8)) (mkPtok 42 "crc" 3 4 6) (mkPtok 4 "=" 3 7 7) (VDigits (mkSpan (mkPtok 30 "42" 3 9 8) (mkPtok 30 "42" 3 9 8)) (mkPtok 30 "42" 3 9 8)) None); (mkOptionDecl (mkSpan (mkPtok 42 "Logon" 3 12 9) (mkPtok 33 "'\x00'" 3 21 11)) (mkPtok 42 "Logon" 3 12 9) (mkPtok 4 "=" 3 19 10) (VPaddingChar (mkSpan (mkPtok 33 "'\x00'" 3 21 11) (mkPtok 33 "'\x00'" 3 21 11)) (mkPtok 33 "'\x00'" 3 21 11)) None); (mkOptionDecl (mkSpan (mkPtok 42 "falsey" 3 28 12) (mkPtok 11 "false" 3 36 14)) (mkPtok 42 "falsey" 3 28 12) (mkPtok 4 "=" 3 34 13) (VFalse (mkSpan (mkPtok 11 "false" 3 36 14) (mkPtok 11 "false" 3 36 14)) (mkPtok 11 "false" 3 36 14)) None)] (mkPtok 3 "}" 3 42 15))); (DPacket (mkPacketDef (mkSpan (mkPtok 34 "root" 3 45 16) (mkPtok 3 "}" 5 3 24)) (Some (mkPtok 34 "root" 3 45 16)) (mkPtok 35 "packet" 4 4 17) (mkPtok 42 "zchar" 4 11 18) (mkPtok 2 "{" 4 17 19) [(mkFieldWithAttr (mkSpan (mkPtok 25 "int16" 4 18 20) (mkPtok 40 "," 5 1 23)) [] (MetaField (mkSpan (mkPtok 25 "int16" 4 18 20) (mkPtok 40 "," 5 1 23)) None (mkMetaDecl (mkSpan (mkPtok 25 "int16" 4 18 20) (mkPtok 40 "," 5 1 23)) (TyBasic (mkSpan (mkPtok 25 "int16" 4 18 20) (mkPtok 25 "int16" 4 18 20)) (mkBasicType (mkSpan (mkPtok 25 "int16" 4 18 20) (mkPtok 25 "int16" 4 18 20)) (mkPtok 25 "int16" 4 18 20))) (mkPtok 42 "u" 5 0 22) None (mkPtok 40 "," 5 1 23))))] (mkPtok 3 "}" 5 3 24))); (DPacket (mkPacketDef (mkSpan (mkPtok 34 "root" 5 5 25) (mkPtok 3 "}" 9 0 49)) (Some (mkPtok 34 "root" 5 5 25)) (mkPtok 35 "packet" 5 10 26) (mkPtok 42 "Header" 6 0 27) (mkPtok 2 "{" 6 7 28) [(mkFieldWithAttr (mkSpan (mkPtok 32 "@rightPad" 6 8 29) (mkPtok 40 "," 6 51 38)) [(FAPadding (mkSpan (mkPtok 32 "@rightPad" 6 8 29) (mkPtok 6 ")" 6 24 32)) (mkPaddingAttr (mkSpan (mkPtok 32 "@rightPad" 6 8 29) (mkPtok 6 ")" 6 24 32)) (mkPtok 32 "@rightPad" 6 8 29) (mkPtok 8 "(" 6 18 30) (Some (mkPtok 33 "' '" 6 20 31)) (mkPtok 6 ")" 6 24 32))); (FALengthOf (mkSpan (mkPtok 7 "@lengthOf(" 6 25 33) (mkPtok 6 ")" 6 39 35)) (mkLengthOf (mkSpan (mkPtok 7 "@lengthOf(" 6 25 33) (mkPtok 6 ")" 6 39 35)) (mkPtok 7 "@lengthOf(" 6 25 33) (mkPtok 42 "a1" 6 36 34) (mkPtok 6 ")" 6 39 35)))] (ObjectField (mkSpan (mkPtok 36 "repeat" 6 40 36) (mkPtok 40 "," 6 51 38)) (Some (mkPtok 36 "repeat" 6 40 36)) (mkPtok 42 "body" 6 47 37) None None (mkPtok 40 "," 6 51 38))); (mkFieldWithAttr (mkSpan (mkPtok 14 "zchar[" 6 53 39) (mkPtok 40 "," 8 23 47)) [] (LengthField (mkSpan (mkPtok 14 "zchar[" 6 53 39) (mkPtok 40 "," 8 23 47)) (mkLengthFieldDecl (mkSpan (mkPtok 14 "zchar[" 6 53 39) (mkPtok 40 "," 8 23 47)) (Some (TyFixed (mkSpan (mkPtok 14 "zchar[" 6 53 39) (mkPtok 13 "]" 7 6 41)) (mkFixedString (mkSpan (mkPtok 14 "zchar[" 6 53 39) (mkPtok 13 "]" 7 6 41)) (mkPtok 14 "zchar[" 6 53 39) (mkPtok 30 "65535" 7 0 40) (mkPtok 13 "]" 7 6 41)))) (mkPtok 42 "string_" 7 8 42) (mkLengthOf (mkSpan (mkPtok 7 "@lengthOf(" 8 0 44) (mkPtok 6 ")" 8 21 46)) (mkPtok 7 "@lengthOf(" 8 0 44) (mkPtok 42 "MetaDataX" 8 11 45) (mkPtok 6 ")" 8 21 46)) None (mkPtok 40 "," 8 23 47))))] (mkPtok 3 "}" 9 0 49)))])).
-Eval vm_compute in ("<<<M626>>>" ++ check (runes_of_ascii "
-")).
-Eval vm_compute in ("<<<M658>>>" ++ check (runes_of_ascii "root packet
-packetx
-    {	string_  leftPad ,
-// " ++ [27880; 37322]%N ++ runes_of_ascii "
-//x
-} root
-    packet  o
-{x metadata `it's`, uint8
-metadata , i32
-    trueish, i64_ @calculatedFrom( ""`tick`"") ,// packet A { u8 x, }
-match matchKey  as
-repeatCount {[ //x
-""`tick`""
-]
-: Pad , 10
-    :
-    // `tick` ""quote"" 'q'
-    charz ,  7 : msg_type// c
-}
-, float64 body
-    @calculatedFrom( ""it's"") ,x_y_z @lengthOf(Header /// triple
-),body @calculatedFrom(
-    """ ++ [28040; 24687]%N ++ runes_of_ascii """
-    )`{ , }` ,
-} options{ } // " ++ [128512]%N ++ runes_of_ascii " emoji
-options{ Z9_/// triple
-=
-    true;Z9_ = false leftPad = //x
-' 'As =char[] ;	}")).
-Eval vm_compute in ("<<<M690>>>" ++ check (runes_of_ascii "packet lengthOf
-{match u128	as i8i8
-// " ++ [128512]%N ++ runes_of_ascii " emoji
-// c
-{""a\\"" :Header
-, } // `tick` ""quote"" 'q'
-, }")).
-Eval vm_compute in ("<<<M722>>>" ++ check (runes_of_ascii "packet charz { @tag(7) repeat _x , }MetaData x	{ i32 float , f32 u8x,uint64
-rootA	`crlf
-line` , }  options{ T
-= f64 ;
-    calculatedFrom=
-true	}
-packet trueish {
-    } root
-    //	t
-    packet rootA
-{ crc _x `say ""hi""`, stringy
-    //
-    uint8x, repeat
-x_y_z`u8 x,`
-, }
-")).
-Eval vm_compute in ("<<<M754>>>" ++ check (runes_of_ascii "packet
-As // trailing space 
-{
-match asx as Header {  10
-:Packet ""abc""	:u ,
-    42
-:Header , [ ""a	b"" ,
-    255,42
-    ] // trailing space 
-:  leftPad 00 : int  , [ ""x y"",
-7] : packetx
-    , } , repeat zchar[
-007
-]options1
-, body // @lengthOf(
-MetaDataX
-    // " ++ [27880; 37322]%N ++ runes_of_ascii "
-    ,
-    @leftPad
-()
-string x_y_z ,
-    @lengthOf(x )
-@rightPad	('0' )match
-    T as tag { ""CRC32""
-:
-    stringy  ,00://x
-packetx [
-    // `tick` ""quote"" 'q'
-    255	,""packet"" // a // b
-]: A
-    , [ 255 ,
-//x
-//	t
-1
-//	t
-// @lengthOf(
-,
-    // @lengthOf(
-    ""abc"" , 1
-// " ++ [27880; 37322]%N ++ runes_of_ascii "
-//	t
-,
-""1"" , """ ++ [233]%N ++ runes_of_ascii "t" ++ [233]%N ++ runes_of_ascii """ , 10 , // packet A { u8 x, }
-00] : i8i8
-    ""\n"" // a // b
-:
-_x,
-    } ,MetaDataX {match trueish as uint8x { 1
-:x , 3
-:
-    a1 , ""a\""b"" : u128 ,  },
-} , float64 calculatedFrom @calculatedFrom( """ ++ [28040; 24687]%N ++ runes_of_ascii """
-//	t
-//x
-) // c
-`u8 x,`	,u64
-    float @lengthOf( // " ++ [128512]%N ++ runes_of_ascii " emoji
-matchKey ), }options
-{ metadata
-= //x
-""{,}""//
-a1 =
-    u8 ;
-falsey=  1 ; _x =
-zchar[65535 ] Header =	' ' }
-    MetaData T {
-} MetaData Z9_{  string
-// " ++ [27880; 37322]%N ++ runes_of_ascii "
-//	t
-f32a
-,
-len zchar
-    ,
-    }
-")).
-Eval vm_compute in ("<<<M786>>>" ++ check (runes_of_ascii "packet metadata { match trueish
-as body
-    { 0123456789
-    :A, 1
-    :
-    rootA [//
-""packet"" ,65535 , 65535 , ""a	b""
-    ,42 , ""x y"" , 1// @lengthOf(
-, 0 ]	:
-// packet A { u8 x, }
-// " ++ [128512]%N ++ runes_of_ascii " emoji
-u128 ,//	t
-10 :
-As ,
-    0123456789 :stringy ,
-""x y""	: BodyLength, } ,
-i64_ options1`a\` , } packet
-trueish {
+`
+    , }packet MetaDataX
     /// triple
-    }packet BodyLength	{ i32 charz ,
-@calculatedFrom(// @lengthOf(
-""" ++ [28040; 24687]%N ++ runes_of_ascii """ )	repeat float32 asx `doc` , } // trailing space ")).
-Eval vm_compute in ("<<<M818>>>" ++ check (runes_of_ascii "MetaData
-msg_type { float32 metadata `line1
-line2`,
-    uint16 msg_type `// not a comment` ,
-    float
-    Pad, float64 trueish`{ , }`, x
-    stringy
-    // " ++ [128512]%N ++ runes_of_ascii " emoji
-    `tab	here` ,}")).
-Eval vm_compute in ("<<<T818>>>" ++ terms [mkTok 37 "MetaData" 1 0 false; mkTok 42 "msg_type" 2 0 false; mkTok 2 "{" 2 9 false; mkTok 28 "float32" 2 11 false; mkTok 42 "metadata" 2 19 false; mkTok 43 (string_of_bytes [96; 108; 105; 110; 101; 49; 10; 108; 105; 110; 101; 50; 96]%N) 2 28 false; mkTok 40 "," 3 6 false; mkTok 21 "uint16" 4 4 false; mkTok 42 "msg_type" 4 11 false; mkTok 43 "`// not a comment`" 4 20 false; mkTok 40 "," 4 39 false; mkTok 42 "float" 5 4 false; mkTok 42 "Pad" 6 4 false; mkTok 40 "," 6 7 false; mkTok 29 "float64" 6 9 false; mkTok 42 "trueish" 6 17 false; mkTok 43 "`{ , }`" 6 24 false; mkTok 40 "," 6 31 false; mkTok 42 "x" 6 33 false; mkTok 42 "stringy" 7 4 false; mkTok 44 (string_of_bytes [47; 47; 32; 240; 159; 152; 128; 32; 101; 109; 111; 106; 105]%N) 8 4 true; mkTok 43 (string_of_bytes [96; 116; 97; 98; 9; 104; 101; 114; 101; 96]%N) 9 4 false; mkTok 40 "," 9 15 false; mkTok 3 "}" 9 16 false; mkTok 0 "<EOF>" 9 17 false] (mkPacket (mkPtok 37 "MetaData" 1 0 0) (Some (mkPtok 3 "}" 9 16 23)) [(DMeta (mkMetaDef (mkSpan (mkPtok 37 "MetaData" 1 0 0) (mkPtok 3 "}" 9 16 23)) (mkPtok 37 "MetaData" 1 0 0) (mkPtok 42 "msg_type" 2 0 1) (mkPtok 2 "{" 2 9 2) [(MIDecl (mkMetaDecl (mkSpan (mkPtok 28 "float32" 2 11 3) (mkPtok 40 "," 3 6 6)) (TyBasic (mkSpan (mkPtok 28 "float32" 2 11 3) (mkPtok 28 "float32" 2 11 3)) (mkBasicType (mkSpan (mkPtok 28 "float32" 2 11 3) (mkPtok 28 "float32" 2 11 3)) (mkPtok 28 "float32" 2 11 3))) (mkPtok 42 "metadata" 2 19 4) (Some (mkPtok 43 (string_of_bytes [96; 108; 105; 110; 101; 49; 10; 108; 105; 110; 101; 50; 96]%N) 2 28 5)) (mkPtok 40 "," 3 6 6))); (MIDecl (mkMetaDecl (mkSpan (mkPtok 21 "uint16" 4 4 7) (mkPtok 40 "," 4 39 10)) (TyBasic (mkSpan (mkPtok 21 "uint16" 4 4 7) (mkPtok 21 "uint16" 4 4 7)) (mkBasicType (mkSpan (mkPtok 21 "uint16" 4 4 7) (mkPtok 21 "uint16" 4 4 7)) (mkPtok 21 "uint16" 4 4 7))) (mkPtok 42 "msg_type" 4 11 8) (Some (mkPtok 43 "`// not a comment`" 4 20 9)) (mkPtok 40 "," 4 39 10))); (MIRef (mkRefMetaDecl (mkSpan (mkPtok 42 "float" 5 4 11) (mkPtok 40 "," 6 7 13)) (mkPtok 42 "float" 5 4 11) (mkPtok 42 "Pad" 6 4 12) None (mkPtok 40 "," 6 7 13))); (MIDecl (mkMetaDecl (mkSpan (mkPtok 29 "float64" 6 9 14) (mkPtok 40 "," 6 31 17)) (TyBasic (mkSpan (mkPtok 29 "float64" 6 9 14) (mkPtok 29 "float64" 6 9 14)) (mkBasicType (mkSpan (mkPtok 29 "float64" 6 9 14) (mkPtok 29 "float64" 6 9 14)) (mkPtok 29 "float64" 6 9 14))) (mkPtok 42 "trueish" 6 17 15) (Some (mkPtok 43 "`{ , }`" 6 24 16)) (mkPtok 40 "," 6 31 17))); (MIRef (mkRefMetaDecl (mkSpan (mkPtok 42 "x" 6 33 18) (mkPtok 40 "," 9 15 22)) (mkPtok 42 "x" 6 33 18) (mkPtok 42 "stringy" 7 4 19) (Some (mkPtok 43 (string_of_bytes [96; 116; 97; 98; 9; 104; 101; 114; 101; 96]%N) 9 4 21)) (mkPtok 40 "," 9 15 22)))] (mkPtok 3 "}" 9 16 23)))])).
-Eval vm_compute in ("<<<M850>>>" ++ check (runes_of_ascii "packet lengthOf {
-    @lengthOf( zchar//x
-)char[]// trailing space 
-metadata  , @tag(
-10 ) string leftPad
-,
-@lengthOf(i8i8  )//
-@leftPad
-    //x
-    (
-'\x00')
-    repeat Packet `a\`
-, options1 { float
-@calculatedFrom( ""it's""), repeat
-    calculatedFrom
-    i64_	,	}
-, uint8 A @lengthOf( leftPad
-) `two words`
-,
-} MetaData repeatCount { }MetaData u8x
-{}
-")).
-Eval vm_compute in ("<<<M882>>>" ++ check (runes_of_ascii "
-")).
-Eval vm_compute in ("<<<M914>>>" ++ check (runes_of_ascii "
-root packet crc
-{	@rightPad
-    // `tick` ""quote"" 'q'
-    (
-// `tick` ""quote"" 'q'
-// c
-'\x00' )// a // b
-repeat i64 As ,
-// @lengthOf(
-// a // b
+    { char[ 0 ]
+x `100% of %d` ,
 }
-packet// c
-body // " ++ [128512]%N ++ runes_of_ascii " emoji
-{
-}
-packet  uint8x { options1 @calculatedFrom(""a	b"" ) ,
-} MetaData  Packet { }
-/// triple
-//
-MetaData
+")).
+Eval vm_compute in ("<<<M82>>>" ++ check (runes_of_ascii "
+packet Logon  {
+match o
+as x_y_z {// `tick` ""quote"" 'q'
+""x y""
+    /// triple
+    : matchKey , ""\n"" :
+pack """ ++ [128512]%N ++ runes_of_ascii """ :	int[ """ ++ [128512]%N ++ runes_of_ascii """ //	t
+,
+""// no comment""
+] :  x }// @lengthOf(
+,} // c")).
+Eval vm_compute in ("<<<M114>>>" ++ check (runes_of_ascii "// trailing space 
+root
+    packet	repeatCount
+{ @lengthOf(
+    _x
+) msg_type repeatCount
     // a // b
-    falsey{	char[ 007 ]
-// trailing space 
-//x
-tag `it's` , As leftPad
+    ,repeat
+//	t
+// @lengthOf(
+uint16 u
+//
+/// triple
+,	zchar[65535 ] f32a `100% of %d` ,}
+/// triple
+// " ++ [27880; 37322]%N ++ runes_of_ascii "
+packet i64_ {
+@rightPad
+( )  BodyLength @calculatedFrom(
+    ""abc"" )
 `line1
-line2`,
-    } 	 ")).
-Eval vm_compute in ("<<<M946>>>" ++ check (runes_of_ascii "options /// triple
-{
-    asx ='\x00' ;
-    }
-    //	t
-    options
-{ pack =""CRC32""
-;} root packet
-f32a { }")).
-Eval vm_compute in ("<<<M978>>>" ++ check (runes_of_ascii "
+line2` ,
+}
+MetaData o {zchar[ 65535 ]// `tick` ""quote"" 'q'
+uint8x // 50% %s
+, zchar[1 ]
+i64_
+,
+    zchar[ 4294967296 ]As , }
 ")).
-Eval vm_compute in ("<<<M1010>>>" ++ check (runes_of_ascii "
-root packet As
-{ repeat
-    //	t
-    x
-    msg_type ,}MetaData crc { // c
-u8 x , } root packet
-    // " ++ [128512]%N ++ runes_of_ascii " emoji
-    Logon{ @calculatedFrom(
-""1"" )
-@rightPad (  ' ') @leftPad
-( ) string msg_type @lengthOf(
-uint8x )	`a\`
-, match calculatedFrom
-as i8i8
-{ [
-""\" ++ [233]%N ++ runes_of_ascii """ ]  : options1 , // c
-1
-: asx
-, [ 42,
-42
-    //
-    ,//	t
-""" ++ [28040; 24687]%N ++ runes_of_ascii """// `tick` ""quote"" 'q'
-,"""" ,// " ++ [128512]%N ++ runes_of_ascii " emoji
-7] // @lengthOf(
-: x_y_z,  [// " ++ [27880; 37322]%N ++ runes_of_ascii "
-0//x
-] :
+Eval vm_compute in ("<<<M146>>>" ++ check (runes_of_ascii "  options{ }
+")).
+Eval vm_compute in ("<<<T146>>>" ++ terms [mkTok 1 "options" 1 2 false; mkTok 2 "{" 1 9 false; mkTok 3 "}" 1 11 false; mkTok 0 "<EOF>" 2 0 false] (mkPacket (mkPtok 1 "options" 1 2 0) (Some (mkPtok 3 "}" 1 11 2)) [(DOption (mkOptionDef (mkSpan (mkPtok 1 "options" 1 2 0) (mkPtok 3 "}" 1 11 2)) (mkPtok 1 "options" 1 2 0) (mkPtok 2 "{" 1 9 1) [] (mkPtok 3 "}" 1 11 2)))])).
+Eval vm_compute in ("<<<M178>>>" ++ check (runes_of_ascii "
+packet int{ @tag(	4294967296 )string// trailing space 
+int , match string_
+//
+// 50% %s
+as
+matchKey
+{ ""it's"":
+    uint8x 10 : u128	,
+    // 50% %s
+    007: lengthOf	, }  ,
     // packet A { u8 x, }
-    asx
+    @calculatedFrom( ""{,}"" )
+int64 stringy
+@calculatedFrom( ""CRC32""
+)
+    , f64
+    f32a ,  u @lengthOf( lengthOf )
+`u8 x,`	, // " ++ [128512]%N ++ runes_of_ascii " emoji
+match
+Packet
+    as	rootA
+// @lengthOf(
+// " ++ [128512]%N ++ runes_of_ascii " emoji
+{ 42 :
+stringy
+    // c
+    , } , trueish , @calculatedFrom( ""x y"" )@tag(
+    42
+) char[
+    255 ]x@lengthOf(int ) , }
+    packet T {  match
+    float	as
+o { ""a\""b""
+:T
+,
+// trailing space 
+// trailing space 
+65535 : roots ,  }
+    , }packet pack { // trailing space 
+@leftPad(
+'\x00'
+) // 50% %s
+@calculatedFrom(//
+""" ++ [233]%N ++ runes_of_ascii "t" ++ [233]%N ++ runes_of_ascii """ )  string As // a // b
+@calculatedFrom(""CRC32"" ) , }
+")).
+Eval vm_compute in ("<<<M210>>>" ++ check (runes_of_ascii "MetaData packetx{
+char[] x
+// `tick` ""quote"" 'q'
+//
+, body Z9_ //	t
+, }
+// trailing space 
+")).
+Eval vm_compute in ("<<<M242>>>" ++ check (runes_of_ascii "options{roots
+=
+u8
+    // 50% %s
+    ; tag//
+= 42 ;
+    //	t
+    falsey = ""{,}""metadata
+// `tick` ""quote"" 'q'
+/// triple
+= ""abc"" ;
+    } packet pack
+    // trailing space 
+    {
+    @calculatedFrom(//	t
+""a	b"")zchar[255] len, // 50% %s
+} options { // trailing space 
+asx =	false ; options1 = ""packet""
+    ; trueish = char[] ;
+pack = '0'
+; }packet u128 // " ++ [27880; 37322]%N ++ runes_of_ascii "
+{ @tag(
+3 )
+zchar[
+    // `tick` ""quote"" 'q'
+    42 ]
+    Foo //	t
+@calculatedFrom( """"
+) ,  @leftPad// a // b
+(
+'\x00' // " ++ [128512]%N ++ runes_of_ascii " emoji
+)// trailing space 
+Logon { repeat char[]// " ++ [27880; 37322]%N ++ runes_of_ascii "
+x
+`100% of %d`
+    , } ,
+    } packet matchKey{
+match
+    crc as Packet {
+""1""
+    // `tick` ""quote"" 'q'
+    : packetx , }	,match	int as float	{ ""1""
+:metadata
+}, repeat float32 uint8x , string u `" ++ [233]%N ++ runes_of_ascii "` , @rightPad ( '0' )	Logon
+// `tick` ""quote"" 'q'
+/// triple
+,  float{
+    crc
+{
+u
+, uint64 Packet @calculatedFrom(
+""`tick`"" ) `
+`
+    , char[]	T `
+` ,},
+}  , @calculatedFrom( ""// no comment"") char[ 0123456789 ] x
+    `crlf
+line`
+, @leftPad(' ' ) @tag(
+1  ) @calculatedFrom( ""abc""
+)char[  65535 ]Header
+,
+    repeat	zchar[00 ]trueish // 50% %s
+`" ++ [28040; 24687; 31867; 22411]%N ++ runes_of_ascii "`, }")).
+Eval vm_compute in ("<<<M274>>>" ++ check (runes_of_ascii "packet calculatedFrom
+    { // @lengthOf(
+repeat uint64 i8i8 // 50% %s
+, @lengthOf(matchKey
+)
+    float32 Logon
+    `crlf
+line` , @calculatedFrom( // trailing space 
+"""" )  char[ 42  ]
+uint8x , options1 // a // b
+{ char[]	chars @lengthOf( // " ++ [128512]%N ++ runes_of_ascii " emoji
+u
+    // `tick` ""quote"" 'q'
+    ) , match // " ++ [27880; 37322]%N ++ runes_of_ascii "
+zchar as pack
+    {
+    [
+    ""1""
+, """ ++ [233]%N ++ runes_of_ascii "t" ++ [233]%N ++ runes_of_ascii """ ]	: x
+, 3  : u  ,0// 50% %s
+: f32a , 007// c
+:A
+, 7 : // c
+As 3 :
+T  , } ,	} , }
+    options{ //	t
+BodyLength
+    =
+00
+// trailing space 
+// a // b
+} options
+    // c
+    {pack = ""x y"" body
+    = true; charz
+    = zchar[ 4294967296 ]
+;// " ++ [27880; 37322]%N ++ runes_of_ascii "
+metadata
+=
+    string
+    }
+MetaData a1 { uint64 Z9_ ,
+    asx Z9_
+`" ++ [233]%N ++ runes_of_ascii "`
     //
-    7:
-    u8x [
-7
-    ] :u , } ,} MetaData repeatCount
-    { float Foo
-    , As //	t
-i8i8	,} packet tag {@leftPad (
-' '
-) match Z9_ as msg_type {
-    //
-    [ 10
-, ""a\""b"" ,0 ,255 , 7 ,0123456789 , 10
-]: Logon ,
-    """ ++ [233]%N ++ runes_of_ascii "t" ++ [233]%N ++ runes_of_ascii """: a1 , 7
+    , }packet packetx
+    {
 // packet A { u8 x, }
 /// triple
-: i64_  ,  255
-:	leftPad
+@rightPad (
+    ) f64 int @lengthOf(// `tick` ""quote"" 'q'
+Pad ) , u32 BodyLength ,
+float64 trueish//x
+@lengthOf( lengthOf ) `tab	here` , }
+")).
+Eval vm_compute in ("<<<M306>>>" ++ check (runes_of_ascii "packet Header  { u128 @calculatedFrom(// c
+""""  )
+    // " ++ [128512]%N ++ runes_of_ascii " emoji
+    ,
+    @rightPad( ) // a // b
+zchar charz	, } packet packetx
+    //
+    {@calculatedFrom( ""{,}"" )
+    string
+asx	, f32
+// " ++ [27880; 37322]%N ++ runes_of_ascii "
+// trailing space 
+trueish
+    @lengthOf( trueish ) ,} 	 ")).
+Eval vm_compute in ("<<<M338>>>" ++ check (runes_of_ascii "root	packet msg_type	{
+//
+// @lengthOf(
+}
+MetaData u{ // `tick` ""quote"" 'q'
+}
+")).
+Eval vm_compute in ("<<<M370>>>" ++ check (runes_of_ascii "options{ }
+")).
+Eval vm_compute in ("<<<T370>>>" ++ terms [mkTok 1 "options" 1 0 false; mkTok 2 "{" 1 7 false; mkTok 3 "}" 1 9 false; mkTok 0 "<EOF>" 2 0 false] (mkPacket (mkPtok 1 "options" 1 0 0) (Some (mkPtok 3 "}" 1 9 2)) [(DOption (mkOptionDef (mkSpan (mkPtok 1 "options" 1 0 0) (mkPtok 3 "}" 1 9 2)) (mkPtok 1 "options" 1 0 0) (mkPtok 2 "{" 1 7 1) [] (mkPtok 3 "}" 1 9 2)))])).
+Eval vm_compute in ("<<<M402>>>" ++ check (runes_of_ascii "root packet
+rootA {} packet u128 {@calculatedFrom(""\" ++ [233]%N ++ runes_of_ascii """ ) falsey@calculatedFrom( ""a\\"" ) ,
+@lengthOf(// trailing space 
+pack )repeat float64 packetx , @calculatedFrom(""packet"" ) charz
+    , uint8 leftPad `crlf
+line` ,
+}")).
+Eval vm_compute in ("<<<M434>>>" ++ check (runes_of_ascii "MetaData Header {Logon calculatedFrom, float64 // `tick` ""quote"" 'q'
+i8i8 ,
+char[ 007	]packetx`doc` ,zchar[ 007	] tag `tab	here`// c
+, MetaDataX A ,x
+    // trailing space 
+    MetaDataX `line1
+line2` , }")).
+Eval vm_compute in ("<<<M466>>>" ++ check (runes_of_ascii "MetaData
+    // `tick` ""quote"" 'q'
+    As// c
+{ f32a options1,crc
+    Logon ,
+    }")).
+Eval vm_compute in ("<<<M498>>>" ++ check (runes_of_ascii "packet f32a // c
+{
+    @calculatedFrom( """ ++ [128512]%N ++ runes_of_ascii """
+) char[
+65535
+    ] Logon , } packet calculatedFrom {
+/// triple
+//
+char[ /// triple
+00
+] x`{ , }` ,
+    // 50% %s
+    @lengthOf(A  )
+@tag( 00) @lengthOf( MetaDataX)repeat chars
+{
+repeat Logon {
+zchar[
+    007	]	uint8x
+    ,	}
+,	len @lengthOf( charz)`` //
+,/// triple
+}
+, @calculatedFrom(// 50% %s
+""{,}"" ) repeat Logon  { uint64
+len @lengthOf(u8x ) ,
+}	, }
+packet u128 { }")).
+Eval vm_compute in ("<<<M530>>>" ++ check (runes_of_ascii "packet
+    // a // b
+    msg_type { @leftPad (
+'0' )repeat zchar[
+    4294967296] roots ,repeat
+u32 u128
+    ,
+@rightPad(  '\x00' ) match x_y_z  as As { 007: Foo ,} ,  @leftPad ( ' ') @leftPad ( ) _x u
+,@tag( 7
+    )
+    repeat chars{ falsey leftPad `" ++ [28040; 24687; 31867; 22411]%N ++ runes_of_ascii "`
+, zchar[  4294967296
+] packetx@lengthOf(i64_ // " ++ [128512]%N ++ runes_of_ascii " emoji
+)`doc`  , char[ 1]options1 @calculatedFrom(  ""1""), }
+    , i64 matchKey @calculatedFrom(  ""x y"" ) `line1
+line2`
+    , zchar[ 007 ]uint8x `` , @lengthOf( falsey /// triple
+) @calculatedFrom(""" ++ [233]%N ++ runes_of_ascii "t" ++ [233]%N ++ runes_of_ascii """) // 50% %s
+As
+    {//
+zchar { repeat	int8  asx , repeat Packet , } ,
+}
+    ,
     }
+")).
+Eval vm_compute in ("<<<M562>>>" ++ check (runes_of_ascii "packet
+x
+    //
+    {
+@lengthOf( f32a )
+char[] Z9_
+    ,
+    // packet A { u8 x, }
+    } root
+packet matchKey { @leftPad ( ) @lengthOf(
+    Pad )
+// c
+//
+u32 u8x// @lengthOf(
+`
+`
+,
+    @calculatedFrom( ""a	b"" ) packetx//x
+, uint8x Z9_`" ++ [233]%N ++ runes_of_ascii "`, u8
+Logon , @tag( 255 )@tag(// packet A { u8 x, }
+007 )  @lengthOf(matchKey // `tick` ""quote"" 'q'
+)
+int32 float	, } MetaData calculatedFrom{char[ 10 ]
+    BodyLength `two words` ,char[] matchKey
+    `say ""hi""`	, //	t
+int32 MetaDataX
+    // 50% %s
+    `u8 x,`//	t
+, char[ // trailing space 
+65535 ] i64_ , } options { matchKey =
+uint32 ; stringy = ""CRC32""
+    charz =	' ' ; Z9_ =  true ;}MetaData Logon { f64
+    f32a `100% of %d`
+    ,
+uint16 int`u8 x,` ,  int64
+a1	, // `tick` ""quote"" 'q'
+int64 roots `a\` ,}
+
+")).
+Eval vm_compute in ("<<<M594>>>" ++ check (runes_of_ascii " // @lengthOf(")).
+Eval vm_compute in ("<<<T594>>>" ++ terms [mkTok 44 "// @lengthOf(" 1 1 true; mkTok 0 "<EOF>" 1 14 false] (mkPacket (mkPtok 0 "<EOF>" 1 14 1) None [])).
+Eval vm_compute in ("<<<M626>>>" ++ check (runes_of_ascii "options{Pad
+    =
+    ""packet"" ; }	packet i8i8//x
+{ repeat
+    string Foo , } options
+{float
+    = float32; } // 50% %s
+options
+    // 50% %s
+    {As =  char[] ;
+    //	t
+    roots =//	t
+""it's""
+    } packet leftPad { @tag(
+    42  ) repeat	_x
+`crlf
+line`// packet A { u8 x, }
+, @calculatedFrom( ""x y""
+)repeat char[]//	t
+Pad, }
+")).
+Eval vm_compute in ("<<<M658>>>" ++ check (runes_of_ascii "
+options { falsey
+//	t
+// packet A { u8 x, }
+=  ""a	b"" T =// c
+true
+} options {
+    u8x =false ;float =char[] /// triple
+;Header= true
+    msg_type
+    =int8 ;
+tag =3 ; // " ++ [128512]%N ++ runes_of_ascii " emoji
+}")).
+Eval vm_compute in ("<<<M690>>>" ++ check (@nil rune)).
+Eval vm_compute in ("<<<M722>>>" ++ check (runes_of_ascii "MetaData x_y_z { int64 Packet
+    , char[] charz
+`" ++ [233]%N ++ runes_of_ascii "`
+    ,string x
+, u64
+    // a // b
+    T , i64 T `{ , }`
+//
+// `tick` ""quote"" 'q'
+,
+}packet int {
+@lengthOf( u8x )
+i8 string_`say ""hi""`
+,
+    } // trailing space ")).
+Eval vm_compute in ("<<<M754>>>" ++ check (runes_of_ascii "packet A
+{@tag( 0) match repeatCount as zchar {[ 0 // c
+,3  , ""a\\"" //x
+,00 ]  : f32a }
+,
+    }
+packet matchKey	{ x_y_z`line1
+line2` , @rightPad ()	@rightPad  ( )
+float32 rootA, u32 MetaDataX@calculatedFrom( ""1"")
+    ,
+repeat	asx { repeat
+u16  pack
+    ,calculatedFrom a1 `line1
+line2`
+,
+    repeat // `tick` ""quote"" 'q'
+char[ 7 ] As `` ,
+} // packet A { u8 x, }
+, @lengthOf( u8x) float32 // c
+asx `" ++ [233]%N ++ runes_of_ascii "`// trailing space 
+,
+    uint64 options1 @lengthOf( matchKey ) `100% of %d`, match i8i8 as chars
+{	42// `tick` ""quote"" 'q'
+: Foo
+    ,
+} ,
+    Packet
+_x `u8 x,` ,
+@tag(
+    0
+)	u64 Packet @lengthOf( asx
+) // " ++ [128512]%N ++ runes_of_ascii " emoji
+`// not a comment`  , @rightPad
+( ) match
+falsey as As {
+    ""a\""b"" : _x
+    ,	""a\\""
+:
+crc
+, ""a\\"" :
+    /// triple
+    metadata, [""""
+    ,	255,""" ++ [128512]%N ++ runes_of_ascii """ ] :
+    // @lengthOf(
+    falsey }
     , }
 ")).
-Eval vm_compute in ("<<<M1042>>>" ++ check (runes_of_ascii "root packet
-stringy {
-int8 As @lengthOf( trueish ) ,}
-packet
-string_ {
-stringy
-`crlf
-line`
-,uint16
-    metadata
-    // `tick` ""quote"" 'q'
-    ,  @tag( 4294967296
-    // `tick` ""quote"" 'q'
-    ) @tag( 255)
-f32a u	`doc`  ,
-    //x
-    zchar[ 3 ] Packet ,@leftPad
-(
-    //	t
-    '0')@lengthOf( uint8x  ) zchar[ 0 ]uint8x@lengthOf(
-    // packet A { u8 x, }
-    Pad
-) `two words` ,
-// " ++ [27880; 37322]%N ++ runes_of_ascii "
-// " ++ [128512]%N ++ runes_of_ascii " emoji
-@rightPad
-( '\x00'  ) i8i8 roots ,@tag(
-    007 ) u128	@calculatedFrom( """ ++ [233]%N ++ runes_of_ascii "t" ++ [233]%N ++ runes_of_ascii """ ) `two words`	, string string_ @lengthOf( falsey)
-`a\`
-,match tag as i8i8
-{
-""x y"":
-asx , } ,
-}
-    packet	u8x { } options{
-zchar =
-    f64
-    ;} packet
-    T	{
-@lengthOf( string_
-)
-    crc { metadata // a // b
-charz , char[]uint8x
-    `line1
-line2`
-    ,
-    uint8 Packet, }
-// a // b
-/// triple
-, metadata @calculatedFrom( ""\" ++ [233]%N ++ runes_of_ascii """ )
-// " ++ [128512]%N ++ runes_of_ascii " emoji
-// " ++ [27880; 37322]%N ++ runes_of_ascii "
-`{ , }` ,
-zchar @calculatedFrom( ""it's"" ) `a\`
-, u64  packetx , match //	t
-u128 as i8i8 { 4294967296 :x_y_z
-// trailing space 
-//x
-} ,
-int16 float
-,	match chars as
-    Pad
-    { ""packet"" : Packet ,
-}
-    ,
-    matchKey { metadata@lengthOf( Pad )`" ++ [233]%N ++ runes_of_ascii "` ,BodyLength``  , A , } ,
-    // " ++ [27880; 37322]%N ++ runes_of_ascii "
-    } 	 ")).
-Eval vm_compute in ("<<<T1042>>>" ++ terms [mkTok 34 "root" 1 0 false; mkTok 35 "packet" 1 5 false; mkTok 42 "stringy" 2 0 false; mkTok 2 "{" 2 8 false; mkTok 24 "int8" 3 0 false; mkTok 42 "As" 3 5 false; mkTok 7 "@lengthOf(" 3 8 false; mkTok 42 "trueish" 3 19 false; mkTok 6 ")" 3 27 false; mkTok 40 "," 3 29 false; mkTok 3 "}" 3 30 false; mkTok 35 "packet" 4 0 false; mkTok 42 "string_" 5 0 false; mkTok 2 "{" 5 8 false; mkTok 42 "stringy" 6 0 false; mkTok 43 (string_of_bytes [96; 99; 114; 108; 102; 13; 10; 108; 105; 110; 101; 96]%N) 7 0 false; mkTok 40 "," 9 0 false; mkTok 21 "uint16" 9 1 false; mkTok 42 "metadata" 10 4 false; mkTok 44 "// `tick` ""quote"" 'q'" 11 4 true; mkTok 40 "," 12 4 false; mkTok 9 "@tag(" 12 7 false; mkTok 30 "4294967296" 12 13 false; mkTok 44 "// `tick` ""quote"" 'q'" 13 4 true; mkTok 6 ")" 14 4 false; mkTok 9 "@tag(" 14 6 false; mkTok 30 "255" 14 12 false; mkTok 6 ")" 14 15 false; mkTok 42 "f32a" 15 0 false; mkTok 42 "u" 15 5 false; mkTok 43 "`doc`" 15 7 false; mkTok 40 "," 15 14 false; mkTok 44 "//x" 16 4 true; mkTok 14 "zchar[" 17 4 false; mkTok 30 "3" 17 11 false; mkTok 13 "]" 17 13 false; mkTok 42 "Packet" 17 15 false; mkTok 40 "," 17 22 false; mkTok 32 "@leftPad" 17 23 false; mkTok 8 "(" 18 0 false; mkTok 44 (string_of_bytes [47; 47; 9; 116]%N) 19 4 true; mkTok 33 "'0'" 20 4 false; mkTok 6 ")" 20 7 false; mkTok 7 "@lengthOf(" 20 8 false; mkTok 42 "uint8x" 20 19 false; mkTok 6 ")" 20 27 false; mkTok 14 "zchar[" 20 29 false; mkTok 30 "0" 20 36 false; mkTok 13 "]" 20 38 false; mkTok 42 "uint8x" 20 39 false; mkTok 7 "@lengthOf(" 20 45 false; mkTok 44 "// packet A { u8 x, }" 21 4 true; mkTok 42 "Pad" 22 4 false; mkTok 6 ")" 23 0 false; mkTok 43 "`two words`" 23 2 false; mkTok 40 "," 23 14 false; mkTok 44 (string_of_bytes [47; 47; 32; 230; 179; 168; 233; 135; 138]%N) 24 0 true; mkTok 44 (string_of_bytes [47; 47; 32; 240; 159; 152; 128; 32; 101; 109; 111; 106; 105]%N) 25 0 true; mkTok 32 "@rightPad" 26 0 false; mkTok 8 "(" 27 0 false; mkTok 33 "'\x00'" 27 2 false; mkTok 6 ")" 27 10 false; mkTok 42 "i8i8" 27 12 false; mkTok 42 "roots" 27 17 false; mkTok 40 "," 27 23 false; mkTok 9 "@tag(" 27 24 false; mkTok 30 "007" 28 4 false; mkTok 6 ")" 28 8 false; mkTok 42 "u128" 28 10 false; mkTok 5 "@calculatedFrom(" 28 15 false; mkTok 31 (string_of_bytes [34; 195; 169; 116; 195; 169; 34]%N) 28 32 false; mkTok 6 ")" 28 38 false; mkTok 43 "`two words`" 28 40 false; mkTok 40 "," 28 52 false; mkTok 15 "string" 28 54 false; mkTok 42 "string_" 28 61 false; mkTok 7 "@lengthOf(" 28 69 false; mkTok 42 "falsey" 28 80 false; mkTok 6 ")" 28 86 false; mkTok 43 "`a\`" 29 0 false; mkTok 40 "," 30 0 false; mkTok 38 "match" 30 1 false; mkTok 42 "tag" 30 7 false; mkTok 17 "as" 30 11 false; mkTok 42 "i8i8" 30 14 false; mkTok 2 "{" 31 0 false; mkTok 31 """x y""" 32 0 false; mkTok 39 ":" 32 5 false; mkTok 42 "asx" 33 0 false; mkTok 40 "," 33 4 false; mkTok 3 "}" 33 6 false; mkTok 40 "," 33 8 false; mkTok 3 "}" 34 0 false; mkTok 35 "packet" 35 4 false; mkTok 42 "u8x" 35 11 false; mkTok 2 "{" 35 15 false; mkTok 3 "}" 35 17 false; mkTok 1 "options" 35 19 false; mkTok 2 "{" 35 26 false; mkTok 42 "zchar" 36 0 false; mkTok 4 "=" 36 6 false; mkTok 29 "f64" 37 4 false; mkTok 41 ";" 38 4 false; mkTok 3 "}" 38 5 false; mkTok 35 "packet" 38 7 false; mkTok 42 "T" 39 4 false; mkTok 2 "{" 39 6 false; mkTok 7 "@lengthOf(" 40 0 false; mkTok 42 "string_" 40 11 false; mkTok 6 ")" 41 0 false; mkTok 42 "crc" 42 4 false; mkTok 2 "{" 42 8 false; mkTok 42 "metadata" 42 10 false; mkTok 44 "// a // b" 42 19 true; mkTok 42 "charz" 43 0 false; mkTok 40 "," 43 6 false; mkTok 16 "char[]" 43 8 false; mkTok 42 "uint8x" 43 14 false; mkTok 43 (string_of_bytes [96; 108; 105; 110; 101; 49; 10; 108; 105; 110; 101; 50; 96]%N) 44 4 false; mkTok 40 "," 46 4 false; mkTok 20 "uint8" 47 4 false; mkTok 42 "Packet" 47 10 false; mkTok 40 "," 47 16 false; mkTok 3 "}" 47 18 false; mkTok 44 "// a // b" 48 0 true; mkTok 44 "/// triple" 49 0 true; mkTok 40 "," 50 0 false; mkTok 42 "metadata" 50 2 false; mkTok 5 "@calculatedFrom(" 50 11 false; mkTok 31 (string_of_bytes [34; 92; 195; 169; 34]%N) 50 28 false; mkTok 6 ")" 50 33 false; mkTok 44 (string_of_bytes [47; 47; 32; 240; 159; 152; 128; 32; 101; 109; 111; 106; 105]%N) 51 0 true; mkTok 44 (string_of_bytes [47; 47; 32; 230; 179; 168; 233; 135; 138]%N) 52 0 true; mkTok 43 "`{ , }`" 53 0 false; mkTok 40 "," 53 8 false; mkTok 42 "zchar" 54 0 false; mkTok 5 "@calculatedFrom(" 54 6 false; mkTok 31 """it's""" 54 23 false; mkTok 6 ")" 54 30 false; mkTok 43 "`a\`" 54 32 false; mkTok 40 "," 55 0 false; mkTok 23 "u64" 55 2 false; mkTok 42 "packetx" 55 7 false; mkTok 40 "," 55 15 false; mkTok 38 "match" 55 17 false; mkTok 44 (string_of_bytes [47; 47; 9; 116]%N) 55 23 true; mkTok 42 "u128" 56 0 false; mkTok 17 "as" 56 5 false; mkTok 42 "i8i8" 56 8 false; mkTok 2 "{" 56 13 false; mkTok 30 "4294967296" 56 15 false; mkTok 39 ":" 56 26 false; mkTok 42 "x_y_z" 56 27 false; mkTok 44 "// trailing space " 57 0 true; mkTok 44 "//x" 58 0 true; mkTok 3 "}" 59 0 false; mkTok 40 "," 59 2 false; mkTok 25 "int16" 60 0 false; mkTok 42 "float" 60 6 false; mkTok 40 "," 61 0 false; mkTok 38 "match" 61 2 false; mkTok 42 "chars" 61 8 false; mkTok 17 "as" 61 14 false; mkTok 42 "Pad" 62 4 false; mkTok 2 "{" 63 4 false; mkTok 31 """packet""" 63 6 false; mkTok 39 ":" 63 15 false; mkTok 42 "Packet" 63 17 false; mkTok 40 "," 63 24 false; mkTok 3 "}" 64 0 false; mkTok 40 "," 65 4 false; mkTok 42 "matchKey" 66 4 false; mkTok 2 "{" 66 13 false; mkTok 42 "metadata" 66 15 false; mkTok 7 "@lengthOf(" 66 23 false; mkTok 42 "Pad" 66 34 false; mkTok 6 ")" 66 38 false; mkTok 43 (string_of_bytes [96; 195; 169; 96]%N) 66 39 false; mkTok 40 "," 66 43 false; mkTok 42 "BodyLength" 66 44 false; mkTok 43 "``" 66 54 false; mkTok 40 "," 66 58 false; mkTok 42 "A" 66 60 false; mkTok 40 "," 66 62 false; mkTok 3 "}" 66 64 false; mkTok 40 "," 66 66 false; mkTok 44 (string_of_bytes [47; 47; 32; 230; 179; 168; 233; 135; 138]%N) 67 4 true; mkTok 3 "}" 68 4 false; mkTok 0 "<EOF>" 68 8 false] (mkPacket (mkPtok 34 "root" 1 0 0) (Some (mkPtok 3 "}" 68 4 187)) [(DPacket (mkPacketDef (mkSpan (mkPtok 34 "root" 1 0 0) (mkPtok 3 "}" 3 30 10)) (Some (mkPtok 34 "root" 1 0 0)) (mkPtok 35 "packet" 1 5 1) (mkPtok 42 "stringy" 2 0 2) (mkPtok 2 "{" 2 8 3) [(mkFieldWithAttr (mkSpan (mkPtok 24 "int8" 3 0 4) (mkPtok 40 "," 3 29 9)) [] (LengthField (mkSpan (mkPtok 24 "int8" 3 0 4) (mkPtok 40 "," 3 29 9)) (mkLengthFieldDecl (mkSpan (mkPtok 24 "int8" 3 0 4) (mkPtok 40 "," 3 29 9)) (Some (TyBasic (mkSpan (mkPtok 24 "int8" 3 0 4) (mkPtok 24 "int8" 3 0 4)) (mkBasicType (mkSpan (mkPtok 24 "int8" 3 0 4) (mkPtok 24 "int8" 3 0 4)) (mkPtok 24 "int8" 3 0 4)))) (mkPtok 42 "As" 3 5 5) (mkLengthOf (mkSpan (mkPtok 7 "@lengthOf(" 3 8 6) (mkPtok 6 ")" 3 27 8)) (mkPtok 7 "@lengthOf(" 3 8 6) (mkPtok 42 "trueish" 3 19 7) (mkPtok 6 ")" 3 27 8)) None (mkPtok 40 "," 3 29 9))))] (mkPtok 3 "}" 3 30 10))); (DPacket (mkPacketDef (mkSpan (mkPtok 35 "packet" 4 0 11) (mkPtok 3 "}" 34 0 92)) None (mkPtok 35 "packet" 4 0 11) (mkPtok 42 "string_" 5 0 12) (mkPtok 2 "{" 5 8 13) [(mkFieldWithAttr (mkSpan (mkPtok 42 "stringy" 6 0 14) (mkPtok 40 "," 9 0 16)) [] (ObjectField (mkSpan (mkPtok 42 "stringy" 6 0 14) (mkPtok 40 "," 9 0 16)) None (mkPtok 42 "stringy" 6 0 14) None (Some (mkPtok 43 (string_of_bytes [96; 99; 114; 108; 102; 13; 10; 108; 105; 110; 101; 96]%N) 7 0 15)) (mkPtok 40 "," 9 0 16))); (mkFieldWithAttr (mkSpan (mkPtok 21 "uint16" 9 1 17) (mkPtok 40 "," 12 4 20)) [] (MetaField (mkSpan (mkPtok 21 "uint16" 9 1 17) (mkPtok 40 "," 12 4 20)) None (mkMetaDecl (mkSpan (mkPtok 21 "uint16" 9 1 17) (mkPtok 40 "," 12 4 20)) (TyBasic (mkSpan (mkPtok 21 "uint16" 9 1 17) (mkPtok 21 "uint16" 9 1 17)) (mkBasicType (mkSpan (mkPtok 21 "uint16" 9 1 17) (mkPtok 21 "uint16" 9 1 17)) (mkPtok 21 "uint16" 9 1 17))) (mkPtok 42 "metadata" 10 4 18) None (mkPtok 40 "," 12 4 20)))); (mkFieldWithAttr (mkSpan (mkPtok 9 "@tag(" 12 7 21) (mkPtok 40 "," 15 14 31)) [(FATag (mkSpan (mkPtok 9 "@tag(" 12 7 21) (mkPtok 6 ")" 14 4 24)) (mkTagAttr (mkSpan (mkPtok 9 "@tag(" 12 7 21) (mkPtok 6 ")" 14 4 24)) (mkPtok 9 "@tag(" 12 7 21) (mkPtok 30 "4294967296" 12 13 22) (mkPtok 6 ")" 14 4 24))); (FATag (mkSpan (mkPtok 9 "@tag(" 14 6 25) (mkPtok 6 ")" 14 15 27)) (mkTagAttr (mkSpan (mkPtok 9 "@tag(" 14 6 25) (mkPtok 6 ")" 14 15 27)) (mkPtok 9 "@tag(" 14 6 25) (mkPtok 30 "255" 14 12 26) (mkPtok 6 ")" 14 15 27)))] (ObjectField (mkSpan (mkPtok 42 "f32a" 15 0 28) (mkPtok 40 "," 15 14 31)) None (mkPtok 42 "f32a" 15 0 28) (Some (mkPtok 42 "u" 15 5 29)) (Some (mkPtok 43 "`doc`" 15 7 30)) (mkPtok 40 "," 15 14 31))); (mkFieldWithAttr (mkSpan (mkPtok 14 "zchar[" 17 4 33) (mkPtok 40 "," 17 22 37)) [] (MetaField (mkSpan (mkPtok 14 "zchar[" 17 4 33) (mkPtok 40 "," 17 22 37)) None (mkMetaDecl (mkSpan (mkPtok 14 "zchar[" 17 4 33) (mkPtok 40 "," 17 22 37)) (TyFixed (mkSpan (mkPtok 14 "zchar[" 17 4 33) (mkPtok 13 "]" 17 13 35)) (mkFixedString (mkSpan (mkPtok 14 "zchar[" 17 4 33) (mkPtok 13 "]" 17 13 35)) (mkPtok 14 "zchar[" 17 4 33) (mkPtok 30 "3" 17 11 34) (mkPtok 13 "]" 17 13 35))) (mkPtok 42 "Packet" 17 15 36) None (mkPtok 40 "," 17 22 37)))); (mkFieldWithAttr (mkSpan (mkPtok 32 "@leftPad" 17 23 38) (mkPtok 40 "," 23 14 55)) [(FAPadding (mkSpan (mkPtok 32 "@leftPad" 17 23 38) (mkPtok 6 ")" 20 7 42)) (mkPaddingAttr (mkSpan (mkPtok 32 "@leftPad" 17 23 38) (mkPtok 6 ")" 20 7 42)) (mkPtok 32 "@leftPad" 17 23 38) (mkPtok 8 "(" 18 0 39) (Some (mkPtok 33 "'0'" 20 4 41)) (mkPtok 6 ")" 20 7 42))); (FALengthOf (mkSpan (mkPtok 7 "@lengthOf(" 20 8 43) (mkPtok 6 ")" 20 27 45)) (mkLengthOf (mkSpan (mkPtok 7 "@lengthOf(" 20 8 43) (mkPtok 6 ")" 20 27 45)) (mkPtok 7 "@lengthOf(" 20 8 43) (mkPtok 42 "uint8x" 20 19 44) (mkPtok 6 ")" 20 27 45)))] (LengthField (mkSpan (mkPtok 14 "zchar[" 20 29 46) (mkPtok 40 "," 23 14 55)) (mkLengthFieldDecl (mkSpan (mkPtok 14 "zchar[" 20 29 46) (mkPtok 40 "," 23 14 55)) (Some (TyFixed (mkSpan (mkPtok 14 "zchar[" 20 29 46) (mkPtok 13 "]" 20 38 48)) (mkFixedString (mkSpan (mkPtok 14 "zchar[" 20 29 46) (mkPtok 13 "]" 20 38 48)) (mkPtok 14 "zchar[" 20 29 46) (mkPtok 30 "0" 20 36 47) (mkPtok 13 "]" 20 38 48)))) (mkPtok 42 "uint8x" 20 39 49) (mkLengthOf (mkSpan (mkPtok 7 "@lengthOf(" 20 45 50) (mkPtok 6 ")" 23 0 53)) (mkPtok 7 "@lengthOf(" 20 45 50) (mkPtok 42 "Pad" 22 4 52) (mkPtok 6 ")" 23 0 53)) (Some (mkPtok 43 "`two words`" 23 2 54)) (mkPtok 40 "," 23 14 55)))); (mkFieldWithAttr (mkSpan (mkPtok 32 "@rightPad" 26 0 58) (mkPtok 40 "," 27 23 64)) [(FAPadding (mkSpan (mkPtok 32 "@rightPad" 26 0 58) (mkPtok 6 ")" 27 10 61)) (mkPaddingAttr (mkSpan (mkPtok 32 "@rightPad" 26 0 58) (mkPtok 6 ")" 27 10 61)) (mkPtok 32 "@rightPad" 26 0 58) (mkPtok 8 "(" 27 0 59) (Some (mkPtok 33 "'\x00'" 27 2 60)) (mkPtok 6 ")" 27 10 61)))] (ObjectField (mkSpan (mkPtok 42 "i8i8" 27 12 62) (mkPtok 40 "," 27 23 64)) None (mkPtok 42 "i8i8" 27 12 62) (Some (mkPtok 42 "roots" 27 17 63)) None (mkPtok 40 "," 27 23 64))); (mkFieldWithAttr (mkSpan (mkPtok 9 "@tag(" 27 24 65) (mkPtok 40 "," 28 52 73)) [(FATag (mkSpan (mkPtok 9 "@tag(" 27 24 65) (mkPtok 6 ")" 28 8 67)) (mkTagAttr (mkSpan (mkPtok 9 "@tag(" 27 24 65) (mkPtok 6 ")" 28 8 67)) (mkPtok 9 "@tag(" 27 24 65) (mkPtok 30 "007" 28 4 66) (mkPtok 6 ")" 28 8 67)))] (CheckSumField (mkSpan (mkPtok 42 "u128" 28 10 68) (mkPtok 40 "," 28 52 73)) (mkChecksumFieldDecl (mkSpan (mkPtok 42 "u128" 28 10 68) (mkPtok 40 "," 28 52 73)) None (mkPtok 42 "u128" 28 10 68) (mkCalculatedFrom (mkSpan (mkPtok 5 "@calculatedFrom(" 28 15 69) (mkPtok 6 ")" 28 38 71)) (mkPtok 5 "@calculatedFrom(" 28 15 69) (mkPtok 31 (string_of_bytes [34; 195; 169; 116; 195; 169; 34]%N) 28 32 70) (mkPtok 6 ")" 28 38 71)) (Some (mkPtok 43 "`two words`" 28 40 72)) (mkPtok 40 "," 28 52 73)))); (mkFieldWithAttr (mkSpan (mkPtok 15 "string" 28 54 74) (mkPtok 40 "," 30 0 80)) [] (LengthField (mkSpan (mkPtok 15 "string" 28 54 74) (mkPtok 40 "," 30 0 80)) (mkLengthFieldDecl (mkSpan (mkPtok 15 "string" 28 54 74) (mkPtok 40 "," 30 0 80)) (Some (TyDynamic (mkSpan (mkPtok 15 "string" 28 54 74) (mkPtok 15 "string" 28 54 74)) (mkDynamicString (mkSpan (mkPtok 15 "string" 28 54 74) (mkPtok 15 "string" 28 54 74)) (mkPtok 15 "string" 28 54 74)))) (mkPtok 42 "string_" 28 61 75) (mkLengthOf (mkSpan (mkPtok 7 "@lengthOf(" 28 69 76) (mkPtok 6 ")" 28 86 78)) (mkPtok 7 "@lengthOf(" 28 69 76) (mkPtok 42 "falsey" 28 80 77) (mkPtok 6 ")" 28 86 78)) (Some (mkPtok 43 "`a\`" 29 0 79)) (mkPtok 40 "," 30 0 80)))); (mkFieldWithAttr (mkSpan (mkPtok 38 "match" 30 1 81) (mkPtok 40 "," 33 8 91)) [] (MatchField (mkSpan (mkPtok 38 "match" 30 1 81) (mkPtok 40 "," 33 8 91)) (mkMatchFieldDecl (mkSpan (mkPtok 38 "match" 30 1 81) (mkPtok 3 "}" 33 6 90)) (mkPtok 38 "match" 30 1 81) (mkPtok 42 "tag" 30 7 82) (mkPtok 17 "as" 30 11 83) (mkPtok 42 "i8i8" 30 14 84) (mkPtok 2 "{" 31 0 85) [(mkMatchPair (mkSpan (mkPtok 31 """x y""" 32 0 86) (mkPtok 40 "," 33 4 89)) (MKString (mkPtok 31 """x y""" 32 0 86)) (mkPtok 39 ":" 32 5 87) (mkPtok 42 "asx" 33 0 88) (Some (mkPtok 40 "," 33 4 89)))] (mkPtok 3 "}" 33 6 90)) (mkPtok 40 "," 33 8 91)))] (mkPtok 3 "}" 34 0 92))); (DPacket (mkPacketDef (mkSpan (mkPtok 35 "packet" 35 4 93) (mkPtok 3 "}" 35 17 96)) None (mkPtok 35 "packet" 35 4 93) (mkPtok 42 "u8x" 35 11 94) (mkPtok 2 "{" 35 15 95) [] (mkPtok 3 "}" 35 17 96))); (DOption (mkOptionDef (mkSpan (mkPtok 1 "options" 35 19 97) (mkPtok 3 "}" 38 5 103)) (mkPtok 1 "options" 35 19 97) (mkPtok 2 "{" 35 26 98) [(mkOptionDecl (mkSpan (mkPtok 42 "zchar" 36 0 99) (mkPtok 41 ";" 38 4 102)) (mkPtok 42 "zchar" 36 0 99) (mkPtok 4 "=" 36 6 100) (VType (mkSpan (mkPtok 29 "f64" 37 4 101) (mkPtok 29 "f64" 37 4 101)) (TyBasic (mkSpan (mkPtok 29 "f64" 37 4 101) (mkPtok 29 "f64" 37 4 101)) (mkBasicType (mkSpan (mkPtok 29 "f64" 37 4 101) (mkPtok 29 "f64" 37 4 101)) (mkPtok 29 "f64" 37 4 101)))) (Some (mkPtok 41 ";" 38 4 102)))] (mkPtok 3 "}" 38 5 103))); (DPacket (mkPacketDef (mkSpan (mkPtok 35 "packet" 38 7 104) (mkPtok 3 "}" 68 4 187)) None (mkPtok 35 "packet" 38 7 104) (mkPtok 42 "T" 39 4 105) (mkPtok 2 "{" 39 6 106) [(mkFieldWithAttr (mkSpan (mkPtok 7 "@lengthOf(" 40 0 107) (mkPtok 40 "," 50 0 126)) [(FALengthOf (mkSpan (mkPtok 7 "@lengthOf(" 40 0 107) (mkPtok 6 ")" 41 0 109)) (mkLengthOf (mkSpan (mkPtok 7 "@lengthOf(" 40 0 107) (mkPtok 6 ")" 41 0 109)) (mkPtok 7 "@lengthOf(" 40 0 107) (mkPtok 42 "string_" 40 11 108) (mkPtok 6 ")" 41 0 109)))] (InerObjectField (mkSpan (mkPtok 42 "crc" 42 4 110) (mkPtok 40 "," 50 0 126)) None (InerObjectDecl (mkSpan (mkPtok 42 "crc" 42 4 110) (mkPtok 3 "}" 47 18 123)) (mkPtok 42 "crc" 42 4 110) (mkPtok 2 "{" 42 8 111) [(ObjectField (mkSpan (mkPtok 42 "metadata" 42 10 112) (mkPtok 40 "," 43 6 115)) None (mkPtok 42 "metadata" 42 10 112) (Some (mkPtok 42 "charz" 43 0 114)) None (mkPtok 40 "," 43 6 115)); (MetaField (mkSpan (mkPtok 16 "char[]" 43 8 116) (mkPtok 40 "," 46 4 119)) None (mkMetaDecl (mkSpan (mkPtok 16 "char[]" 43 8 116) (mkPtok 40 "," 46 4 119)) (TyDynamic (mkSpan (mkPtok 16 "char[]" 43 8 116) (mkPtok 16 "char[]" 43 8 116)) (mkDynamicString (mkSpan (mkPtok 16 "char[]" 43 8 116) (mkPtok 16 "char[]" 43 8 116)) (mkPtok 16 "char[]" 43 8 116))) (mkPtok 42 "uint8x" 43 14 117) (Some (mkPtok 43 (string_of_bytes [96; 108; 105; 110; 101; 49; 10; 108; 105; 110; 101; 50; 96]%N) 44 4 118)) (mkPtok 40 "," 46 4 119))); (MetaField (mkSpan (mkPtok 20 "uint8" 47 4 120) (mkPtok 40 "," 47 16 122)) None (mkMetaDecl (mkSpan (mkPtok 20 "uint8" 47 4 120) (mkPtok 40 "," 47 16 122)) (TyBasic (mkSpan (mkPtok 20 "uint8" 47 4 120) (mkPtok 20 "uint8" 47 4 120)) (mkBasicType (mkSpan (mkPtok 20 "uint8" 47 4 120) (mkPtok 20 "uint8" 47 4 120)) (mkPtok 20 "uint8" 47 4 120))) (mkPtok 42 "Packet" 47 10 121) None (mkPtok 40 "," 47 16 122)))] (mkPtok 3 "}" 47 18 123)) (mkPtok 40 "," 50 0 126))); (mkFieldWithAttr (mkSpan (mkPtok 42 "metadata" 50 2 127) (mkPtok 40 "," 53 8 134)) [] (CheckSumField (mkSpan (mkPtok 42 "metadata" 50 2 127) (mkPtok 40 "," 53 8 134)) (mkChecksumFieldDecl (mkSpan (mkPtok 42 "metadata" 50 2 127) (mkPtok 40 "," 53 8 134)) None (mkPtok 42 "metadata" 50 2 127) (mkCalculatedFrom (mkSpan (mkPtok 5 "@calculatedFrom(" 50 11 128) (mkPtok 6 ")" 50 33 130)) (mkPtok 5 "@calculatedFrom(" 50 11 128) (mkPtok 31 (string_of_bytes [34; 92; 195; 169; 34]%N) 50 28 129) (mkPtok 6 ")" 50 33 130)) (Some (mkPtok 43 "`{ , }`" 53 0 133)) (mkPtok 40 "," 53 8 134)))); (mkFieldWithAttr (mkSpan (mkPtok 42 "zchar" 54 0 135) (mkPtok 40 "," 55 0 140)) [] (CheckSumField (mkSpan (mkPtok 42 "zchar" 54 0 135) (mkPtok 40 "," 55 0 140)) (mkChecksumFieldDecl (mkSpan (mkPtok 42 "zchar" 54 0 135) (mkPtok 40 "," 55 0 140)) None (mkPtok 42 "zchar" 54 0 135) (mkCalculatedFrom (mkSpan (mkPtok 5 "@calculatedFrom(" 54 6 136) (mkPtok 6 ")" 54 30 138)) (mkPtok 5 "@calculatedFrom(" 54 6 136) (mkPtok 31 """it's""" 54 23 137) (mkPtok 6 ")" 54 30 138)) (Some (mkPtok 43 "`a\`" 54 32 139)) (mkPtok 40 "," 55 0 140)))); (mkFieldWithAttr (mkSpan (mkPtok 23 "u64" 55 2 141) (mkPtok 40 "," 55 15 143)) [] (MetaField (mkSpan (mkPtok 23 "u64" 55 2 141) (mkPtok 40 "," 55 15 143)) None (mkMetaDecl (mkSpan (mkPtok 23 "u64" 55 2 141) (mkPtok 40 "," 55 15 143)) (TyBasic (mkSpan (mkPtok 23 "u64" 55 2 141) (mkPtok 23 "u64" 55 2 141)) (mkBasicType (mkSpan (mkPtok 23 "u64" 55 2 141) (mkPtok 23 "u64" 55 2 141)) (mkPtok 23 "u64" 55 2 141))) (mkPtok 42 "packetx" 55 7 142) None (mkPtok 40 "," 55 15 143)))); (mkFieldWithAttr (mkSpan (mkPtok 38 "match" 55 17 144) (mkPtok 40 "," 59 2 156)) [] (MatchField (mkSpan (mkPtok 38 "match" 55 17 144) (mkPtok 40 "," 59 2 156)) (mkMatchFieldDecl (mkSpan (mkPtok 38 "match" 55 17 144) (mkPtok 3 "}" 59 0 155)) (mkPtok 38 "match" 55 17 144) (mkPtok 42 "u128" 56 0 146) (mkPtok 17 "as" 56 5 147) (mkPtok 42 "i8i8" 56 8 148) (mkPtok 2 "{" 56 13 149) [(mkMatchPair (mkSpan (mkPtok 30 "4294967296" 56 15 150) (mkPtok 42 "x_y_z" 56 27 152)) (MKDigits (mkPtok 30 "4294967296" 56 15 150)) (mkPtok 39 ":" 56 26 151) (mkPtok 42 "x_y_z" 56 27 152) None)] (mkPtok 3 "}" 59 0 155)) (mkPtok 40 "," 59 2 156))); (mkFieldWithAttr (mkSpan (mkPtok 25 "int16" 60 0 157) (mkPtok 40 "," 61 0 159)) [] (MetaField (mkSpan (mkPtok 25 "int16" 60 0 157) (mkPtok 40 "," 61 0 159)) None (mkMetaDecl (mkSpan (mkPtok 25 "int16" 60 0 157) (mkPtok 40 "," 61 0 159)) (TyBasic (mkSpan (mkPtok 25 "int16" 60 0 157) (mkPtok 25 "int16" 60 0 157)) (mkBasicType (mkSpan (mkPtok 25 "int16" 60 0 157) (mkPtok 25 "int16" 60 0 157)) (mkPtok 25 "int16" 60 0 157))) (mkPtok 42 "float" 60 6 158) None (mkPtok 40 "," 61 0 159)))); (mkFieldWithAttr (mkSpan (mkPtok 38 "match" 61 2 160) (mkPtok 40 "," 65 4 170)) [] (MatchField (mkSpan (mkPtok 38 "match" 61 2 160) (mkPtok 40 "," 65 4 170)) (mkMatchFieldDecl (mkSpan (mkPtok 38 "match" 61 2 160) (mkPtok 3 "}" 64 0 169)) (mkPtok 38 "match" 61 2 160) (mkPtok 42 "chars" 61 8 161) (mkPtok 17 "as" 61 14 162) (mkPtok 42 "Pad" 62 4 163) (mkPtok 2 "{" 63 4 164) [(mkMatchPair (mkSpan (mkPtok 31 """packet""" 63 6 165) (mkPtok 40 "," 63 24 168)) (MKString (mkPtok 31 """packet""" 63 6 165)) (mkPtok 39 ":" 63 15 166) (mkPtok 42 "Packet" 63 17 167) (Some (mkPtok 40 "," 63 24 168)))] (mkPtok 3 "}" 64 0 169)) (mkPtok 40 "," 65 4 170))); (mkFieldWithAttr (mkSpan (mkPtok 42 "matchKey" 66 4 171) (mkPtok 40 "," 66 66 185)) [] (InerObjectField (mkSpan (mkPtok 42 "matchKey" 66 4 171) (mkPtok 40 "," 66 66 185)) None (InerObjectDecl (mkSpan (mkPtok 42 "matchKey" 66 4 171) (mkPtok 3 "}" 66 64 184)) (mkPtok 42 "matchKey" 66 4 171) (mkPtok 2 "{" 66 13 172) [(LengthField (mkSpan (mkPtok 42 "metadata" 66 15 173) (mkPtok 40 "," 66 43 178)) (mkLengthFieldDecl (mkSpan (mkPtok 42 "metadata" 66 15 173) (mkPtok 40 "," 66 43 178)) None (mkPtok 42 "metadata" 66 15 173) (mkLengthOf (mkSpan (mkPtok 7 "@lengthOf(" 66 23 174) (mkPtok 6 ")" 66 38 176)) (mkPtok 7 "@lengthOf(" 66 23 174) (mkPtok 42 "Pad" 66 34 175) (mkPtok 6 ")" 66 38 176)) (Some (mkPtok 43 (string_of_bytes [96; 195; 169; 96]%N) 66 39 177)) (mkPtok 40 "," 66 43 178))); (ObjectField (mkSpan (mkPtok 42 "BodyLength" 66 44 179) (mkPtok 40 "," 66 58 181)) None (mkPtok 42 "BodyLength" 66 44 179) None (Some (mkPtok 43 "``" 66 54 180)) (mkPtok 40 "," 66 58 181)); (ObjectField (mkSpan (mkPtok 42 "A" 66 60 182) (mkPtok 40 "," 66 62 183)) None (mkPtok 42 "A" 66 60 182) None None (mkPtok 40 "," 66 62 183))] (mkPtok 3 "}" 66 64 184)) (mkPtok 40 "," 66 66 185)))] (mkPtok 3 "}" 68 4 187)))])).
-Eval vm_compute in ("<<<M1074>>>" ++ check (runes_of_ascii "
-MetaData // `tick` ""quote"" 'q'
-Foo { char[
-    4294967296
-    ] // packet A { u8 x, }
-string_ , T float , }
-")).
-Eval vm_compute in ("<<<M1106>>>" ++ check (runes_of_ascii "root packet
-roots //
-{ // trailing space 
-} root packet MetaDataX
-{
-char[255 ]	rootA , }/// triple
-packet u8x { @rightPad
-( // " ++ [27880; 37322]%N ++ runes_of_ascii "
-) msg_type@lengthOf( Z9_
-) , char[
-    0
-] x_y_z @lengthOf( len )// " ++ [27880; 37322]%N ++ runes_of_ascii "
-`it's`// " ++ [128512]%N ++ runes_of_ascii " emoji
-, @rightPad
-( ' ') int16 calculatedFrom ,chars @lengthOf(//x
-msg_type
-)
-//	t
-// @lengthOf(
-`it's`
-,
-    repeat pack { repeat u64 // c
-x
-    ,
-}	, i8
-metadata @calculatedFrom(""" ++ [28040; 24687]%N ++ runes_of_ascii """ )
-,
-    match o as len { [ 0123456789 ,
-""a\""b"" , 65535
-    // `tick` ""quote"" 'q'
-    ,
-""" ++ [128512]%N ++ runes_of_ascii """ , 0123456789 ,
-""{,}""] : body 3:
-As , 3: As ,
-42 : int , 1// @lengthOf(
-:
-    o
-    ,  [ 1
-    ]
-: o// c
-,
-} ,
-zchar[ 007] asx
-,
-    asx
-@lengthOf( zchar
-// packet A { u8 x, }
-// @lengthOf(
-) ,
-f64 Logon
-    ``
-    // " ++ [27880; 37322]%N ++ runes_of_ascii "
-    ,
-} //")).
-Eval vm_compute in ("<<<M1138>>>" ++ check (runes_of_ascii "packet
-    repeatCount
-    {	match	float as u { // trailing space 
-""" ++ [128512]%N ++ runes_of_ascii """ :	i64_ , // trailing space 
-}
-    , repeat Z9_
-    {string metadata `u8 x,` , }	,
-u8 lengthOf ,
-repeat float { zchar[ 255 // `tick` ""quote"" 'q'
-]
-    matchKey@lengthOf( u8x ) , uint8 Packet
-    `" ++ [233]%N ++ runes_of_ascii "`	,x_y_z As	, zchar[
-/// triple
-// " ++ [128512]%N ++ runes_of_ascii " emoji
-3 ] chars `it's` ,
-} ,
-    repeat a1
-,@calculatedFrom(  ""it's"")uint64 x_y_z ,
-match metadata  as Packet
-{ [ """ ++ [233]%N ++ runes_of_ascii "t" ++ [233]%N ++ runes_of_ascii """]
-: BodyLength , 3 :
-    o  ,
-    //
-    65535 : Z9_// " ++ [27880; 37322]%N ++ runes_of_ascii "
-, [ ""CRC32""] :
-    Packet ,  ""a\\"":
-int , 4294967296 : Foo,}
-, repeat
-// trailing space 
-// c
-int {
-    // `tick` ""quote"" 'q'
-    lengthOf @lengthOf(o
-// trailing space 
-// " ++ [27880; 37322]%N ++ runes_of_ascii "
-) // " ++ [128512]%N ++ runes_of_ascii " emoji
-`// not a comment`// c
-, repeat Packet a1 ,}	,
-    //
-    @lengthOf( u )char[ 10 // @lengthOf(
-] packetx @calculatedFrom(""abc"" ) , @rightPad
-    ( '0' )  T,}
-")).
-Eval vm_compute in ("<<<M1170>>>" ++ check (runes_of_ascii "packet
-tag { int8 packetx , }packet Foo/// triple
-{//x
-repeatCount@calculatedFrom( ""x y"" /// triple
-)
-,char[00
-] As @lengthOf( a1 )
-`crlf
-line`
-,
-    @tag( 10) len {  char[	10// " ++ [128512]%N ++ runes_of_ascii " emoji
-] matchKey `" ++ [233]%N ++ runes_of_ascii "` , f32a@lengthOf( u128
-    )
-    `it's` ,
-    } ,
-}
-")).
-Eval vm_compute in ("<<<M1202>>>" ++ check (runes_of_ascii "
-packet calculatedFrom
-{
-@lengthOf( rootA
-    )
-    @tag( 0 )  repeat  lengthOf
-    // trailing space 
-    Pad `doc`,
-} // packet A { u8 x, }
-options
-    {
-lengthOf	= false x_y_z= true  ;_x = u8; zchar=
-    char[ 10 ] MetaDataX
-    =
-    true } packet	T { }")).
-Eval vm_compute in ("<<<M1234>>>" ++ check (runes_of_ascii "
-options { options1= false
-    }")).
-Eval vm_compute in ("<<<M1266>>>" ++ check (runes_of_ascii "root  packet
-msg_type {
-// @lengthOf(
-//	t
-string repeatCount `crlf
-line` , i8	Foo @lengthOf( MetaDataX )
-    , @tag( 10 ) @calculatedFrom(
-    ""abc"" ) @lengthOf( falsey
-    ) repeat stringy pack `doc`,  } options { As =65535}")).
-Eval vm_compute in ("<<<T1266>>>" ++ terms [mkTok 34 "root" 1 0 false; mkTok 35 "packet" 1 6 false; mkTok 42 "msg_type" 2 0 false; mkTok 2 "{" 2 9 false; mkTok 44 "// @lengthOf(" 3 0 true; mkTok 44 (string_of_bytes [47; 47; 9; 116]%N) 4 0 true; mkTok 15 "string" 5 0 false; mkTok 42 "repeatCount" 5 7 false; mkTok 43 (string_of_bytes [96; 99; 114; 108; 102; 13; 10; 108; 105; 110; 101; 96]%N) 5 19 false; mkTok 40 "," 6 6 false; mkTok 24 "i8" 6 8 false; mkTok 42 "Foo" 6 11 false; mkTok 7 "@lengthOf(" 6 15 false; mkTok 42 "MetaDataX" 6 26 false; mkTok 6 ")" 6 36 false; mkTok 40 "," 7 4 false; mkTok 9 "@tag(" 7 6 false; mkTok 30 "10" 7 12 false; mkTok 6 ")" 7 15 false; mkTok 5 "@calculatedFrom(" 7 17 false; mkTok 31 """abc""" 8 4 false; mkTok 6 ")" 8 10 false; mkTok 7 "@lengthOf(" 8 12 false; mkTok 42 "falsey" 8 23 false; mkTok 6 ")" 9 4 false; mkTok 36 "repeat" 9 6 false; mkTok 42 "stringy" 9 13 false; mkTok 42 "pack" 9 21 false; mkTok 43 "`doc`" 9 26 false; mkTok 40 "," 9 31 false; mkTok 3 "}" 9 34 false; mkTok 1 "options" 9 36 false; mkTok 2 "{" 9 44 false; mkTok 42 "As" 9 46 false; mkTok 4 "=" 9 49 false; mkTok 30 "65535" 9 50 false; mkTok 3 "}" 9 55 false; mkTok 0 "<EOF>" 9 56 false] (mkPacket (mkPtok 34 "root" 1 0 0) (Some (mkPtok 3 "}" 9 55 36)) [(DPacket (mkPacketDef (mkSpan (mkPtok 34 "root" 1 0 0) (mkPtok 3 "}" 9 34 30)) (Some (mkPtok 34 "root" 1 0 0)) (mkPtok 35 "packet" 1 6 1) (mkPtok 42 "msg_type" 2 0 2) (mkPtok 2 "{" 2 9 3) [(mkFieldWithAttr (mkSpan (mkPtok 15 "string" 5 0 6) (mkPtok 40 "," 6 6 9)) [] (MetaField (mkSpan (mkPtok 15 "string" 5 0 6) (mkPtok 40 "," 6 6 9)) None (mkMetaDecl (mkSpan (mkPtok 15 "string" 5 0 6) (mkPtok 40 "," 6 6 9)) (TyDynamic (mkSpan (mkPtok 15 "string" 5 0 6) (mkPtok 15 "string" 5 0 6)) (mkDynamicString (mkSpan (mkPtok 15 "string" 5 0 6) (mkPtok 15 "string" 5 0 6)) (mkPtok 15 "string" 5 0 6))) (mkPtok 42 "repeatCount" 5 7 7) (Some (mkPtok 43 (string_of_bytes [96; 99; 114; 108; 102; 13; 10; 108; 105; 110; 101; 96]%N) 5 19 8)) (mkPtok 40 "," 6 6 9)))); (mkFieldWithAttr (mkSpan (mkPtok 24 "i8" 6 8 10) (mkPtok 40 "," 7 4 15)) [] (LengthField (mkSpan (mkPtok 24 "i8" 6 8 10) (mkPtok 40 "," 7 4 15)) (mkLengthFieldDecl (mkSpan (mkPtok 24 "i8" 6 8 10) (mkPtok 40 "," 7 4 15)) (Some (TyBasic (mkSpan (mkPtok 24 "i8" 6 8 10) (mkPtok 24 "i8" 6 8 10)) (mkBasicType (mkSpan (mkPtok 24 "i8" 6 8 10) (mkPtok 24 "i8" 6 8 10)) (mkPtok 24 "i8" 6 8 10)))) (mkPtok 42 "Foo" 6 11 11) (mkLengthOf (mkSpan (mkPtok 7 "@lengthOf(" 6 15 12) (mkPtok 6 ")" 6 36 14)) (mkPtok 7 "@lengthOf(" 6 15 12) (mkPtok 42 "MetaDataX" 6 26 13) (mkPtok 6 ")" 6 36 14)) None (mkPtok 40 "," 7 4 15)))); (mkFieldWithAttr (mkSpan (mkPtok 9 "@tag(" 7 6 16) (mkPtok 40 "," 9 31 29)) [(FATag (mkSpan (mkPtok 9 "@tag(" 7 6 16) (mkPtok 6 ")" 7 15 18)) (mkTagAttr (mkSpan (mkPtok 9 "@tag(" 7 6 16) (mkPtok 6 ")" 7 15 18)) (mkPtok 9 "@tag(" 7 6 16) (mkPtok 30 "10" 7 12 17) (mkPtok 6 ")" 7 15 18))); (FACalculatedFrom (mkSpan (mkPtok 5 "@calculatedFrom(" 7 17 19) (mkPtok 6 ")" 8 10 21)) (mkCalculatedFrom (mkSpan (mkPtok 5 "@calculatedFrom(" 7 17 19) (mkPtok 6 ")" 8 10 21)) (mkPtok 5 "@calculatedFrom(" 7 17 19) (mkPtok 31 """abc""" 8 4 20) (mkPtok 6 ")" 8 10 21))); (FALengthOf (mkSpan (mkPtok 7 "@lengthOf(" 8 12 22) (mkPtok 6 ")" 9 4 24)) (mkLengthOf (mkSpan (mkPtok 7 "@lengthOf(" 8 12 22) (mkPtok 6 ")" 9 4 24)) (mkPtok 7 "@lengthOf(" 8 12 22) (mkPtok 42 "falsey" 8 23 23) (mkPtok 6 ")" 9 4 24)))] (ObjectField (mkSpan (mkPtok 36 "repeat" 9 6 25) (mkPtok 40 "," 9 31 29)) (Some (mkPtok 36 "repeat" 9 6 25)) (mkPtok 42 "stringy" 9 13 26) (Some (mkPtok 42 "pack" 9 21 27)) (Some (mkPtok 43 "`doc`" 9 26 28)) (mkPtok 40 "," 9 31 29)))] (mkPtok 3 "}" 9 34 30))); (DOption (mkOptionDef (mkSpan (mkPtok 1 "options" 9 36 31) (mkPtok 3 "}" 9 55 36)) (mkPtok 1 "options" 9 36 31) (mkPtok 2 "{" 9 44 32) [(mkOptionDecl (mkSpan (mkPtok 42 "As" 9 46 33) (mkPtok 30 "65535" 9 50 35)) (mkPtok 42 "As" 9 46 33) (mkPtok 4 "=" 9 49 34) (VDigits (mkSpan (mkPtok 30 "65535" 9 50 35) (mkPtok 30 "65535" 9 50 35)) (mkPtok 30 "65535" 9 50 35)) None)] (mkPtok 3 "}" 9 55 36)))])).
-Eval vm_compute in ("<<<M1298>>>" ++ check (runes_of_ascii "packet
-falsey {lengthOf
-{ char[
-    // packet A { u8 x, }
-    65535 ] Header	@calculatedFrom(""a\\""
-)
-    /// triple
-    ,
-repeat x
-len,},
-    } MetaData
-x_y_z {	}
-")).
-Eval vm_compute in ("<<<M1330>>>" ++ check (runes_of_ascii "root packet roots { } // `tick` ""quote"" 'q'
-MetaData As
-{ string u
-`{ , }` ,	zchar[ 3 ]
-x_y_z, i32 roots ,
-u16 rootA
-    `line1
-line2` ,
-// `tick` ""quote"" 'q'
-// a // b
-i32// @lengthOf(
-matchKey
-    `doc`, u _x //	t
-`{ , }` , }
-")).
-Eval vm_compute in ("<<<M1362>>>" ++ check (@nil rune)).
-Eval vm_compute in ("<<<M1394>>>" ++ check (runes_of_ascii "
-packet u { repeat char[// " ++ [27880; 37322]%N ++ runes_of_ascii "
-10] crc
-, repeat string x  ,  match
-//	t
-//
-charz as
-    tag{
-007 :
-options1
-    , } ,Packet @lengthOf(trueish
-) ,
-}")).
-Eval vm_compute in ("<<<M1426>>>" ++ check (runes_of_ascii "MetaData  u{ metadata x_y_z	, i8i8
-    len`it's`
-    , zchar[ // " ++ [27880; 37322]%N ++ runes_of_ascii "
-42	]
-options1 `{ , }` ,
-} packet u {
-@calculatedFrom(""abc""// a // b
-)
-// c
-// " ++ [27880; 37322]%N ++ runes_of_ascii "
-char[ 0123456789 ] string_ @lengthOf(
-Logon) `a\`	, string string_
-@lengthOf( // packet A { u8 x, }
-float )	, char[]// c
-crc
-`line1
-line2` , @lengthOf(
-/// triple
-// `tick` ""quote"" 'q'
-metadata
-    )  u128 {
-    char[]  T ,}, f64  As
-@calculatedFrom(// a // b
-""// no comment""
-)// " ++ [27880; 37322]%N ++ runes_of_ascii "
-,  repeat Z9_
-    chars`u8 x,` ,  @calculatedFrom(
-""packet"" )repeat
-    // @lengthOf(
-    a1  tag , } packet A
-    {	@tag(7
-    )@rightPad
-(
-) @tag( 0123456789 ) repeat
-    crc { repeatCount As
-// @lengthOf(
-//	t
-,}
-, match pack
-    as u {
-""packet"" :Pad  , ""1"":u8x 007
-    : Packet [ ""packet"", """ ++ [28040; 24687]%N ++ runes_of_ascii """ ] // " ++ [27880; 37322]%N ++ runes_of_ascii "
-: BodyLength
-""1"" :asx ,
-} , match i64_
-as Header{ 4294967296: _x	007 :packetx
-, [007 ]
-:
-A
-    , //	t
-} ,uint8 BodyLength ,@lengthOf(
-// `tick` ""quote"" 'q'
-// packet A { u8 x, }
-i64_ //	t
-)
-    u8
-falsey //	t
-, }
-")).
-Eval vm_compute in ("<<<M1458>>>" ++ check (runes_of_ascii "
+Eval vm_compute in ("<<<M786>>>" ++ check (runes_of_ascii "
 root
-    packet x_y_z{@lengthOf( _x ) _x  @lengthOf( trueish)	,} packet
-    BodyLength {// packet A { u8 x, }
-}
-    // " ++ [128512]%N ++ runes_of_ascii " emoji
-    MetaData // @lengthOf(
-a1 { Pad
-    repeatCount	,i16 zchar `` ,//	t
-}")).
-Eval vm_compute in ("<<<M1490>>>" ++ check (runes_of_ascii "packet metadata {
-    @lengthOf(  Header) // " ++ [27880; 37322]%N ++ runes_of_ascii "
-float32
-options1
-    `line1
-line2`
-,}")).
-Eval vm_compute in ("<<<T1490>>>" ++ terms [mkTok 35 "packet" 1 0 false; mkTok 42 "metadata" 1 7 false; mkTok 2 "{" 1 16 false; mkTok 7 "@lengthOf(" 2 4 false; mkTok 42 "Header" 2 16 false; mkTok 6 ")" 2 22 false; mkTok 44 (string_of_bytes [47; 47; 32; 230; 179; 168; 233; 135; 138]%N) 2 24 true; mkTok 28 "float32" 3 0 false; mkTok 42 "options1" 4 0 false; mkTok 43 (string_of_bytes [96; 108; 105; 110; 101; 49; 10; 108; 105; 110; 101; 50; 96]%N) 5 4 false; mkTok 40 "," 7 0 false; mkTok 3 "}" 7 1 false; mkTok 0 "<EOF>" 7 2 false] (mkPacket (mkPtok 35 "packet" 1 0 0) (Some (mkPtok 3 "}" 7 1 11)) [(DPacket (mkPacketDef (mkSpan (mkPtok 35 "packet" 1 0 0) (mkPtok 3 "}" 7 1 11)) None (mkPtok 35 "packet" 1 0 0) (mkPtok 42 "metadata" 1 7 1) (mkPtok 2 "{" 1 16 2) [(mkFieldWithAttr (mkSpan (mkPtok 7 "@lengthOf(" 2 4 3) (mkPtok 40 "," 7 0 10)) [(FALengthOf (mkSpan (mkPtok 7 "@lengthOf(" 2 4 3) (mkPtok 6 ")" 2 22 5)) (mkLengthOf (mkSpan (mkPtok 7 "@lengthOf(" 2 4 3) (mkPtok 6 ")" 2 22 5)) (mkPtok 7 "@lengthOf(" 2 4 3) (mkPtok 42 "Header" 2 16 4) (mkPtok 6 ")" 2 22 5)))] (MetaField (mkSpan (mkPtok 28 "float32" 3 0 7) (mkPtok 40 "," 7 0 10)) None (mkMetaDecl (mkSpan (mkPtok 28 "float32" 3 0 7) (mkPtok 40 "," 7 0 10)) (TyBasic (mkSpan (mkPtok 28 "float32" 3 0 7) (mkPtok 28 "float32" 3 0 7)) (mkBasicType (mkSpan (mkPtok 28 "float32" 3 0 7) (mkPtok 28 "float32" 3 0 7)) (mkPtok 28 "float32" 3 0 7))) (mkPtok 42 "options1" 4 0 8) (Some (mkPtok 43 (string_of_bytes [96; 108; 105; 110; 101; 49; 10; 108; 105; 110; 101; 50; 96]%N) 5 4 9)) (mkPtok 40 "," 7 0 10))))] (mkPtok 3 "}" 7 1 11)))])).
-Eval vm_compute in ("<<<M1522>>>" ++ check (runes_of_ascii "MetaData Packet { string	crc `doc` ,}
-")).
-Eval vm_compute in ("<<<M1554>>>" ++ check (runes_of_ascii "MetaData lengthOf { } packet	x {string calculatedFrom , } packet len { }
-")).
-Eval vm_compute in ("<<<M1586>>>" ++ check (runes_of_ascii "options
-{ } //	t")).
-Eval vm_compute in ("<<<M1618>>>" ++ check (runes_of_ascii "packet metadata{ }packet u8x { string u128@lengthOf( len
-/// triple
-/// triple
-) `tab	here` , @tag(
-    3
-    // a // b
-    )	char[]	Z9_ ,	match stringy as
-As
-{ [ 0123456789 , // @lengthOf(
-4294967296// c
-, ""\" ++ [233]%N ++ runes_of_ascii """,
-10, 255 ,
-42
-,
-    0123456789 ] : o
-7:
-    Pad , 0123456789: Logon ,
-[ """" , 0123456789 , ""a	b""
-    , ""{,}"" // `tick` ""quote"" 'q'
-, 0
-    ]// @lengthOf(
-:// a // b
-Logon	,
-// " ++ [128512]%N ++ runes_of_ascii " emoji
-// c
-""" ++ [233]%N ++ runes_of_ascii "t" ++ [233]%N ++ runes_of_ascii """ // @lengthOf(
-:u8x , }
-,
-asx	trueish ,repeat zchar[ 1 ] A
-, @leftPad
-(
-'0'	)
-    repeat //
-BodyLength
-    , repeat lengthOf { char[] falsey
-`u8 x,`  ,	match len as
-    options1
     // packet A { u8 x, }
-    {
-    ""`tick`""
-    : metadata , 0 : asx ""a	b"" : lengthOf ,  } , leftPad
-    //x
-    {char u128 ,
-    Packet `` , }  ,
-i16
-    i64_ // a // b
-,} , A {
-    /// triple
-    repeat
-f32 roots ,
-    repeat
-//	t
-/// triple
-u32 crc,
-uint8 MetaDataX,	string
-    u8x `tab	here`, }
-    , @lengthOf(i64_ ) int32 T ,
-} packet T{ zchar {
-    u8 Z9_	@lengthOf(
-    // " ++ [27880; 37322]%N ++ runes_of_ascii "
-    chars
-) `line1
-line2`
-    // `tick` ""quote"" 'q'
-    , } ,repeat x_y_z { // " ++ [128512]%N ++ runes_of_ascii " emoji
-match f32a
-// c
-//
-as
-Pad {//x
-255 :
-repeatCount
-,
-    007 :
-charz ,} , repeat zchar[ 0
-]
-roots , i32 tag @lengthOf(  falsey ) `" ++ [233]%N ++ runes_of_ascii "` ,
-T `line1
-line2`, } ,	@tag( 007)repeat
-    /// triple
-    Foo {
-tag {
-    match
-string_  as chars
-    { ""a\\""
-    :
-    i8i8 } ,}, match trueish as
-calculatedFrom{[
-    0123456789 ] : i64_ // @lengthOf(
-[ ""a\""b"" // packet A { u8 x, }
-,
-""abc""] : i64_ ,	""" ++ [233]%N ++ runes_of_ascii "t" ++ [233]%N ++ runes_of_ascii """ :int,	3:  lengthOf ,
-""a\""b"" // c
-: len
-} ,
-// @lengthOf(
-//	t
-zchar[ 10  ] metadata
-    @lengthOf(options1
-) `line1
-line2` , char[] body@calculatedFrom( ""abc""
-    )
-`two words` , }
-, @lengthOf(matchKey ) string i64_
-@lengthOf( Pad )`doc` ,@tag(0)
-    repeat int { uint64 u128 `doc` ,	},	@leftPad	(' '
-) zchar[
-    //x
-    7 ] chars @lengthOf( matchKey
-// `tick` ""quote"" 'q'
-// @lengthOf(
-)
-, } // trailing space ")).
-Eval vm_compute in ("<<<M1650>>>" ++ check (runes_of_ascii "  MetaData u
-    // packet A { u8 x, }
-    {int pack `u8 x,` , } packet tag{
-    @tag(
-    65535 )
-    len @calculatedFrom( """"
-    ), } MetaData
-    Foo {
-zchar[
-    1
-] Logon
-,_x leftPad , u
-    roots , }
-")).
-Eval vm_compute in ("<<<M1682>>>" ++ check (runes_of_ascii "MetaData /// triple
-crc { zchar[42
-    ]
-// c
-//	t
-u8x , int64 roots `line1
-line2` ,u16 falsey `// not a comment` // trailing space 
-, char[]// trailing space 
-tag,}
-")).
-Eval vm_compute in ("<<<M1714>>>" ++ check (runes_of_ascii "packet	uint8x {
-    @lengthOf(  x_y_z )
-repeat int32 lengthOf	`u8 x,` ,
-    repeat int	,repeat f32 uint8x`{ , }` , o
-{ match A
-    as roots{ ""a\\""
-    : packetx, } , zchar[ 42 ]packetx
-    //x
-    @calculatedFrom( ""abc"" )
-,} , repeat uint8	options1
-    ,
-    @rightPad(  '0' // " ++ [27880; 37322]%N ++ runes_of_ascii "
-) match calculatedFrom as
-// " ++ [128512]%N ++ runes_of_ascii " emoji
-/// triple
-x { 65535
-    : uint8x , 4294967296 :i64_
-    //x
-    ,// a // b
-}	, match len as
-_x{ """ ++ [233]%N ++ runes_of_ascii "t" ++ [233]%N ++ runes_of_ascii """ : lengthOf, 3
-/// triple
-/// triple
-: zchar// a // b
-,	}
-    /// triple
-    , @tag( 0123456789 )@tag(
-4294967296
-) @leftPad (
-    '\x00' ) match calculatedFrom as x {""" ++ [128512]%N ++ runes_of_ascii """ : matchKey, ""it's"" :
-metadata
-[ //
-1 // @lengthOf(
-,
-""" ++ [128512]%N ++ runes_of_ascii """ ] :
-tag
-    ,3 :
-i64_ 3: u , } , repeat
-string_
-{	o@lengthOf(
-    MetaDataX
-) , i8i8
-    , repeat Packet
-,	_x @lengthOf( o) // `tick` ""quote"" 'q'
-, },
-    // `tick` ""quote"" 'q'
-    } root
-packet body {
-char[] calculatedFrom ,	@rightPad ( ' ') match Logon	as T	{ [
-    // packet A { u8 x, }
-    ""1"",
-""a\""b""
-    ,
-// a // b
-// a // b
-""{,}"", 10,""1"" , """ ++ [128512]%N ++ runes_of_ascii """ // packet A { u8 x, }
-] : metadata
-,// @lengthOf(
-""it's""
-: // c
-u } , match
-packetx as
-    roots { // `tick` ""quote"" 'q'
-0123456789 :T
-    , } , @calculatedFrom(	""x y"" // " ++ [128512]%N ++ runes_of_ascii " emoji
-) i64_ { char[] trueish , char[65535] BodyLength @calculatedFrom(
-""" ++ [233]%N ++ runes_of_ascii "t" ++ [233]%N ++ runes_of_ascii """ ), } , repeat u8 tag , }root packet BodyLength {
-    //
-    chars , @lengthOf( Foo) int32 u8x, string trueish `u8 x,`
-, i64 options1 , }
-")).
-Eval vm_compute in ("<<<T1714>>>" ++ terms [mkTok 35 "packet" 1 0 false; mkTok 42 "uint8x" 1 7 false; mkTok 2 "{" 1 14 false; mkTok 7 "@lengthOf(" 2 4 false; mkTok 42 "x_y_z" 2 16 false; mkTok 6 ")" 2 22 false; mkTok 36 "repeat" 3 0 false; mkTok 26 "int32" 3 7 false; mkTok 42 "lengthOf" 3 13 false; mkTok 43 "`u8 x,`" 3 22 false; mkTok 40 "," 3 30 false; mkTok 36 "repeat" 4 4 false; mkTok 42 "int" 4 11 false; mkTok 40 "," 4 15 false; mkTok 36 "repeat" 4 16 false; mkTok 28 "f32" 4 23 false; mkTok 42 "uint8x" 4 27 false; mkTok 43 "`{ , }`" 4 33 false; mkTok 40 "," 4 41 false; mkTok 42 "o" 4 43 false; mkTok 2 "{" 5 0 false; mkTok 38 "match" 5 2 false; mkTok 42 "A" 5 8 false; mkTok 17 "as" 6 4 false; mkTok 42 "roots" 6 7 false; mkTok 2 "{" 6 12 false; mkTok 31 """a\\""" 6 14 false; mkTok 39 ":" 7 4 false; mkTok 42 "packetx" 7 6 false; mkTok 40 "," 7 13 false; mkTok 3 "}" 7 15 false; mkTok 40 "," 7 17 false; mkTok 14 "zchar[" 7 19 false; mkTok 30 "42" 7 26 false; mkTok 13 "]" 7 29 false; mkTok 42 "packetx" 7 30 false; mkTok 44 "//x" 8 4 true; mkTok 5 "@calculatedFrom(" 9 4 false; mkTok 31 """abc""" 9 21 false; mkTok 6 ")" 9 27 false; mkTok 40 "," 10 0 false; mkTok 3 "}" 10 1 false; mkTok 40 "," 10 3 false; mkTok 36 "repeat" 10 5 false; mkTok 20 "uint8" 10 12 false; mkTok 42 "options1" 10 18 false; mkTok 40 "," 11 4 false; mkTok 32 "@rightPad" 12 4 false; mkTok 8 "(" 12 13 false; mkTok 33 "'0'" 12 16 false; mkTok 44 (string_of_bytes [47; 47; 32; 230; 179; 168; 233; 135; 138]%N) 12 20 true; mkTok 6 ")" 13 0 false; mkTok 38 "match" 13 2 false; mkTok 42 "calculatedFrom" 13 8 false; mkTok 17 "as" 13 23 false; mkTok 44 (string_of_bytes [47; 47; 32; 240; 159; 152; 128; 32; 101; 109; 111; 106; 105]%N) 14 0 true; mkTok 44 "/// triple" 15 0 true; mkTok 42 "x" 16 0 false; mkTok 2 "{" 16 2 false; mkTok 30 "65535" 16 4 false; mkTok 39 ":" 17 4 false; mkTok 42 "uint8x" 17 6 false; mkTok 40 "," 17 13 false; mkTok 30 "4294967296" 17 15 false; mkTok 39 ":" 17 26 false; mkTok 42 "i64_" 17 27 false; mkTok 44 "//x" 18 4 true; mkTok 40 "," 19 4 false; mkTok 44 "// a // b" 19 5 true; mkTok 3 "}" 20 0 false; mkTok 40 "," 20 2 false; mkTok 38 "match" 20 4 false; mkTok 42 "len" 20 10 false; mkTok 17 "as" 20 14 false; mkTok 42 "_x" 21 0 false; mkTok 2 "{" 21 2 false; mkTok 31 (string_of_bytes [34; 195; 169; 116; 195; 169; 34]%N) 21 4 false; mkTok 39 ":" 21 10 false; mkTok 42 "lengthOf" 21 12 false; mkTok 40 "," 21 20 false; mkTok 30 "3" 21 22 false; mkTok 44 "/// triple" 22 0 true; mkTok 44 "/// triple" 23 0 true; mkTok 39 ":" 24 0 false; mkTok 42 "zchar" 24 2 false; mkTok 44 "// a // b" 24 7 true; mkTok 40 "," 25 0 false; mkTok 3 "}" 25 2 false; mkTok 44 "/// triple" 26 4 true; mkTok 40 "," 27 4 false; mkTok 9 "@tag(" 27 6 false; mkTok 30 "0123456789" 27 12 false; mkTok 6 ")" 27 23 false; mkTok 9 "@tag(" 27 24 false; mkTok 30 "4294967296" 28 0 false; mkTok 6 ")" 29 0 false; mkTok 32 "@leftPad" 29 2 false; mkTok 8 "(" 29 11 false; mkTok 33 "'\x00'" 30 4 false; mkTok 6 ")" 30 11 false; mkTok 38 "match" 30 13 false; mkTok 42 "calculatedFrom" 30 19 false; mkTok 17 "as" 30 34 false; mkTok 42 "x" 30 37 false; mkTok 2 "{" 30 39 false; mkTok 31 (string_of_bytes [34; 240; 159; 152; 128; 34]%N) 30 40 false; mkTok 39 ":" 30 44 false; mkTok 42 "matchKey" 30 46 false; mkTok 40 "," 30 54 false; mkTok 31 """it's""" 30 56 false; mkTok 39 ":" 30 63 false; mkTok 42 "metadata" 31 0 false; mkTok 18 "[" 32 0 false; mkTok 44 "//" 32 2 true; mkTok 30 "1" 33 0 false; mkTok 44 "// @lengthOf(" 33 2 true; mkTok 40 "," 34 0 false; mkTok 31 (string_of_bytes [34; 240; 159; 152; 128; 34]%N) 35 0 false; mkTok 13 "]" 35 4 false; mkTok 39 ":" 35 6 false; mkTok 42 "tag" 36 0 false; mkTok 40 "," 37 4 false; mkTok 30 "3" 37 5 false; mkTok 39 ":" 37 7 false; mkTok 42 "i64_" 38 0 false; mkTok 30 "3" 38 5 false; mkTok 39 ":" 38 6 false; mkTok 42 "u" 38 8 false; mkTok 40 "," 38 10 false; mkTok 3 "}" 38 12 false; mkTok 40 "," 38 14 false; mkTok 36 "repeat" 38 16 false; mkTok 42 "string_" 39 0 false; mkTok 2 "{" 40 0 false; mkTok 42 "o" 40 2 false; mkTok 7 "@lengthOf(" 40 3 false; mkTok 42 "MetaDataX" 41 4 false; mkTok 6 ")" 42 0 false; mkTok 40 "," 42 2 false; mkTok 42 "i8i8" 42 4 false; mkTok 40 "," 43 4 false; mkTok 36 "repeat" 43 6 false; mkTok 42 "Packet" 43 13 false; mkTok 40 "," 44 0 false; mkTok 42 "_x" 44 2 false; mkTok 7 "@lengthOf(" 44 5 false; mkTok 42 "o" 44 16 false; mkTok 6 ")" 44 17 false; mkTok 44 "// `tick` ""quote"" 'q'" 44 19 true; mkTok 40 "," 45 0 false; mkTok 3 "}" 45 2 false; mkTok 40 "," 45 3 false; mkTok 44 "// `tick` ""quote"" 'q'" 46 4 true; mkTok 3 "}" 47 4 false; mkTok 34 "root" 47 6 false; mkTok 35 "packet" 48 0 false; mkTok 42 "body" 48 7 false; mkTok 2 "{" 48 12 false; mkTok 16 "char[]" 49 0 false; mkTok 42 "calculatedFrom" 49 7 false; mkTok 40 "," 49 22 false; mkTok 32 "@rightPad" 49 24 false; mkTok 8 "(" 49 34 false; mkTok 33 "' '" 49 36 false; mkTok 6 ")" 49 39 false; mkTok 38 "match" 49 41 false; mkTok 42 "Logon" 49 47 false; mkTok 17 "as" 49 53 false; mkTok 42 "T" 49 56 false; mkTok 2 "{" 49 58 false; mkTok 18 "[" 49 60 false; mkTok 44 "// packet A { u8 x, }" 50 4 true; mkTok 31 """1""" 51 4 false; mkTok 40 "," 51 7 false; mkTok 31 """a\""b""" 52 0 false; mkTok 40 "," 53 4 false; mkTok 44 "// a // b" 54 0 true; mkTok 44 "// a // b" 55 0 true; mkTok 31 """{,}""" 56 0 false; mkTok 40 "," 56 5 false; mkTok 30 "10" 56 7 false; mkTok 40 "," 56 9 false; mkTok 31 """1""" 56 10 false; mkTok 40 "," 56 14 false; mkTok 31 (string_of_bytes [34; 240; 159; 152; 128; 34]%N) 56 16 false; mkTok 44 "// packet A { u8 x, }" 56 20 true; mkTok 13 "]" 57 0 false; mkTok 39 ":" 57 2 false; mkTok 42 "metadata" 57 4 false; mkTok 40 "," 58 0 false; mkTok 44 "// @lengthOf(" 58 1 true; mkTok 31 """it's""" 59 0 false; mkTok 39 ":" 60 0 false; mkTok 44 "// c" 60 2 true; mkTok 42 "u" 61 0 false; mkTok 3 "}" 61 2 false; mkTok 40 "," 61 4 false; mkTok 38 "match" 61 6 false; mkTok 42 "packetx" 62 0 false; mkTok 17 "as" 62 8 false; mkTok 42 "roots" 63 4 false; mkTok 2 "{" 63 10 false; mkTok 44 "// `tick` ""quote"" 'q'" 63 12 true; mkTok 30 "0123456789" 64 0 false; mkTok 39 ":" 64 11 false; mkTok 42 "T" 64 12 false; mkTok 40 "," 65 4 false; mkTok 3 "}" 65 6 false; mkTok 40 "," 65 8 false; mkTok 5 "@calculatedFrom(" 65 10 false; mkTok 31 """x y""" 65 27 false; mkTok 44 (string_of_bytes [47; 47; 32; 240; 159; 152; 128; 32; 101; 109; 111; 106; 105]%N) 65 33 true; mkTok 6 ")" 66 0 false; mkTok 42 "i64_" 66 2 false; mkTok 2 "{" 66 7 false; mkTok 16 "char[]" 66 9 false; mkTok 42 "trueish" 66 16 false; mkTok 40 "," 66 24 false; mkTok 12 "char[" 66 26 false; mkTok 30 "65535" 66 31 false; mkTok 13 "]" 66 36 false; mkTok 42 "BodyLength" 66 38 false; mkTok 5 "@calculatedFrom(" 66 49 false; mkTok 31 (string_of_bytes [34; 195; 169; 116; 195; 169; 34]%N) 67 0 false; mkTok 6 ")" 67 6 false; mkTok 40 "," 67 7 false; mkTok 3 "}" 67 9 false; mkTok 40 "," 67 11 false; mkTok 36 "repeat" 67 13 false; mkTok 20 "u8" 67 20 false; mkTok 42 "tag" 67 23 false; mkTok 40 "," 67 27 false; mkTok 3 "}" 67 29 false; mkTok 34 "root" 67 30 false; mkTok 35 "packet" 67 35 false; mkTok 42 "BodyLength" 67 42 false; mkTok 2 "{" 67 53 false; mkTok 44 "//" 68 4 true; mkTok 42 "chars" 69 4 false; mkTok 40 "," 69 10 false; mkTok 7 "@lengthOf(" 69 12 false; mkTok 42 "Foo" 69 23 false; mkTok 6 ")" 69 26 false; mkTok 26 "int32" 69 28 false; mkTok 42 "u8x" 69 34 false; mkTok 40 "," 69 37 false; mkTok 15 "string" 69 39 false; mkTok 42 "trueish" 69 46 false; mkTok 43 "`u8 x,`" 69 54 false; mkTok 40 "," 70 0 false; mkTok 27 "i64" 70 2 false; mkTok 42 "options1" 70 6 false; mkTok 40 "," 70 15 false; mkTok 3 "}" 70 17 false; mkTok 0 "<EOF>" 71 0 false] (mkPacket (mkPtok 35 "packet" 1 0 0) (Some (mkPtok 3 "}" 70 17 253)) [(DPacket (mkPacketDef (mkSpan (mkPtok 35 "packet" 1 0 0) (mkPtok 3 "}" 47 4 153)) None (mkPtok 35 "packet" 1 0 0) (mkPtok 42 "uint8x" 1 7 1) (mkPtok 2 "{" 1 14 2) [(mkFieldWithAttr (mkSpan (mkPtok 7 "@lengthOf(" 2 4 3) (mkPtok 40 "," 3 30 10)) [(FALengthOf (mkSpan (mkPtok 7 "@lengthOf(" 2 4 3) (mkPtok 6 ")" 2 22 5)) (mkLengthOf (mkSpan (mkPtok 7 "@lengthOf(" 2 4 3) (mkPtok 6 ")" 2 22 5)) (mkPtok 7 "@lengthOf(" 2 4 3) (mkPtok 42 "x_y_z" 2 16 4) (mkPtok 6 ")" 2 22 5)))] (MetaField (mkSpan (mkPtok 36 "repeat" 3 0 6) (mkPtok 40 "," 3 30 10)) (Some (mkPtok 36 "repeat" 3 0 6)) (mkMetaDecl (mkSpan (mkPtok 26 "int32" 3 7 7) (mkPtok 40 "," 3 30 10)) (TyBasic (mkSpan (mkPtok 26 "int32" 3 7 7) (mkPtok 26 "int32" 3 7 7)) (mkBasicType (mkSpan (mkPtok 26 "int32" 3 7 7) (mkPtok 26 "int32" 3 7 7)) (mkPtok 26 "int32" 3 7 7))) (mkPtok 42 "lengthOf" 3 13 8) (Some (mkPtok 43 "`u8 x,`" 3 22 9)) (mkPtok 40 "," 3 30 10)))); (mkFieldWithAttr (mkSpan (mkPtok 36 "repeat" 4 4 11) (mkPtok 40 "," 4 15 13)) [] (ObjectField (mkSpan (mkPtok 36 "repeat" 4 4 11) (mkPtok 40 "," 4 15 13)) (Some (mkPtok 36 "repeat" 4 4 11)) (mkPtok 42 "int" 4 11 12) None None (mkPtok 40 "," 4 15 13))); (mkFieldWithAttr (mkSpan (mkPtok 36 "repeat" 4 16 14) (mkPtok 40 "," 4 41 18)) [] (MetaField (mkSpan (mkPtok 36 "repeat" 4 16 14) (mkPtok 40 "," 4 41 18)) (Some (mkPtok 36 "repeat" 4 16 14)) (mkMetaDecl (mkSpan (mkPtok 28 "f32" 4 23 15) (mkPtok 40 "," 4 41 18)) (TyBasic (mkSpan (mkPtok 28 "f32" 4 23 15) (mkPtok 28 "f32" 4 23 15)) (mkBasicType (mkSpan (mkPtok 28 "f32" 4 23 15) (mkPtok 28 "f32" 4 23 15)) (mkPtok 28 "f32" 4 23 15))) (mkPtok 42 "uint8x" 4 27 16) (Some (mkPtok 43 "`{ , }`" 4 33 17)) (mkPtok 40 "," 4 41 18)))); (mkFieldWithAttr (mkSpan (mkPtok 42 "o" 4 43 19) (mkPtok 40 "," 10 3 42)) [] (InerObjectField (mkSpan (mkPtok 42 "o" 4 43 19) (mkPtok 40 "," 10 3 42)) None (InerObjectDecl (mkSpan (mkPtok 42 "o" 4 43 19) (mkPtok 3 "}" 10 1 41)) (mkPtok 42 "o" 4 43 19) (mkPtok 2 "{" 5 0 20) [(MatchField (mkSpan (mkPtok 38 "match" 5 2 21) (mkPtok 40 "," 7 17 31)) (mkMatchFieldDecl (mkSpan (mkPtok 38 "match" 5 2 21) (mkPtok 3 "}" 7 15 30)) (mkPtok 38 "match" 5 2 21) (mkPtok 42 "A" 5 8 22) (mkPtok 17 "as" 6 4 23) (mkPtok 42 "roots" 6 7 24) (mkPtok 2 "{" 6 12 25) [(mkMatchPair (mkSpan (mkPtok 31 """a\\""" 6 14 26) (mkPtok 40 "," 7 13 29)) (MKString (mkPtok 31 """a\\""" 6 14 26)) (mkPtok 39 ":" 7 4 27) (mkPtok 42 "packetx" 7 6 28) (Some (mkPtok 40 "," 7 13 29)))] (mkPtok 3 "}" 7 15 30)) (mkPtok 40 "," 7 17 31)); (CheckSumField (mkSpan (mkPtok 14 "zchar[" 7 19 32) (mkPtok 40 "," 10 0 40)) (mkChecksumFieldDecl (mkSpan (mkPtok 14 "zchar[" 7 19 32) (mkPtok 40 "," 10 0 40)) (Some (TyFixed (mkSpan (mkPtok 14 "zchar[" 7 19 32) (mkPtok 13 "]" 7 29 34)) (mkFixedString (mkSpan (mkPtok 14 "zchar[" 7 19 32) (mkPtok 13 "]" 7 29 34)) (mkPtok 14 "zchar[" 7 19 32) (mkPtok 30 "42" 7 26 33) (mkPtok 13 "]" 7 29 34)))) (mkPtok 42 "packetx" 7 30 35) (mkCalculatedFrom (mkSpan (mkPtok 5 "@calculatedFrom(" 9 4 37) (mkPtok 6 ")" 9 27 39)) (mkPtok 5 "@calculatedFrom(" 9 4 37) (mkPtok 31 """abc""" 9 21 38) (mkPtok 6 ")" 9 27 39)) None (mkPtok 40 "," 10 0 40)))] (mkPtok 3 "}" 10 1 41)) (mkPtok 40 "," 10 3 42))); (mkFieldWithAttr (mkSpan (mkPtok 36 "repeat" 10 5 43) (mkPtok 40 "," 11 4 46)) [] (MetaField (mkSpan (mkPtok 36 "repeat" 10 5 43) (mkPtok 40 "," 11 4 46)) (Some (mkPtok 36 "repeat" 10 5 43)) (mkMetaDecl (mkSpan (mkPtok 20 "uint8" 10 12 44) (mkPtok 40 "," 11 4 46)) (TyBasic (mkSpan (mkPtok 20 "uint8" 10 12 44) (mkPtok 20 "uint8" 10 12 44)) (mkBasicType (mkSpan (mkPtok 20 "uint8" 10 12 44) (mkPtok 20 "uint8" 10 12 44)) (mkPtok 20 "uint8" 10 12 44))) (mkPtok 42 "options1" 10 18 45) None (mkPtok 40 "," 11 4 46)))); (mkFieldWithAttr (mkSpan (mkPtok 32 "@rightPad" 12 4 47) (mkPtok 40 "," 20 2 70)) [(FAPadding (mkSpan (mkPtok 32 "@rightPad" 12 4 47) (mkPtok 6 ")" 13 0 51)) (mkPaddingAttr (mkSpan (mkPtok 32 "@rightPad" 12 4 47) (mkPtok 6 ")" 13 0 51)) (mkPtok 32 "@rightPad" 12 4 47) (mkPtok 8 "(" 12 13 48) (Some (mkPtok 33 "'0'" 12 16 49)) (mkPtok 6 ")" 13 0 51)))] (MatchField (mkSpan (mkPtok 38 "match" 13 2 52) (mkPtok 40 "," 20 2 70)) (mkMatchFieldDecl (mkSpan (mkPtok 38 "match" 13 2 52) (mkPtok 3 "}" 20 0 69)) (mkPtok 38 "match" 13 2 52) (mkPtok 42 "calculatedFrom" 13 8 53) (mkPtok 17 "as" 13 23 54) (mkPtok 42 "x" 16 0 57) (mkPtok 2 "{" 16 2 58) [(mkMatchPair (mkSpan (mkPtok 30 "65535" 16 4 59) (mkPtok 40 "," 17 13 62)) (MKDigits (mkPtok 30 "65535" 16 4 59)) (mkPtok 39 ":" 17 4 60) (mkPtok 42 "uint8x" 17 6 61) (Some (mkPtok 40 "," 17 13 62))); (mkMatchPair (mkSpan (mkPtok 30 "4294967296" 17 15 63) (mkPtok 40 "," 19 4 67)) (MKDigits (mkPtok 30 "4294967296" 17 15 63)) (mkPtok 39 ":" 17 26 64) (mkPtok 42 "i64_" 17 27 65) (Some (mkPtok 40 "," 19 4 67)))] (mkPtok 3 "}" 20 0 69)) (mkPtok 40 "," 20 2 70))); (mkFieldWithAttr (mkSpan (mkPtok 38 "match" 20 4 71) (mkPtok 40 "," 27 4 89)) [] (MatchField (mkSpan (mkPtok 38 "match" 20 4 71) (mkPtok 40 "," 27 4 89)) (mkMatchFieldDecl (mkSpan (mkPtok 38 "match" 20 4 71) (mkPtok 3 "}" 25 2 87)) (mkPtok 38 "match" 20 4 71) (mkPtok 42 "len" 20 10 72) (mkPtok 17 "as" 20 14 73) (mkPtok 42 "_x" 21 0 74) (mkPtok 2 "{" 21 2 75) [(mkMatchPair (mkSpan (mkPtok 31 (string_of_bytes [34; 195; 169; 116; 195; 169; 34]%N) 21 4 76) (mkPtok 40 "," 21 20 79)) (MKString (mkPtok 31 (string_of_bytes [34; 195; 169; 116; 195; 169; 34]%N) 21 4 76)) (mkPtok 39 ":" 21 10 77) (mkPtok 42 "lengthOf" 21 12 78) (Some (mkPtok 40 "," 21 20 79))); (mkMatchPair (mkSpan (mkPtok 30 "3" 21 22 80) (mkPtok 40 "," 25 0 86)) (MKDigits (mkPtok 30 "3" 21 22 80)) (mkPtok 39 ":" 24 0 83) (mkPtok 42 "zchar" 24 2 84) (Some (mkPtok 40 "," 25 0 86)))] (mkPtok 3 "}" 25 2 87)) (mkPtok 40 "," 27 4 89))); (mkFieldWithAttr (mkSpan (mkPtok 9 "@tag(" 27 6 90) (mkPtok 40 "," 38 14 130)) [(FATag (mkSpan (mkPtok 9 "@tag(" 27 6 90) (mkPtok 6 ")" 27 23 92)) (mkTagAttr (mkSpan (mkPtok 9 "@tag(" 27 6 90) (mkPtok 6 ")" 27 23 92)) (mkPtok 9 "@tag(" 27 6 90) (mkPtok 30 "0123456789" 27 12 91) (mkPtok 6 ")" 27 23 92))); (FATag (mkSpan (mkPtok 9 "@tag(" 27 24 93) (mkPtok 6 ")" 29 0 95)) (mkTagAttr (mkSpan (mkPtok 9 "@tag(" 27 24 93) (mkPtok 6 ")" 29 0 95)) (mkPtok 9 "@tag(" 27 24 93) (mkPtok 30 "4294967296" 28 0 94) (mkPtok 6 ")" 29 0 95))); (FAPadding (mkSpan (mkPtok 32 "@leftPad" 29 2 96) (mkPtok 6 ")" 30 11 99)) (mkPaddingAttr (mkSpan (mkPtok 32 "@leftPad" 29 2 96) (mkPtok 6 ")" 30 11 99)) (mkPtok 32 "@leftPad" 29 2 96) (mkPtok 8 "(" 29 11 97) (Some (mkPtok 33 "'\x00'" 30 4 98)) (mkPtok 6 ")" 30 11 99)))] (MatchField (mkSpan (mkPtok 38 "match" 30 13 100) (mkPtok 40 "," 38 14 130)) (mkMatchFieldDecl (mkSpan (mkPtok 38 "match" 30 13 100) (mkPtok 3 "}" 38 12 129)) (mkPtok 38 "match" 30 13 100) (mkPtok 42 "calculatedFrom" 30 19 101) (mkPtok 17 "as" 30 34 102) (mkPtok 42 "x" 30 37 103) (mkPtok 2 "{" 30 39 104) [(mkMatchPair (mkSpan (mkPtok 31 (string_of_bytes [34; 240; 159; 152; 128; 34]%N) 30 40 105) (mkPtok 40 "," 30 54 108)) (MKString (mkPtok 31 (string_of_bytes [34; 240; 159; 152; 128; 34]%N) 30 40 105)) (mkPtok 39 ":" 30 44 106) (mkPtok 42 "matchKey" 30 46 107) (Some (mkPtok 40 "," 30 54 108))); (mkMatchPair (mkSpan (mkPtok 31 """it's""" 30 56 109) (mkPtok 42 "metadata" 31 0 111)) (MKString (mkPtok 31 """it's""" 30 56 109)) (mkPtok 39 ":" 30 63 110) (mkPtok 42 "metadata" 31 0 111) None); (mkMatchPair (mkSpan (mkPtok 18 "[" 32 0 112) (mkPtok 40 "," 37 4 121)) (MKList (mkKeyList (mkSpan (mkPtok 18 "[" 32 0 112) (mkPtok 13 "]" 35 4 118)) (mkPtok 18 "[" 32 0 112) (mkPtok 30 "1" 33 0 114) [((mkPtok 40 "," 34 0 116), (mkPtok 31 (string_of_bytes [34; 240; 159; 152; 128; 34]%N) 35 0 117))] (mkPtok 13 "]" 35 4 118))) (mkPtok 39 ":" 35 6 119) (mkPtok 42 "tag" 36 0 120) (Some (mkPtok 40 "," 37 4 121))); (mkMatchPair (mkSpan (mkPtok 30 "3" 37 5 122) (mkPtok 42 "i64_" 38 0 124)) (MKDigits (mkPtok 30 "3" 37 5 122)) (mkPtok 39 ":" 37 7 123) (mkPtok 42 "i64_" 38 0 124) None); (mkMatchPair (mkSpan (mkPtok 30 "3" 38 5 125) (mkPtok 40 "," 38 10 128)) (MKDigits (mkPtok 30 "3" 38 5 125)) (mkPtok 39 ":" 38 6 126) (mkPtok 42 "u" 38 8 127) (Some (mkPtok 40 "," 38 10 128)))] (mkPtok 3 "}" 38 12 129)) (mkPtok 40 "," 38 14 130))); (mkFieldWithAttr (mkSpan (mkPtok 36 "repeat" 38 16 131) (mkPtok 40 "," 45 3 151)) [] (InerObjectField (mkSpan (mkPtok 36 "repeat" 38 16 131) (mkPtok 40 "," 45 3 151)) (Some (mkPtok 36 "repeat" 38 16 131)) (InerObjectDecl (mkSpan (mkPtok 42 "string_" 39 0 132) (mkPtok 3 "}" 45 2 150)) (mkPtok 42 "string_" 39 0 132) (mkPtok 2 "{" 40 0 133) [(LengthField (mkSpan (mkPtok 42 "o" 40 2 134) (mkPtok 40 "," 42 2 138)) (mkLengthFieldDecl (mkSpan (mkPtok 42 "o" 40 2 134) (mkPtok 40 "," 42 2 138)) None (mkPtok 42 "o" 40 2 134) (mkLengthOf (mkSpan (mkPtok 7 "@lengthOf(" 40 3 135) (mkPtok 6 ")" 42 0 137)) (mkPtok 7 "@lengthOf(" 40 3 135) (mkPtok 42 "MetaDataX" 41 4 136) (mkPtok 6 ")" 42 0 137)) None (mkPtok 40 "," 42 2 138))); (ObjectField (mkSpan (mkPtok 42 "i8i8" 42 4 139) (mkPtok 40 "," 43 4 140)) None (mkPtok 42 "i8i8" 42 4 139) None None (mkPtok 40 "," 43 4 140)); (ObjectField (mkSpan (mkPtok 36 "repeat" 43 6 141) (mkPtok 40 "," 44 0 143)) (Some (mkPtok 36 "repeat" 43 6 141)) (mkPtok 42 "Packet" 43 13 142) None None (mkPtok 40 "," 44 0 143)); (LengthField (mkSpan (mkPtok 42 "_x" 44 2 144) (mkPtok 40 "," 45 0 149)) (mkLengthFieldDecl (mkSpan (mkPtok 42 "_x" 44 2 144) (mkPtok 40 "," 45 0 149)) None (mkPtok 42 "_x" 44 2 144) (mkLengthOf (mkSpan (mkPtok 7 "@lengthOf(" 44 5 145) (mkPtok 6 ")" 44 17 147)) (mkPtok 7 "@lengthOf(" 44 5 145) (mkPtok 42 "o" 44 16 146) (mkPtok 6 ")" 44 17 147)) None (mkPtok 40 "," 45 0 149)))] (mkPtok 3 "}" 45 2 150)) (mkPtok 40 "," 45 3 151)))] (mkPtok 3 "}" 47 4 153))); (DPacket (mkPacketDef (mkSpan (mkPtok 34 "root" 47 6 154) (mkPtok 3 "}" 67 29 232)) (Some (mkPtok 34 "root" 47 6 154)) (mkPtok 35 "packet" 48 0 155) (mkPtok 42 "body" 48 7 156) (mkPtok 2 "{" 48 12 157) [(mkFieldWithAttr (mkSpan (mkPtok 16 "char[]" 49 0 158) (mkPtok 40 "," 49 22 160)) [] (MetaField (mkSpan (mkPtok 16 "char[]" 49 0 158) (mkPtok 40 "," 49 22 160)) None (mkMetaDecl (mkSpan (mkPtok 16 "char[]" 49 0 158) (mkPtok 40 "," 49 22 160)) (TyDynamic (mkSpan (mkPtok 16 "char[]" 49 0 158) (mkPtok 16 "char[]" 49 0 158)) (mkDynamicString (mkSpan (mkPtok 16 "char[]" 49 0 158) (mkPtok 16 "char[]" 49 0 158)) (mkPtok 16 "char[]" 49 0 158))) (mkPtok 42 "calculatedFrom" 49 7 159) None (mkPtok 40 "," 49 22 160)))); (mkFieldWithAttr (mkSpan (mkPtok 32 "@rightPad" 49 24 161) (mkPtok 40 "," 61 4 196)) [(FAPadding (mkSpan (mkPtok 32 "@rightPad" 49 24 161) (mkPtok 6 ")" 49 39 164)) (mkPaddingAttr (mkSpan (mkPtok 32 "@rightPad" 49 24 161) (mkPtok 6 ")" 49 39 164)) (mkPtok 32 "@rightPad" 49 24 161) (mkPtok 8 "(" 49 34 162) (Some (mkPtok 33 "' '" 49 36 163)) (mkPtok 6 ")" 49 39 164)))] (MatchField (mkSpan (mkPtok 38 "match" 49 41 165) (mkPtok 40 "," 61 4 196)) (mkMatchFieldDecl (mkSpan (mkPtok 38 "match" 49 41 165) (mkPtok 3 "}" 61 2 195)) (mkPtok 38 "match" 49 41 165) (mkPtok 42 "Logon" 49 47 166) (mkPtok 17 "as" 49 53 167) (mkPtok 42 "T" 49 56 168) (mkPtok 2 "{" 49 58 169) [(mkMatchPair (mkSpan (mkPtok 18 "[" 49 60 170) (mkPtok 40 "," 58 0 189)) (MKList (mkKeyList (mkSpan (mkPtok 18 "[" 49 60 170) (mkPtok 13 "]" 57 0 186)) (mkPtok 18 "[" 49 60 170) (mkPtok 31 """1""" 51 4 172) [((mkPtok 40 "," 51 7 173), (mkPtok 31 """a\""b""" 52 0 174)); ((mkPtok 40 "," 53 4 175), (mkPtok 31 """{,}""" 56 0 178)); ((mkPtok 40 "," 56 5 179), (mkPtok 30 "10" 56 7 180)); ((mkPtok 40 "," 56 9 181), (mkPtok 31 """1""" 56 10 182)); ((mkPtok 40 "," 56 14 183), (mkPtok 31 (string_of_bytes [34; 240; 159; 152; 128; 34]%N) 56 16 184))] (mkPtok 13 "]" 57 0 186))) (mkPtok 39 ":" 57 2 187) (mkPtok 42 "metadata" 57 4 188) (Some (mkPtok 40 "," 58 0 189))); (mkMatchPair (mkSpan (mkPtok 31 """it's""" 59 0 191) (mkPtok 42 "u" 61 0 194)) (MKString (mkPtok 31 """it's""" 59 0 191)) (mkPtok 39 ":" 60 0 192) (mkPtok 42 "u" 61 0 194) None)] (mkPtok 3 "}" 61 2 195)) (mkPtok 40 "," 61 4 196))); (mkFieldWithAttr (mkSpan (mkPtok 38 "match" 61 6 197) (mkPtok 40 "," 65 8 208)) [] (MatchField (mkSpan (mkPtok 38 "match" 61 6 197) (mkPtok 40 "," 65 8 208)) (mkMatchFieldDecl (mkSpan (mkPtok 38 "match" 61 6 197) (mkPtok 3 "}" 65 6 207)) (mkPtok 38 "match" 61 6 197) (mkPtok 42 "packetx" 62 0 198) (mkPtok 17 "as" 62 8 199) (mkPtok 42 "roots" 63 4 200) (mkPtok 2 "{" 63 10 201) [(mkMatchPair (mkSpan (mkPtok 30 "0123456789" 64 0 203) (mkPtok 40 "," 65 4 206)) (MKDigits (mkPtok 30 "0123456789" 64 0 203)) (mkPtok 39 ":" 64 11 204) (mkPtok 42 "T" 64 12 205) (Some (mkPtok 40 "," 65 4 206)))] (mkPtok 3 "}" 65 6 207)) (mkPtok 40 "," 65 8 208))); (mkFieldWithAttr (mkSpan (mkPtok 5 "@calculatedFrom(" 65 10 209) (mkPtok 40 "," 67 11 227)) [(FACalculatedFrom (mkSpan (mkPtok 5 "@calculatedFrom(" 65 10 209) (mkPtok 6 ")" 66 0 212)) (mkCalculatedFrom (mkSpan (mkPtok 5 "@calculatedFrom(" 65 10 209) (mkPtok 6 ")" 66 0 212)) (mkPtok 5 "@calculatedFrom(" 65 10 209) (mkPtok 31 """x y""" 65 27 210) (mkPtok 6 ")" 66 0 212)))] (InerObjectField (mkSpan (mkPtok 42 "i64_" 66 2 213) (mkPtok 40 "," 67 11 227)) None (InerObjectDecl (mkSpan (mkPtok 42 "i64_" 66 2 213) (mkPtok 3 "}" 67 9 226)) (mkPtok 42 "i64_" 66 2 213) (mkPtok 2 "{" 66 7 214) [(MetaField (mkSpan (mkPtok 16 "char[]" 66 9 215) (mkPtok 40 "," 66 24 217)) None (mkMetaDecl (mkSpan (mkPtok 16 "char[]" 66 9 215) (mkPtok 40 "," 66 24 217)) (TyDynamic (mkSpan (mkPtok 16 "char[]" 66 9 215) (mkPtok 16 "char[]" 66 9 215)) (mkDynamicString (mkSpan (mkPtok 16 "char[]" 66 9 215) (mkPtok 16 "char[]" 66 9 215)) (mkPtok 16 "char[]" 66 9 215))) (mkPtok 42 "trueish" 66 16 216) None (mkPtok 40 "," 66 24 217))); (CheckSumField (mkSpan (mkPtok 12 "char[" 66 26 218) (mkPtok 40 "," 67 7 225)) (mkChecksumFieldDecl (mkSpan (mkPtok 12 "char[" 66 26 218) (mkPtok 40 "," 67 7 225)) (Some (TyFixed (mkSpan (mkPtok 12 "char[" 66 26 218) (mkPtok 13 "]" 66 36 220)) (mkFixedString (mkSpan (mkPtok 12 "char[" 66 26 218) (mkPtok 13 "]" 66 36 220)) (mkPtok 12 "char[" 66 26 218) (mkPtok 30 "65535" 66 31 219) (mkPtok 13 "]" 66 36 220)))) (mkPtok 42 "BodyLength" 66 38 221) (mkCalculatedFrom (mkSpan (mkPtok 5 "@calculatedFrom(" 66 49 222) (mkPtok 6 ")" 67 6 224)) (mkPtok 5 "@calculatedFrom(" 66 49 222) (mkPtok 31 (string_of_bytes [34; 195; 169; 116; 195; 169; 34]%N) 67 0 223) (mkPtok 6 ")" 67 6 224)) None (mkPtok 40 "," 67 7 225)))] (mkPtok 3 "}" 67 9 226)) (mkPtok 40 "," 67 11 227))); (mkFieldWithAttr (mkSpan (mkPtok 36 "repeat" 67 13 228) (mkPtok 40 "," 67 27 231)) [] (MetaField (mkSpan (mkPtok 36 "repeat" 67 13 228) (mkPtok 40 "," 67 27 231)) (Some (mkPtok 36 "repeat" 67 13 228)) (mkMetaDecl (mkSpan (mkPtok 20 "u8" 67 20 229) (mkPtok 40 "," 67 27 231)) (TyBasic (mkSpan (mkPtok 20 "u8" 67 20 229) (mkPtok 20 "u8" 67 20 229)) (mkBasicType (mkSpan (mkPtok 20 "u8" 67 20 229) (mkPtok 20 "u8" 67 20 229)) (mkPtok 20 "u8" 67 20 229))) (mkPtok 42 "tag" 67 23 230) None (mkPtok 40 "," 67 27 231))))] (mkPtok 3 "}" 67 29 232))); (DPacket (mkPacketDef (mkSpan (mkPtok 34 "root" 67 30 233) (mkPtok 3 "}" 70 17 253)) (Some (mkPtok 34 "root" 67 30 233)) (mkPtok 35 "packet" 67 35 234) (mkPtok 42 "BodyLength" 67 42 235) (mkPtok 2 "{" 67 53 236) [(mkFieldWithAttr (mkSpan (mkPtok 42 "chars" 69 4 238) (mkPtok 40 "," 69 10 239)) [] (ObjectField (mkSpan (mkPtok 42 "chars" 69 4 238) (mkPtok 40 "," 69 10 239)) None (mkPtok 42 "chars" 69 4 238) None None (mkPtok 40 "," 69 10 239))); (mkFieldWithAttr (mkSpan (mkPtok 7 "@lengthOf(" 69 12 240) (mkPtok 40 "," 69 37 245)) [(FALengthOf (mkSpan (mkPtok 7 "@lengthOf(" 69 12 240) (mkPtok 6 ")" 69 26 242)) (mkLengthOf (mkSpan (mkPtok 7 "@lengthOf(" 69 12 240) (mkPtok 6 ")" 69 26 242)) (mkPtok 7 "@lengthOf(" 69 12 240) (mkPtok 42 "Foo" 69 23 241) (mkPtok 6 ")" 69 26 242)))] (MetaField (mkSpan (mkPtok 26 "int32" 69 28 243) (mkPtok 40 "," 69 37 245)) None (mkMetaDecl (mkSpan (mkPtok 26 "int32" 69 28 243) (mkPtok 40 "," 69 37 245)) (TyBasic (mkSpan (mkPtok 26 "int32" 69 28 243) (mkPtok 26 "int32" 69 28 243)) (mkBasicType (mkSpan (mkPtok 26 "int32" 69 28 243) (mkPtok 26 "int32" 69 28 243)) (mkPtok 26 "int32" 69 28 243))) (mkPtok 42 "u8x" 69 34 244) None (mkPtok 40 "," 69 37 245)))); (mkFieldWithAttr (mkSpan (mkPtok 15 "string" 69 39 246) (mkPtok 40 "," 70 0 249)) [] (MetaField (mkSpan (mkPtok 15 "string" 69 39 246) (mkPtok 40 "," 70 0 249)) None (mkMetaDecl (mkSpan (mkPtok 15 "string" 69 39 246) (mkPtok 40 "," 70 0 249)) (TyDynamic (mkSpan (mkPtok 15 "string" 69 39 246) (mkPtok 15 "string" 69 39 246)) (mkDynamicString (mkSpan (mkPtok 15 "string" 69 39 246) (mkPtok 15 "string" 69 39 246)) (mkPtok 15 "string" 69 39 246))) (mkPtok 42 "trueish" 69 46 247) (Some (mkPtok 43 "`u8 x,`" 69 54 248)) (mkPtok 40 "," 70 0 249)))); (mkFieldWithAttr (mkSpan (mkPtok 27 "i64" 70 2 250) (mkPtok 40 "," 70 15 252)) [] (MetaField (mkSpan (mkPtok 27 "i64" 70 2 250) (mkPtok 40 "," 70 15 252)) None (mkMetaDecl (mkSpan (mkPtok 27 "i64" 70 2 250) (mkPtok 40 "," 70 15 252)) (TyBasic (mkSpan (mkPtok 27 "i64" 70 2 250) (mkPtok 27 "i64" 70 2 250)) (mkBasicType (mkSpan (mkPtok 27 "i64" 70 2 250) (mkPtok 27 "i64" 70 2 250)) (mkPtok 27 "i64" 70 2 250))) (mkPtok 42 "options1" 70 6 251) None (mkPtok 40 "," 70 15 252))))] (mkPtok 3 "}" 70 17 253)))])).
-Eval vm_compute in ("<<<M1746>>>" ++ check (runes_of_ascii "packet T { zchar
-    // packet A { u8 x, }
-    ,
-@tag(
-7 )
-    @lengthOf(/// triple
-Pad) Z9_ ,
-@rightPad
-    ( ) zchar[ 10 ] asx
-`" ++ [28040; 24687; 31867; 22411]%N ++ runes_of_ascii "`,
-@tag( 007 )
-match i8i8 as BodyLength {//x
-7: float
-    //
-    , 007: A , } , }	packet trueish
-{ @calculatedFrom(""a\""b"")
-// " ++ [27880; 37322]%N ++ runes_of_ascii "
-// packet A { u8 x, }
-Logon{ MetaDataX { x_y_z  tag `" ++ [233]%N ++ runes_of_ascii "`  , match chars
-    as
-    x
-{ 3 : _x
-}, },
-    repeat
-// a // b
-// packet A { u8 x, }
-string
-    BodyLength ,
-char[] o ,zchar[ 007
-// `tick` ""quote"" 'q'
-// trailing space 
-] options1@lengthOf( zchar  ) ,
-}
-// c
-// c
-, }
-//x
-// a // b
-root packet stringy
-{}
-")).
-Eval vm_compute in ("<<<M1778>>>" ++ check (runes_of_ascii "
-packet repeatCount{ A// a // b
-{f64 _x
-    , zchar[ 7 ] calculatedFrom@calculatedFrom( ""it's"" )`a\` , repeat uint8x
-    u
-, } ,repeat
-/// triple
-//
-float32 int
-,u64 x
-@calculatedFrom( """ ++ [28040; 24687]%N ++ runes_of_ascii """ )
-//x
-/// triple
-, @leftPad
-( ' ' ) repeat
-int64
-o	,zchar
+    packet A {
+f64 chars @lengthOf( Z9_
+) ,
 @lengthOf(
-    f32a) ,@leftPad (// " ++ [128512]%N ++ runes_of_ascii " emoji
-)zchar
-{ repeat u  {
-repeat
-    // a // b
-    i64	T// `tick` ""quote"" 'q'
-,
-leftPad{
-    // " ++ [128512]%N ++ runes_of_ascii " emoji
-    _x
-@calculatedFrom( ""a\\"") , repeat string uint8x
-,	u64 u`" ++ [28040; 24687; 31867; 22411]%N ++ runes_of_ascii "` , }  , char[ 0123456789] options1  , As As `
-` ,
-} , u16
-i8i8	`line1
-line2`
-,
-} , @lengthOf(
-T )// c
-char[]
-    Logon@lengthOf( leftPad  ) ,
-repeat lengthOf chars
-,match MetaDataX as	crc{ 3 : pack
-    ,""CRC32""
-: x , }
-,}
-")).
-Eval vm_compute in ("<<<M1810>>>" ++ check (runes_of_ascii "root
-    // a // b
-    packet
-int	{ }
-")).
-Eval vm_compute in ("<<<M1842>>>" ++ check (runes_of_ascii "MetaData /// triple
-f32a {chars matchKey, }options
-{  calculatedFrom = ""CRC32""
-; } root packet Pad { f64 roots@lengthOf(calculatedFrom	)
-, // `tick` ""quote"" 'q'
-repeat f32a
-{rootA @lengthOf( tag )`crlf
-line` ,
-    char[]
-MetaDataX @calculatedFrom( """ ++ [128512]%N ++ runes_of_ascii """)
-,
-packetx falsey ,
-}	,
-    match T as Logon{1 :As , } , match
-    charz
-as calculatedFrom
-    {
-    """ ++ [28040; 24687]%N ++ runes_of_ascii """
-    : float ,10 : i8i8 ,// `tick` ""quote"" 'q'
-0: body ,[ """ ++ [128512]%N ++ runes_of_ascii """  ,
-    7 ]
+    repeatCount // `tick` ""quote"" 'q'
+) //
+match falsey as  crc{	7:_x,  } , }
+packet body{
+    @lengthOf( BodyLength ) charz // @lengthOf(
+@calculatedFrom( ""// no comment"" // " ++ [27880; 37322]%N ++ runes_of_ascii "
+) `line1
+line2` ,@calculatedFrom(  ""// no comment"" ) @leftPad ( ' ' ) @lengthOf(// `tick` ""quote"" 'q'
+body)
+options1  @lengthOf( // @lengthOf(
+string_	) `
+`
+// 50% %s
+// " ++ [128512]%N ++ runes_of_ascii " emoji
+,	match _x as
+// " ++ [128512]%N ++ runes_of_ascii " emoji
 // packet A { u8 x, }
+lengthOf { // `tick` ""quote"" 'q'
+""`tick`""
+:
+u8x ,	""abc"" :	o ,
+    // c
+    1 :metadata, [ 3 ] :
+// c
+// @lengthOf(
+uint8x,
+65535 : charz /// triple
+, } , }")).
+Eval vm_compute in ("<<<M818>>>" ++ check (runes_of_ascii "packet a1{@calculatedFrom( """ ++ [128512]%N ++ runes_of_ascii """
+) @calculatedFrom(
+    ""`tick`""
+) // " ++ [128512]%N ++ runes_of_ascii " emoji
+@leftPad ( ) u16 rootA `{ , }` ,
+    char
+    Z9_ `" ++ [233]%N ++ runes_of_ascii "`	, repeat calculatedFrom
+    `` // @lengthOf(
+, // @lengthOf(
+@lengthOf( MetaDataX	)  @calculatedFrom( ""CRC32"") @rightPad(	'\x00'  ) zchar[ 1
+]msg_type`say ""hi""`
+    ,}
 //x
-:len
-,
+")).
+Eval vm_compute in ("<<<T818>>>" ++ terms [mkTok 35 "packet" 1 0 false; mkTok 42 "a1" 1 7 false; mkTok 2 "{" 1 9 false; mkTok 5 "@calculatedFrom(" 1 10 false; mkTok 31 (string_of_bytes [34; 240; 159; 152; 128; 34]%N) 1 27 false; mkTok 6 ")" 2 0 false; mkTok 5 "@calculatedFrom(" 2 2 false; mkTok 31 """`tick`""" 3 4 false; mkTok 6 ")" 4 0 false; mkTok 44 (string_of_bytes [47; 47; 32; 240; 159; 152; 128; 32; 101; 109; 111; 106; 105]%N) 4 2 true; mkTok 32 "@leftPad" 5 0 false; mkTok 8 "(" 5 9 false; mkTok 6 ")" 5 11 false; mkTok 21 "u16" 5 13 false; mkTok 42 "rootA" 5 17 false; mkTok 43 "`{ , }`" 5 23 false; mkTok 40 "," 5 31 false; mkTok 19 "char" 6 4 false; mkTok 42 "Z9_" 7 4 false; mkTok 43 (string_of_bytes [96; 195; 169; 96]%N) 7 8 false; mkTok 40 "," 7 12 false; mkTok 36 "repeat" 7 14 false; mkTok 42 "calculatedFrom" 7 21 false; mkTok 43 "``" 8 4 false; mkTok 44 "// @lengthOf(" 8 7 true; mkTok 40 "," 9 0 false; mkTok 44 "// @lengthOf(" 9 2 true; mkTok 7 "@lengthOf(" 10 0 false; mkTok 42 "MetaDataX" 10 11 false; mkTok 6 ")" 10 21 false; mkTok 5 "@calculatedFrom(" 10 24 false; mkTok 31 """CRC32""" 10 41 false; mkTok 6 ")" 10 48 false; mkTok 32 "@rightPad" 10 50 false; mkTok 8 "(" 10 59 false; mkTok 33 "'\x00'" 10 61 false; mkTok 6 ")" 10 69 false; mkTok 14 "zchar[" 10 71 false; mkTok 30 "1" 10 78 false; mkTok 13 "]" 11 0 false; mkTok 42 "msg_type" 11 1 false; mkTok 43 "`say ""hi""`" 11 9 false; mkTok 40 "," 12 4 false; mkTok 3 "}" 12 5 false; mkTok 44 "//x" 13 0 true; mkTok 0 "<EOF>" 14 0 false] (mkPacket (mkPtok 35 "packet" 1 0 0) (Some (mkPtok 3 "}" 12 5 43)) [(DPacket (mkPacketDef (mkSpan (mkPtok 35 "packet" 1 0 0) (mkPtok 3 "}" 12 5 43)) None (mkPtok 35 "packet" 1 0 0) (mkPtok 42 "a1" 1 7 1) (mkPtok 2 "{" 1 9 2) [(mkFieldWithAttr (mkSpan (mkPtok 5 "@calculatedFrom(" 1 10 3) (mkPtok 40 "," 5 31 16)) [(FACalculatedFrom (mkSpan (mkPtok 5 "@calculatedFrom(" 1 10 3) (mkPtok 6 ")" 2 0 5)) (mkCalculatedFrom (mkSpan (mkPtok 5 "@calculatedFrom(" 1 10 3) (mkPtok 6 ")" 2 0 5)) (mkPtok 5 "@calculatedFrom(" 1 10 3) (mkPtok 31 (string_of_bytes [34; 240; 159; 152; 128; 34]%N) 1 27 4) (mkPtok 6 ")" 2 0 5))); (FACalculatedFrom (mkSpan (mkPtok 5 "@calculatedFrom(" 2 2 6) (mkPtok 6 ")" 4 0 8)) (mkCalculatedFrom (mkSpan (mkPtok 5 "@calculatedFrom(" 2 2 6) (mkPtok 6 ")" 4 0 8)) (mkPtok 5 "@calculatedFrom(" 2 2 6) (mkPtok 31 """`tick`""" 3 4 7) (mkPtok 6 ")" 4 0 8))); (FAPadding (mkSpan (mkPtok 32 "@leftPad" 5 0 10) (mkPtok 6 ")" 5 11 12)) (mkPaddingAttr (mkSpan (mkPtok 32 "@leftPad" 5 0 10) (mkPtok 6 ")" 5 11 12)) (mkPtok 32 "@leftPad" 5 0 10) (mkPtok 8 "(" 5 9 11) None (mkPtok 6 ")" 5 11 12)))] (MetaField (mkSpan (mkPtok 21 "u16" 5 13 13) (mkPtok 40 "," 5 31 16)) None (mkMetaDecl (mkSpan (mkPtok 21 "u16" 5 13 13) (mkPtok 40 "," 5 31 16)) (TyBasic (mkSpan (mkPtok 21 "u16" 5 13 13) (mkPtok 21 "u16" 5 13 13)) (mkBasicType (mkSpan (mkPtok 21 "u16" 5 13 13) (mkPtok 21 "u16" 5 13 13)) (mkPtok 21 "u16" 5 13 13))) (mkPtok 42 "rootA" 5 17 14) (Some (mkPtok 43 "`{ , }`" 5 23 15)) (mkPtok 40 "," 5 31 16)))); (mkFieldWithAttr (mkSpan (mkPtok 19 "char" 6 4 17) (mkPtok 40 "," 7 12 20)) [] (MetaField (mkSpan (mkPtok 19 "char" 6 4 17) (mkPtok 40 "," 7 12 20)) None (mkMetaDecl (mkSpan (mkPtok 19 "char" 6 4 17) (mkPtok 40 "," 7 12 20)) (TyBasic (mkSpan (mkPtok 19 "char" 6 4 17) (mkPtok 19 "char" 6 4 17)) (mkBasicType (mkSpan (mkPtok 19 "char" 6 4 17) (mkPtok 19 "char" 6 4 17)) (mkPtok 19 "char" 6 4 17))) (mkPtok 42 "Z9_" 7 4 18) (Some (mkPtok 43 (string_of_bytes [96; 195; 169; 96]%N) 7 8 19)) (mkPtok 40 "," 7 12 20)))); (mkFieldWithAttr (mkSpan (mkPtok 36 "repeat" 7 14 21) (mkPtok 40 "," 9 0 25)) [] (ObjectField (mkSpan (mkPtok 36 "repeat" 7 14 21) (mkPtok 40 "," 9 0 25)) (Some (mkPtok 36 "repeat" 7 14 21)) (mkPtok 42 "calculatedFrom" 7 21 22) None (Some (mkPtok 43 "``" 8 4 23)) (mkPtok 40 "," 9 0 25))); (mkFieldWithAttr (mkSpan (mkPtok 7 "@lengthOf(" 10 0 27) (mkPtok 40 "," 12 4 42)) [(FALengthOf (mkSpan (mkPtok 7 "@lengthOf(" 10 0 27) (mkPtok 6 ")" 10 21 29)) (mkLengthOf (mkSpan (mkPtok 7 "@lengthOf(" 10 0 27) (mkPtok 6 ")" 10 21 29)) (mkPtok 7 "@lengthOf(" 10 0 27) (mkPtok 42 "MetaDataX" 10 11 28) (mkPtok 6 ")" 10 21 29))); (FACalculatedFrom (mkSpan (mkPtok 5 "@calculatedFrom(" 10 24 30) (mkPtok 6 ")" 10 48 32)) (mkCalculatedFrom (mkSpan (mkPtok 5 "@calculatedFrom(" 10 24 30) (mkPtok 6 ")" 10 48 32)) (mkPtok 5 "@calculatedFrom(" 10 24 30) (mkPtok 31 """CRC32""" 10 41 31) (mkPtok 6 ")" 10 48 32))); (FAPadding (mkSpan (mkPtok 32 "@rightPad" 10 50 33) (mkPtok 6 ")" 10 69 36)) (mkPaddingAttr (mkSpan (mkPtok 32 "@rightPad" 10 50 33) (mkPtok 6 ")" 10 69 36)) (mkPtok 32 "@rightPad" 10 50 33) (mkPtok 8 "(" 10 59 34) (Some (mkPtok 33 "'\x00'" 10 61 35)) (mkPtok 6 ")" 10 69 36)))] (MetaField (mkSpan (mkPtok 14 "zchar[" 10 71 37) (mkPtok 40 "," 12 4 42)) None (mkMetaDecl (mkSpan (mkPtok 14 "zchar[" 10 71 37) (mkPtok 40 "," 12 4 42)) (TyFixed (mkSpan (mkPtok 14 "zchar[" 10 71 37) (mkPtok 13 "]" 11 0 39)) (mkFixedString (mkSpan (mkPtok 14 "zchar[" 10 71 37) (mkPtok 13 "]" 11 0 39)) (mkPtok 14 "zchar[" 10 71 37) (mkPtok 30 "1" 10 78 38) (mkPtok 13 "]" 11 0 39))) (mkPtok 42 "msg_type" 11 1 40) (Some (mkPtok 43 "`say ""hi""`" 11 9 41)) (mkPtok 40 "," 12 4 42))))] (mkPtok 3 "}" 12 5 43)))])).
+Eval vm_compute in ("<<<M850>>>" ++ check (runes_of_ascii "// a // b
+MetaData // " ++ [27880; 37322]%N ++ runes_of_ascii "
+len  { char[ 65535
+]
+    options1, } root
+packet f32a { @leftPad	(
+//	t
+// trailing space 
+)char[
+255 ] u128 //	t
+, zchar[ 42 ] tag
+    @lengthOf( T )
+`a\`
+, int16 Logon
+`{ , }` ,
+    int16
+rootA	,
+@tag(	00)
+char[ 00 ]	packetx @lengthOf( f32a
+    )
     // trailing space 
-    ""a\\""  : int
+    `{ , }`
+    , u8 Logon `it's`
     ,
-""\" ++ [233]%N ++ runes_of_ascii """ // trailing space 
-: o ,}
+    // a // b
+    char[]
+x_y_z @lengthOf(
+    len
+    ) ,
+    @lengthOf( Pad )
+    // " ++ [128512]%N ++ runes_of_ascii " emoji
+    char[] packetx,
+    }
+    // " ++ [128512]%N ++ runes_of_ascii " emoji
+    MetaData repeatCount
+    // a // b
+    { zchar[ 1
+    ]
+stringy, Packet rootA
+// packet A { u8 x, }
+//	t
+,
+A
+Z9_
+// a // b
+// 50% %s
+,
+string	u128 ,// a // b
+}
+
+")).
+Eval vm_compute in ("<<<M882>>>" ++ check (runes_of_ascii "
+options {uint8x = false} root
+packet uint8x { Logon BodyLength , @leftPad (	)
+    float64 msg_type
+    , repeat string
+    Z9_ ,}
+packet
+len	{
+@tag( 1 ) @leftPad
+    //
+    ( '\x00'
+)  @tag( 255
+    ) rootA chars // `tick` ""quote"" 'q'
+`` , }
+")).
+Eval vm_compute in ("<<<M914>>>" ++ check (runes_of_ascii "  packet matchKey {	string leftPad,	options1 A
+    ,@calculatedFrom( """" //	t
+)
+    float { crc `{ , }`,
+    len uint8x
+,
+}
 ,
     }
 ")).
-Eval vm_compute in ("<<<M1874>>>" ++ check (runes_of_ascii "packet repeatCount {o{
-i16 string_  `it's`
-    , match As
-    as stringy {[
-00 ]
-    : lengthOf
-,[ ""// no comment""
-,""it's"" ] // c
-: Z9_ [
-""packet""  , 42 ] : tag	, } ,
-    },
-match Z9_ as packetx { 10 : Logon
-    007	: repeatCount	,//x
-"""" //
-: charz } , @lengthOf(
-    Header ) A
-float
-,@lengthOf(	A ) body leftPad , }options {	int =
-007 ;len =
-'0' u8x = 65535 ; } // c")).
-Eval vm_compute in ("<<<M1906>>>" ++ check (runes_of_ascii "// @lengthOf(
-MetaData x_y_z {
-    f64
+Eval vm_compute in ("<<<M946>>>" ++ check (runes_of_ascii "packet chars	{}
+    packet leftPad {
+    // `tick` ""quote"" 'q'
+    @tag(3 )
+    // packet A { u8 x, }
+    As @calculatedFrom( ""abc"" ) /// triple
+, //x
+repeat//
+string
+rootA // a // b
+,
+repeat	char[] falsey
     // c
-    calculatedFrom ,	u64
-    Foo
-,
-float64 len, Packet u8x, // trailing space 
-} packet Pad {  char[
-42 ]
-    body @calculatedFrom(	""{,}"")
-    , @lengthOf(
-    // `tick` ""quote"" 'q'
-    x
-)
-u8	body, Pad { _x
-{ match T as uint8x
-{ ""it's"" :
-    calculatedFrom ,  } ,
-x_y_z
-    // trailing space 
-    @lengthOf( Packet ) `// not a comment`  , repeat float
-// c
-// c
-`` , } ,
-    repeat  crc
-{ char len
-, repeat u64
-    crc ,
-x_y_z { int8
-falsey
-    //
-    ,}
-    , },}, repeat int32 matchKey`u8 x,`
-,@rightPad(
-    ' ' )//
-@tag( 00) char[
-4294967296 ] u @calculatedFrom( // " ++ [27880; 37322]%N ++ runes_of_ascii "
-""abc"" )
-    , @leftPad( '0' ) repeat i32 metadata,
-    Header ,	}root packet x {
-    @leftPad ( '\x00' )
-repeat A `line1
-line2` ,}
-    packet zchar
-{	repeat  char[
-    10  ]len ,	u8x	@calculatedFrom(""it's""
-) `{ , }`,
-    // `tick` ""quote"" 'q'
-    string A
-`// not a comment`, repeat A crc
-    `say ""hi""`  , } packet // `tick` ""quote"" 'q'
-falsey{ string// `tick` ""quote"" 'q'
-crc
-    , @lengthOf(
-    // @lengthOf(
-    i64_ )BodyLength	T
-,
-    zchar[ 7] charz , u8x // c
+    `{ , }`
+, char[]
+zchar @calculatedFrom(
+    ""\" ++ [233]%N ++ runes_of_ascii """
+    )
+``
+    ,  } MetaData lengthOf{char[
+255  ] MetaDataX
+`{ , }` ,
+    // a // b
+    } packet charz  { // 50% %s
+i64
+    charz , }
+")).
+Eval vm_compute in ("<<<M978>>>" ++ check (runes_of_ascii "
+options { }")).
+Eval vm_compute in ("<<<M1010>>>" ++ check (runes_of_ascii "// c
+
+")).
+Eval vm_compute in ("<<<M1042>>>" ++ check (runes_of_ascii "packet zchar
+    {	i32 lengthOf
+// trailing space 
+// 50% %s
+@calculatedFrom(  ""{,}""  )`100% of %d` , @tag( 4294967296 )
+@rightPad( '0' ) match
+leftPad as packetx { [
+    ""`tick`"" ] :BodyLength
+,[
+00 ,3,""it's"" ] :
+a1
+    , 007 :
+f32a , """ ++ [28040; 24687]%N ++ runes_of_ascii """// 50% %s
+: // " ++ [27880; 37322]%N ++ runes_of_ascii "
+body ,1 ://	t
+u128 ,},
+@calculatedFrom(""CRC32"")
+f32a @lengthOf(	charz )
+    `say ""hi""`	,
+}
+")).
+Eval vm_compute in ("<<<T1042>>>" ++ terms [mkTok 35 "packet" 1 0 false; mkTok 42 "zchar" 1 7 false; mkTok 2 "{" 2 4 false; mkTok 26 "i32" 2 6 false; mkTok 42 "lengthOf" 2 10 false; mkTok 44 "// trailing space " 3 0 true; mkTok 44 "// 50% %s" 4 0 true; mkTok 5 "@calculatedFrom(" 5 0 false; mkTok 31 """{,}""" 5 18 false; mkTok 6 ")" 5 25 false; mkTok 43 "`100% of %d`" 5 26 false; mkTok 40 "," 5 39 false; mkTok 9 "@tag(" 5 41 false; mkTok 30 "4294967296" 5 47 false; mkTok 6 ")" 5 58 false; mkTok 32 "@rightPad" 6 0 false; mkTok 8 "(" 6 9 false; mkTok 33 "'0'" 6 11 false; mkTok 6 ")" 6 15 false; mkTok 38 "match" 6 17 false; mkTok 42 "leftPad" 7 0 false; mkTok 17 "as" 7 8 false; mkTok 42 "packetx" 7 11 false; mkTok 2 "{" 7 19 false; mkTok 18 "[" 7 21 false; mkTok 31 """`tick`""" 8 4 false; mkTok 13 "]" 8 13 false; mkTok 39 ":" 8 15 false; mkTok 42 "BodyLength" 8 16 false; mkTok 40 "," 9 0 false; mkTok 18 "[" 9 1 false; mkTok 30 "00" 10 0 false; mkTok 40 "," 10 3 false; mkTok 30 "3" 10 4 false; mkTok 40 "," 10 5 false; mkTok 31 """it's""" 10 6 false; mkTok 13 "]" 10 13 false; mkTok 39 ":" 10 15 false; mkTok 42 "a1" 11 0 false; mkTok 40 "," 12 4 false; mkTok 30 "007" 12 6 false; mkTok 39 ":" 12 10 false; mkTok 42 "f32a" 13 0 false; mkTok 40 "," 13 5 false; mkTok 31 (string_of_bytes [34; 230; 182; 136; 230; 129; 175; 34]%N) 13 7 false; mkTok 44 "// 50% %s" 13 11 true; mkTok 39 ":" 14 0 false; mkTok 44 (string_of_bytes [47; 47; 32; 230; 179; 168; 233; 135; 138]%N) 14 2 true; mkTok 42 "body" 15 0 false; mkTok 40 "," 15 5 false; mkTok 30 "1" 15 6 false; mkTok 39 ":" 15 8 false; mkTok 44 (string_of_bytes [47; 47; 9; 116]%N) 15 9 true; mkTok 42 "u128" 16 0 false; mkTok 40 "," 16 5 false; mkTok 3 "}" 16 6 false; mkTok 40 "," 16 7 false; mkTok 5 "@calculatedFrom(" 17 0 false; mkTok 31 """CRC32""" 17 16 false; mkTok 6 ")" 17 23 false; mkTok 42 "f32a" 18 0 false; mkTok 7 "@lengthOf(" 18 5 false; mkTok 42 "charz" 18 16 false; mkTok 6 ")" 18 22 false; mkTok 43 "`say ""hi""`" 19 4 false; mkTok 40 "," 19 15 false; mkTok 3 "}" 20 0 false; mkTok 0 "<EOF>" 21 0 false] (mkPacket (mkPtok 35 "packet" 1 0 0) (Some (mkPtok 3 "}" 20 0 66)) [(DPacket (mkPacketDef (mkSpan (mkPtok 35 "packet" 1 0 0) (mkPtok 3 "}" 20 0 66)) None (mkPtok 35 "packet" 1 0 0) (mkPtok 42 "zchar" 1 7 1) (mkPtok 2 "{" 2 4 2) [(mkFieldWithAttr (mkSpan (mkPtok 26 "i32" 2 6 3) (mkPtok 40 "," 5 39 11)) [] (CheckSumField (mkSpan (mkPtok 26 "i32" 2 6 3) (mkPtok 40 "," 5 39 11)) (mkChecksumFieldDecl (mkSpan (mkPtok 26 "i32" 2 6 3) (mkPtok 40 "," 5 39 11)) (Some (TyBasic (mkSpan (mkPtok 26 "i32" 2 6 3) (mkPtok 26 "i32" 2 6 3)) (mkBasicType (mkSpan (mkPtok 26 "i32" 2 6 3) (mkPtok 26 "i32" 2 6 3)) (mkPtok 26 "i32" 2 6 3)))) (mkPtok 42 "lengthOf" 2 10 4) (mkCalculatedFrom (mkSpan (mkPtok 5 "@calculatedFrom(" 5 0 7) (mkPtok 6 ")" 5 25 9)) (mkPtok 5 "@calculatedFrom(" 5 0 7) (mkPtok 31 """{,}""" 5 18 8) (mkPtok 6 ")" 5 25 9)) (Some (mkPtok 43 "`100% of %d`" 5 26 10)) (mkPtok 40 "," 5 39 11)))); (mkFieldWithAttr (mkSpan (mkPtok 9 "@tag(" 5 41 12) (mkPtok 40 "," 16 7 56)) [(FATag (mkSpan (mkPtok 9 "@tag(" 5 41 12) (mkPtok 6 ")" 5 58 14)) (mkTagAttr (mkSpan (mkPtok 9 "@tag(" 5 41 12) (mkPtok 6 ")" 5 58 14)) (mkPtok 9 "@tag(" 5 41 12) (mkPtok 30 "4294967296" 5 47 13) (mkPtok 6 ")" 5 58 14))); (FAPadding (mkSpan (mkPtok 32 "@rightPad" 6 0 15) (mkPtok 6 ")" 6 15 18)) (mkPaddingAttr (mkSpan (mkPtok 32 "@rightPad" 6 0 15) (mkPtok 6 ")" 6 15 18)) (mkPtok 32 "@rightPad" 6 0 15) (mkPtok 8 "(" 6 9 16) (Some (mkPtok 33 "'0'" 6 11 17)) (mkPtok 6 ")" 6 15 18)))] (MatchField (mkSpan (mkPtok 38 "match" 6 17 19) (mkPtok 40 "," 16 7 56)) (mkMatchFieldDecl (mkSpan (mkPtok 38 "match" 6 17 19) (mkPtok 3 "}" 16 6 55)) (mkPtok 38 "match" 6 17 19) (mkPtok 42 "leftPad" 7 0 20) (mkPtok 17 "as" 7 8 21) (mkPtok 42 "packetx" 7 11 22) (mkPtok 2 "{" 7 19 23) [(mkMatchPair (mkSpan (mkPtok 18 "[" 7 21 24) (mkPtok 40 "," 9 0 29)) (MKList (mkKeyList (mkSpan (mkPtok 18 "[" 7 21 24) (mkPtok 13 "]" 8 13 26)) (mkPtok 18 "[" 7 21 24) (mkPtok 31 """`tick`""" 8 4 25) [] (mkPtok 13 "]" 8 13 26))) (mkPtok 39 ":" 8 15 27) (mkPtok 42 "BodyLength" 8 16 28) (Some (mkPtok 40 "," 9 0 29))); (mkMatchPair (mkSpan (mkPtok 18 "[" 9 1 30) (mkPtok 40 "," 12 4 39)) (MKList (mkKeyList (mkSpan (mkPtok 18 "[" 9 1 30) (mkPtok 13 "]" 10 13 36)) (mkPtok 18 "[" 9 1 30) (mkPtok 30 "00" 10 0 31) [((mkPtok 40 "," 10 3 32), (mkPtok 30 "3" 10 4 33)); ((mkPtok 40 "," 10 5 34), (mkPtok 31 """it's""" 10 6 35))] (mkPtok 13 "]" 10 13 36))) (mkPtok 39 ":" 10 15 37) (mkPtok 42 "a1" 11 0 38) (Some (mkPtok 40 "," 12 4 39))); (mkMatchPair (mkSpan (mkPtok 30 "007" 12 6 40) (mkPtok 40 "," 13 5 43)) (MKDigits (mkPtok 30 "007" 12 6 40)) (mkPtok 39 ":" 12 10 41) (mkPtok 42 "f32a" 13 0 42) (Some (mkPtok 40 "," 13 5 43))); (mkMatchPair (mkSpan (mkPtok 31 (string_of_bytes [34; 230; 182; 136; 230; 129; 175; 34]%N) 13 7 44) (mkPtok 40 "," 15 5 49)) (MKString (mkPtok 31 (string_of_bytes [34; 230; 182; 136; 230; 129; 175; 34]%N) 13 7 44)) (mkPtok 39 ":" 14 0 46) (mkPtok 42 "body" 15 0 48) (Some (mkPtok 40 "," 15 5 49))); (mkMatchPair (mkSpan (mkPtok 30 "1" 15 6 50) (mkPtok 40 "," 16 5 54)) (MKDigits (mkPtok 30 "1" 15 6 50)) (mkPtok 39 ":" 15 8 51) (mkPtok 42 "u128" 16 0 53) (Some (mkPtok 40 "," 16 5 54)))] (mkPtok 3 "}" 16 6 55)) (mkPtok 40 "," 16 7 56))); (mkFieldWithAttr (mkSpan (mkPtok 5 "@calculatedFrom(" 17 0 57) (mkPtok 40 "," 19 15 65)) [(FACalculatedFrom (mkSpan (mkPtok 5 "@calculatedFrom(" 17 0 57) (mkPtok 6 ")" 17 23 59)) (mkCalculatedFrom (mkSpan (mkPtok 5 "@calculatedFrom(" 17 0 57) (mkPtok 6 ")" 17 23 59)) (mkPtok 5 "@calculatedFrom(" 17 0 57) (mkPtok 31 """CRC32""" 17 16 58) (mkPtok 6 ")" 17 23 59)))] (LengthField (mkSpan (mkPtok 42 "f32a" 18 0 60) (mkPtok 40 "," 19 15 65)) (mkLengthFieldDecl (mkSpan (mkPtok 42 "f32a" 18 0 60) (mkPtok 40 "," 19 15 65)) None (mkPtok 42 "f32a" 18 0 60) (mkLengthOf (mkSpan (mkPtok 7 "@lengthOf(" 18 5 61) (mkPtok 6 ")" 18 22 63)) (mkPtok 7 "@lengthOf(" 18 5 61) (mkPtok 42 "charz" 18 16 62) (mkPtok 6 ")" 18 22 63)) (Some (mkPtok 43 "`say ""hi""`" 19 4 64)) (mkPtok 40 "," 19 15 65))))] (mkPtok 3 "}" 20 0 66)))])).
+Eval vm_compute in ("<<<M1074>>>" ++ check (runes_of_ascii "packet stringy {
+    i16 _x @calculatedFrom( ""it's"" ) `a\`,
+@rightPad	( '0' )match	i64_
+as body { 007 : i64_ 42
+:
+trueish 65535
+//
+// " ++ [128512]%N ++ runes_of_ascii " emoji
+: // 50% %s
+As ,
+0123456789 : metadata
+    // packet A { u8 x, }
+    ""packet"" //x
+: Pad , // a // b
+} , repeat zchar	{
+repeat zchar[ 4294967296]Foo`line1
+line2` ,
+// @lengthOf(
+/// triple
+match metadata
+    as trueish // @lengthOf(
 {
+// 50% %s
+// `tick` ""quote"" 'q'
+""abc"" :i8i8,[	0  , 7
+, 00 ,
+0 , // 50% %s
+10] :
+    Pad// @lengthOf(
+, }// packet A { u8 x, }
+,  repeat //x
+x_y_z Logon `crlf
+line`
+    // packet A { u8 x, }
+    ,
+i8i8 `it's`  , } , @rightPad
+('\x00'
+    )@lengthOf( rootA )
+    @lengthOf(
+    body // trailing space 
+)
+    // c
+    match
+    /// triple
+    u
+/// triple
+// packet A { u8 x, }
+as falsey {  65535:
+    A	""abc""
+: falsey , [  ""a\\""// c
+] :
+    // " ++ [27880; 37322]%N ++ runes_of_ascii "
+    uint8x [ ""x y""  ]
+//	t
+/// triple
+:x_y_z , """ ++ [233]%N ++ runes_of_ascii "t" ++ [233]%N ++ runes_of_ascii """: f32a , 007 : // c
+lengthOf} , }
+")).
+Eval vm_compute in ("<<<M1106>>>" ++ check (runes_of_ascii "packet BodyLength{@calculatedFrom( ""a\""b"")@leftPad
+( '\x00' )// " ++ [128512]%N ++ runes_of_ascii " emoji
+@lengthOf(
+// " ++ [27880; 37322]%N ++ runes_of_ascii "
+// @lengthOf(
+charz ) string_
+lengthOf
+, @tag(// trailing space 
+4294967296) @tag( 3	)
+@lengthOf(
+body
+) int64 T ``, @tag( 42 ) charz
+    {
+asx@calculatedFrom( ""\" ++ [233]%N ++ runes_of_ascii """ ),}, @rightPad ( '\x00' ) match BodyLength as msg_type
+{ [
+1] :int ,""{,}"" :
+    int ,
+    }
+,
+    repeat
+    i16 roots`line1
+line2` ,repeat // trailing space 
+o
+    {  match A
+as T{3:
+    a1 , }
+, repeat
+string Z9_
+`" ++ [233]%N ++ runes_of_ascii "`	, f32 calculatedFrom `100% of %d` ,},	repeat zchar[ 255 ] x , // " ++ [128512]%N ++ runes_of_ascii " emoji
+float32 T `line1
+line2`, @calculatedFrom( """ ++ [28040; 24687]%N ++ runes_of_ascii """ )repeat f32a string_ ,@calculatedFrom( ""1""
+    )
+@tag( 0) @lengthOf( calculatedFrom ) u16 zchar `a\` ,}")).
+Eval vm_compute in ("<<<M1138>>>" ++ check (runes_of_ascii "packet A
+{	}
+    packet u128
+    {match Pad as asx{ 1 : repeatCount , 255
+    :As 4294967296
+//	t
+// " ++ [128512]%N ++ runes_of_ascii " emoji
+:  falsey, [// " ++ [27880; 37322]%N ++ runes_of_ascii "
+""a	b"" ] :
+float , ""1""
+    :
+    msg_type,	[7,
+""a\\"" ,  ""a\\""  ,255 ,	4294967296 ,
+    3 ,  007
+] :string_ , } ,@tag(0) match lengthOf as // " ++ [128512]%N ++ runes_of_ascii " emoji
+options1// c
+{
+[
+""it's"" // packet A { u8 x, }
+]// " ++ [27880; 37322]%N ++ runes_of_ascii "
+: float
+,	7:	Foo  [
+""{,}""
+] : packetx , },  @tag(
+007 )char[ 00
+// packet A { u8 x, }
+/// triple
+] x_y_z @calculatedFrom( ""`tick`"" ), repeat u8 i8i8 `doc` , }")).
+Eval vm_compute in ("<<<M1170>>>" ++ check (runes_of_ascii "options {
+// packet A { u8 x, }
+// a // b
+u128
+=""1"" uint8x= i64 ; stringy = 00 chars// @lengthOf(
+=  char[ 00 ]}
+")).
+Eval vm_compute in ("<<<M1202>>>" ++ check (runes_of_ascii "packet
+Pad
+{ repeat  uint32
+matchKey , match
+zchar	as
+body
+{""CRC32""
+:x
+""abc""
+    :u8x
+// 50% %s
+// trailing space 
+, }
+, @calculatedFrom( ""1"" ) @tag(
+    4294967296
+)
+// packet A { u8 x, }
+// " ++ [128512]%N ++ runes_of_ascii " emoji
+repeat int32 pack ,
+    // 50% %s
+    }root packet asx
+{ // `tick` ""quote"" 'q'
+leftPad { char[
+10 ] options1 , char[4294967296] Packet `" ++ [233]%N ++ runes_of_ascii "`
+    , match chars
+//	t
+// packet A { u8 x, }
+as
+    // `tick` ""quote"" 'q'
+    _x	{ ""{,}"":	metadata , }
+    ,
+//	t
+//
+repeat	string Z9_
+, } , }
+")).
+Eval vm_compute in ("<<<M1234>>>" ++ check (runes_of_ascii "MetaData uint8x{ MetaDataX
+    // " ++ [128512]%N ++ runes_of_ascii " emoji
+    _x
+, char[ 7 ] pack`it's`
+, }")).
+Eval vm_compute in ("<<<M1266>>>" ++ check (runes_of_ascii "packet /// triple
+calculatedFrom
+    { @rightPad ( '0' ) char[  1 ] asx , @lengthOf( zchar //
+) int32 float @calculatedFrom( """" ), @rightPad(
+'\x00' ) x lengthOf , @tag(
+    7 ) // packet A { u8 x, }
+msg_type , }
+")).
+Eval vm_compute in ("<<<T1266>>>" ++ terms [mkTok 35 "packet" 1 0 false; mkTok 44 "/// triple" 1 7 true; mkTok 42 "calculatedFrom" 2 0 false; mkTok 2 "{" 3 4 false; mkTok 32 "@rightPad" 3 6 false; mkTok 8 "(" 3 16 false; mkTok 33 "'0'" 3 18 false; mkTok 6 ")" 3 22 false; mkTok 12 "char[" 3 24 false; mkTok 30 "1" 3 31 false; mkTok 13 "]" 3 33 false; mkTok 42 "asx" 3 35 false; mkTok 40 "," 3 39 false; mkTok 7 "@lengthOf(" 3 41 false; mkTok 42 "zchar" 3 52 false; mkTok 44 "//" 3 58 true; mkTok 6 ")" 4 0 false; mkTok 26 "int32" 4 2 false; mkTok 42 "float" 4 8 false; mkTok 5 "@calculatedFrom(" 4 14 false; mkTok 31 """""" 4 31 false; mkTok 6 ")" 4 34 false; mkTok 40 "," 4 35 false; mkTok 32 "@rightPad" 4 37 false; mkTok 8 "(" 4 46 false; mkTok 33 "'\x00'" 5 0 false; mkTok 6 ")" 5 7 false; mkTok 42 "x" 5 9 false; mkTok 42 "lengthOf" 5 11 false; mkTok 40 "," 5 20 false; mkTok 9 "@tag(" 5 22 false; mkTok 30 "7" 6 4 false; mkTok 6 ")" 6 6 false; mkTok 44 "// packet A { u8 x, }" 6 8 true; mkTok 42 "msg_type" 7 0 false; mkTok 40 "," 7 9 false; mkTok 3 "}" 7 11 false; mkTok 0 "<EOF>" 8 0 false] (mkPacket (mkPtok 35 "packet" 1 0 0) (Some (mkPtok 3 "}" 7 11 36)) [(DPacket (mkPacketDef (mkSpan (mkPtok 35 "packet" 1 0 0) (mkPtok 3 "}" 7 11 36)) None (mkPtok 35 "packet" 1 0 0) (mkPtok 42 "calculatedFrom" 2 0 2) (mkPtok 2 "{" 3 4 3) [(mkFieldWithAttr (mkSpan (mkPtok 32 "@rightPad" 3 6 4) (mkPtok 40 "," 3 39 12)) [(FAPadding (mkSpan (mkPtok 32 "@rightPad" 3 6 4) (mkPtok 6 ")" 3 22 7)) (mkPaddingAttr (mkSpan (mkPtok 32 "@rightPad" 3 6 4) (mkPtok 6 ")" 3 22 7)) (mkPtok 32 "@rightPad" 3 6 4) (mkPtok 8 "(" 3 16 5) (Some (mkPtok 33 "'0'" 3 18 6)) (mkPtok 6 ")" 3 22 7)))] (MetaField (mkSpan (mkPtok 12 "char[" 3 24 8) (mkPtok 40 "," 3 39 12)) None (mkMetaDecl (mkSpan (mkPtok 12 "char[" 3 24 8) (mkPtok 40 "," 3 39 12)) (TyFixed (mkSpan (mkPtok 12 "char[" 3 24 8) (mkPtok 13 "]" 3 33 10)) (mkFixedString (mkSpan (mkPtok 12 "char[" 3 24 8) (mkPtok 13 "]" 3 33 10)) (mkPtok 12 "char[" 3 24 8) (mkPtok 30 "1" 3 31 9) (mkPtok 13 "]" 3 33 10))) (mkPtok 42 "asx" 3 35 11) None (mkPtok 40 "," 3 39 12)))); (mkFieldWithAttr (mkSpan (mkPtok 7 "@lengthOf(" 3 41 13) (mkPtok 40 "," 4 35 22)) [(FALengthOf (mkSpan (mkPtok 7 "@lengthOf(" 3 41 13) (mkPtok 6 ")" 4 0 16)) (mkLengthOf (mkSpan (mkPtok 7 "@lengthOf(" 3 41 13) (mkPtok 6 ")" 4 0 16)) (mkPtok 7 "@lengthOf(" 3 41 13) (mkPtok 42 "zchar" 3 52 14) (mkPtok 6 ")" 4 0 16)))] (CheckSumField (mkSpan (mkPtok 26 "int32" 4 2 17) (mkPtok 40 "," 4 35 22)) (mkChecksumFieldDecl (mkSpan (mkPtok 26 "int32" 4 2 17) (mkPtok 40 "," 4 35 22)) (Some (TyBasic (mkSpan (mkPtok 26 "int32" 4 2 17) (mkPtok 26 "int32" 4 2 17)) (mkBasicType (mkSpan (mkPtok 26 "int32" 4 2 17) (mkPtok 26 "int32" 4 2 17)) (mkPtok 26 "int32" 4 2 17)))) (mkPtok 42 "float" 4 8 18) (mkCalculatedFrom (mkSpan (mkPtok 5 "@calculatedFrom(" 4 14 19) (mkPtok 6 ")" 4 34 21)) (mkPtok 5 "@calculatedFrom(" 4 14 19) (mkPtok 31 """""" 4 31 20) (mkPtok 6 ")" 4 34 21)) None (mkPtok 40 "," 4 35 22)))); (mkFieldWithAttr (mkSpan (mkPtok 32 "@rightPad" 4 37 23) (mkPtok 40 "," 5 20 29)) [(FAPadding (mkSpan (mkPtok 32 "@rightPad" 4 37 23) (mkPtok 6 ")" 5 7 26)) (mkPaddingAttr (mkSpan (mkPtok 32 "@rightPad" 4 37 23) (mkPtok 6 ")" 5 7 26)) (mkPtok 32 "@rightPad" 4 37 23) (mkPtok 8 "(" 4 46 24) (Some (mkPtok 33 "'\x00'" 5 0 25)) (mkPtok 6 ")" 5 7 26)))] (ObjectField (mkSpan (mkPtok 42 "x" 5 9 27) (mkPtok 40 "," 5 20 29)) None (mkPtok 42 "x" 5 9 27) (Some (mkPtok 42 "lengthOf" 5 11 28)) None (mkPtok 40 "," 5 20 29))); (mkFieldWithAttr (mkSpan (mkPtok 9 "@tag(" 5 22 30) (mkPtok 40 "," 7 9 35)) [(FATag (mkSpan (mkPtok 9 "@tag(" 5 22 30) (mkPtok 6 ")" 6 6 32)) (mkTagAttr (mkSpan (mkPtok 9 "@tag(" 5 22 30) (mkPtok 6 ")" 6 6 32)) (mkPtok 9 "@tag(" 5 22 30) (mkPtok 30 "7" 6 4 31) (mkPtok 6 ")" 6 6 32)))] (ObjectField (mkSpan (mkPtok 42 "msg_type" 7 0 34) (mkPtok 40 "," 7 9 35)) None (mkPtok 42 "msg_type" 7 0 34) None None (mkPtok 40 "," 7 9 35)))] (mkPtok 3 "}" 7 11 36)))])).
+Eval vm_compute in ("<<<M1298>>>" ++ check (runes_of_ascii "
+//x
+")).
+Eval vm_compute in ("<<<M1330>>>" ++ check (runes_of_ascii "  root
+    packet lengthOf { @calculatedFrom(""" ++ [128512]%N ++ runes_of_ascii """
+)
+//
+//x
+uint8 tag  `
+`
+, @calculatedFrom( ""packet""
+    )@tag( 0) @rightPad
+( '0'	) char[] pack	,
+}packet
+Header{@rightPad ('0'
+) char[] x_y_z , Header // `tick` ""quote"" 'q'
+{
+repeat zchar[ 00 ] leftPad , repeat f64
+float `
+` , string msg_type
+`doc`
+// packet A { u8 x, }
+//
+, repeat
+    char[]
+body  , }
+, @lengthOf( u8x
+    ) repeat char metadata `two words`
+    , @calculatedFrom(
+""packet""
+)trueish
+    /// triple
+    , } root  packet
+As // c
+{
+    repeat
+zchar[ 255 // " ++ [27880; 37322]%N ++ runes_of_ascii "
+] len// a // b
+`crlf
+line` , match
+    Foo
+    // " ++ [128512]%N ++ runes_of_ascii " emoji
+    as repeatCount{
+7  : _x ,
+    }
+    , @lengthOf(
+// `tick` ""quote"" 'q'
+/// triple
+float )@calculatedFrom( """ ++ [233]%N ++ runes_of_ascii "t" ++ [233]%N ++ runes_of_ascii """  ) u
+    {
+repeat msg_type { repeat
+Header
+, } , /// triple
+zchar[1 ]	Foo
+@lengthOf( BodyLength )
+`doc` ,} ,match u8x as  charz {
+// trailing space 
+/// triple
+255
+: x ,""it's""
+    :falsey
+//	t
+//	t
+""x y"":roots 1 // c
+: Foo , ""x y"" : zchar , // 50% %s
+""" ++ [128512]%N ++ runes_of_ascii """ // `tick` ""quote"" 'q'
+:
+    BodyLength , } , @rightPad
+( )u8x @calculatedFrom(""x y"" )`" ++ [28040; 24687; 31867; 22411]%N ++ runes_of_ascii "` , match packetx as repeatCount {
+    ""\n"" :
+    float , 1 : chars 007 : /// triple
+packetx,
+1
+: // packet A { u8 x, }
+i8i8,
+    } ,
+    @calculatedFrom(
+""""	) match
+// `tick` ""quote"" 'q'
+// @lengthOf(
+lengthOf as rootA { """":
+BodyLength, } , @tag(	4294967296) char[]
+    falsey	@lengthOf( trueish ) `" ++ [28040; 24687; 31867; 22411]%N ++ runes_of_ascii "` // 50% %s
+,
+} MetaData  T {
+    // a // b
+    msg_type // " ++ [27880; 37322]%N ++ runes_of_ascii "
+Logon`100% of %d` ,
+    o trueish `say ""hi""`,u32// trailing space 
+BodyLength
+`two words`
+    , f32 packetx `a\` , } // " ++ [128512]%N ++ runes_of_ascii " emoji")).
+Eval vm_compute in ("<<<M1362>>>" ++ check (runes_of_ascii "MetaData pack // packet A { u8 x, }
+{calculatedFrom Pad,
+    o
+f32a
+`doc` , char[ 0123456789]Z9_ `line1
+line2` , string string_ `it's`,}
+options{ As =
+'0'; x_y_z= 255 ; A = ' '
+a1 = i16 ; zchar =
+    0 } MetaData crc	{ }
+
+")).
+Eval vm_compute in ("<<<M1394>>>" ++ check (runes_of_ascii "MetaData
+Foo  { string msg_type `" ++ [28040; 24687; 31867; 22411]%N ++ runes_of_ascii "`, }
+MetaData u8x {}  packet  Foo
+//	t
+//
+{@lengthOf(
+    tag)
+u128 msg_type
+,
+    @calculatedFrom( ""// no comment"" )crc @calculatedFrom(""{,}""
+) `doc`
+,char[ 007 ]  roots
+    , } options {
+    calculatedFrom //	t
+=float32
+pack ='\x00' ; Packet	= ""// no comment""
+    }")).
+Eval vm_compute in ("<<<M1426>>>" ++ check (runes_of_ascii "packet
+    x{
+    @calculatedFrom(
+    ""\n""
+// packet A { u8 x, }
+// `tick` ""quote"" 'q'
+)  repeat uint64 roots /// triple
+, string falsey ,
+    @calculatedFrom( ""{,}""
+)
+    repeatCount `two words`
+, match roots as uint8x
+{ ""`tick`"" :	chars,  007 : u, },
+i32 Pad @lengthOf( string_	)  `it's`
+    , //x
+repeat u16 T , @rightPad('0'  )
+    match u8x
+    as matchKey { [""\" ++ [233]%N ++ runes_of_ascii """ ]
+:// " ++ [27880; 37322]%N ++ runes_of_ascii "
+repeatCount	""a\""b""
+    :pack , 0
+:
+packetx ,  } , @lengthOf( Z9_ )@lengthOf(
+f32a )
+    string_ { match zchar as repeatCount { 255:crc , 007  : As , [
+    0 , ""CRC32"" ]
+: i8i8
+,// 50% %s
+} , leftPad,int {
+    repeat float{
+leftPad @lengthOf(	Logon ) // " ++ [27880; 37322]%N ++ runes_of_ascii "
+,
+    roots // packet A { u8 x, }
+,//
+} , repeat f64 Packet ,}
+    , } , // c
+}
+")).
+Eval vm_compute in ("<<<M1458>>>" ++ check (runes_of_ascii "
+")).
+Eval vm_compute in ("<<<M1490>>>" ++ check (runes_of_ascii "options { options1
+= 007 ;
+}  packet u { // @lengthOf(
+@tag( 0 ) // trailing space 
+tag  { int64 _x
+    ,
+u64 MetaDataX @calculatedFrom(""1"")
+    , } , char charz
+, rootA `
+`
+// `tick` ""quote"" 'q'
+// @lengthOf(
+,match
+string_ as//x
+charz{ 007
+:  x , }  ,repeat
+uint8x {
+x_y_z {
+// c
+// c
+repeat char[] pack
+, char[] x_y_z ,}
+,
+} , match //	t
+u128
+as string_ { ""a\\"" : u128
+,} ,
+@lengthOf(
+A ) u8 chars
+`100% of %d`, }root  packet x {repeat // trailing space 
+uint8x {// packet A { u8 x, }
+match
+    trueish as
+    roots { ""abc""  : options1 ""a\\"": roots
+, 00:
+Pad
+, ""a	b"": Pad , [
+    ""packet"" ]
+:// packet A { u8 x, }
+_x
+    ,
+    10 : len , }
+, }
+, // c
+zchar[
+0123456789 ] zchar
+@lengthOf(T
+    )`a\`
+, @rightPad () @lengthOf( roots ) msg_type , @tag( 3
+)Packet @lengthOf(
+rootA
+    /// triple
+    )
+    ,	i8i8	`a\` ,@lengthOf(
+    rootA
+    ) @calculatedFrom( ""x y"" )zchar
+{ repeat
+msg_type BodyLength ,int32	packetx`" ++ [233]%N ++ runes_of_ascii "`, u16 Foo
+    // `tick` ""quote"" 'q'
+    `// not a comment` // " ++ [128512]%N ++ runes_of_ascii " emoji
+,char uint8x@lengthOf( body
+)
+,
+}
+, } packet asx
+    // trailing space 
+    {
+@lengthOf(
+// " ++ [27880; 37322]%N ++ runes_of_ascii "
+// packet A { u8 x, }
+msg_type) char
+    u128 , i16	len `tab	here` , // `tick` ""quote"" 'q'
+@lengthOf(roots ) match asx as BodyLength	{""packet"" : trueish,""" ++ [128512]%N ++ runes_of_ascii """ :
+x , 3
+: charz 0123456789 :
+Packet
+,  007: pack , [
+00 ,
+    ""a\""b""] :
+lengthOf , },
+    @lengthOf( BodyLength ) char[
+// 50% %s
+//x
+0 ]u8x
+@lengthOf(msg_type  ) , @calculatedFrom( ""it's"" ) options1 @calculatedFrom( ""`tick`"" ) `u8 x,`
+,char[ 3 ] repeatCount// `tick` ""quote"" 'q'
+`" ++ [28040; 24687; 31867; 22411]%N ++ runes_of_ascii "`
+, A@lengthOf( a1 // " ++ [128512]%N ++ runes_of_ascii " emoji
+) ,
+@calculatedFrom(
+""a	b"" ) @lengthOf(
+int)leftPad @lengthOf( Z9_ ), @lengthOf( f32a )
+roots {
+    //	t
+    repeat As , } ,@lengthOf(
+    pack ) uint8 charz
+//x
+// `tick` ""quote"" 'q'
+, } packet repeatCount{ }
+")).
+Eval vm_compute in ("<<<T1490>>>" ++ terms [mkTok 1 "options" 1 0 false; mkTok 2 "{" 1 8 false; mkTok 42 "options1" 1 10 false; mkTok 4 "=" 2 0 false; mkTok 30 "007" 2 2 false; mkTok 41 ";" 2 6 false; mkTok 3 "}" 3 0 false; mkTok 35 "packet" 3 3 false; mkTok 42 "u" 3 10 false; mkTok 2 "{" 3 12 false; mkTok 44 "// @lengthOf(" 3 14 true; mkTok 9 "@tag(" 4 0 false; mkTok 30 "0" 4 6 false; mkTok 6 ")" 4 8 false; mkTok 44 "// trailing space " 4 10 true; mkTok 42 "tag" 5 0 false; mkTok 2 "{" 5 5 false; mkTok 27 "int64" 5 7 false; mkTok 42 "_x" 5 13 false; mkTok 40 "," 6 4 false; mkTok 23 "u64" 7 0 false; mkTok 42 "MetaDataX" 7 4 false; mkTok 5 "@calculatedFrom(" 7 14 false; mkTok 31 """1""" 7 30 false; mkTok 6 ")" 7 33 false; mkTok 40 "," 8 4 false; mkTok 3 "}" 8 6 false; mkTok 40 "," 8 8 false; mkTok 19 "char" 8 10 false; mkTok 42 "charz" 8 15 false; mkTok 40 "," 9 0 false; mkTok 42 "rootA" 9 2 false; mkTok 43 (string_of_bytes [96; 10; 96]%N) 9 8 false; mkTok 44 "// `tick` ""quote"" 'q'" 11 0 true; mkTok 44 "// @lengthOf(" 12 0 true; mkTok 40 "," 13 0 false; mkTok 38 "match" 13 1 false; mkTok 42 "string_" 14 0 false; mkTok 17 "as" 14 8 false; mkTok 44 "//x" 14 10 true; mkTok 42 "charz" 15 0 false; mkTok 2 "{" 15 5 false; mkTok 30 "007" 15 7 false; mkTok 39 ":" 16 0 false; mkTok 42 "x" 16 3 false; mkTok 40 "," 16 5 false; mkTok 3 "}" 16 7 false; mkTok 40 "," 16 10 false; mkTok 36 "repeat" 16 11 false; mkTok 42 "uint8x" 17 0 false; mkTok 2 "{" 17 7 false; mkTok 42 "x_y_z" 18 0 false; mkTok 2 "{" 18 6 false; mkTok 44 "// c" 19 0 true; mkTok 44 "// c" 20 0 true; mkTok 36 "repeat" 21 0 false; mkTok 16 "char[]" 21 7 false; mkTok 42 "pack" 21 14 false; mkTok 40 "," 22 0 false; mkTok 16 "char[]" 22 2 false; mkTok 42 "x_y_z" 22 9 false; mkTok 40 "," 22 15 false; mkTok 3 "}" 22 16 false; mkTok 40 "," 23 0 false; mkTok 3 "}" 24 0 false; mkTok 40 "," 24 2 false; mkTok 38 "match" 24 4 false; mkTok 44 (string_of_bytes [47; 47; 9; 116]%N) 24 10 true; mkTok 42 "u128" 25 0 false; mkTok 17 "as" 26 0 false; mkTok 42 "string_" 26 3 false; mkTok 2 "{" 26 11 false; mkTok 31 """a\\""" 26 13 false; mkTok 39 ":" 26 19 false; mkTok 42 "u128" 26 21 false; mkTok 40 "," 27 0 false; mkTok 3 "}" 27 1 false; mkTok 40 "," 27 3 false; mkTok 7 "@lengthOf(" 28 0 false; mkTok 42 "A" 29 0 false; mkTok 6 ")" 29 2 false; mkTok 20 "u8" 29 4 false; mkTok 42 "chars" 29 7 false; mkTok 43 "`100% of %d`" 30 0 false; mkTok 40 "," 30 12 false; mkTok 3 "}" 30 14 false; mkTok 34 "root" 30 15 false; mkTok 35 "packet" 30 21 false; mkTok 42 "x" 30 28 false; mkTok 2 "{" 30 30 false; mkTok 36 "repeat" 30 31 false; mkTok 44 "// trailing space " 30 38 true; mkTok 42 "uint8x" 31 0 false; mkTok 2 "{" 31 7 false; mkTok 44 "// packet A { u8 x, }" 31 8 true; mkTok 38 "match" 32 0 false; mkTok 42 "trueish" 33 4 false; mkTok 17 "as" 33 12 false; mkTok 42 "roots" 34 4 false; mkTok 2 "{" 34 10 false; mkTok 31 """abc""" 34 12 false; mkTok 39 ":" 34 19 false; mkTok 42 "options1" 34 21 false; mkTok 31 """a\\""" 34 30 false; mkTok 39 ":" 34 35 false; mkTok 42 "roots" 34 37 false; mkTok 40 "," 35 0 false; mkTok 30 "00" 35 2 false; mkTok 39 ":" 35 4 false; mkTok 42 "Pad" 36 0 false; mkTok 40 "," 37 0 false; mkTok 31 (string_of_bytes [34; 97; 9; 98; 34]%N) 37 2 false; mkTok 39 ":" 37 7 false; mkTok 42 "Pad" 37 9 false; mkTok 40 "," 37 13 false; mkTok 18 "[" 37 15 false; mkTok 31 """packet""" 38 4 false; mkTok 13 "]" 38 13 false; mkTok 39 ":" 39 0 false; mkTok 44 "// packet A { u8 x, }" 39 1 true; mkTok 42 "_x" 40 0 false; mkTok 40 "," 41 4 false; mkTok 30 "10" 42 4 false; mkTok 39 ":" 42 7 false; mkTok 42 "len" 42 9 false; mkTok 40 "," 42 13 false; mkTok 3 "}" 42 15 false; mkTok 40 "," 43 0 false; mkTok 3 "}" 43 2 false; mkTok 40 "," 44 0 false; mkTok 44 "// c" 44 2 true; mkTok 14 "zchar[" 45 0 false; mkTok 30 "0123456789" 46 0 false; mkTok 13 "]" 46 11 false; mkTok 42 "zchar" 46 13 false; mkTok 7 "@lengthOf(" 47 0 false; mkTok 42 "T" 47 10 false; mkTok 6 ")" 48 4 false; mkTok 43 "`a\`" 48 5 false; mkTok 40 "," 49 0 false; mkTok 32 "@rightPad" 49 2 false; mkTok 8 "(" 49 12 false; mkTok 6 ")" 49 13 false; mkTok 7 "@lengthOf(" 49 15 false; mkTok 42 "roots" 49 26 false; mkTok 6 ")" 49 32 false; mkTok 42 "msg_type" 49 34 false; mkTok 40 "," 49 43 false; mkTok 9 "@tag(" 49 45 false; mkTok 30 "3" 49 51 false; mkTok 6 ")" 50 0 false; mkTok 42 "Packet" 50 1 false; mkTok 7 "@lengthOf(" 50 8 false; mkTok 42 "rootA" 51 0 false; mkTok 44 "/// triple" 52 4 true; mkTok 6 ")" 53 4 false; mkTok 40 "," 54 4 false; mkTok 42 "i8i8" 54 6 false; mkTok 43 "`a\`" 54 11 false; mkTok 40 "," 54 16 false; mkTok 7 "@lengthOf(" 54 17 false; mkTok 42 "rootA" 55 4 false; mkTok 6 ")" 56 4 false; mkTok 5 "@calculatedFrom(" 56 6 false; mkTok 31 """x y""" 56 23 false; mkTok 6 ")" 56 29 false; mkTok 42 "zchar" 56 30 false; mkTok 2 "{" 57 0 false; mkTok 36 "repeat" 57 2 false; mkTok 42 "msg_type" 58 0 false; mkTok 42 "BodyLength" 58 9 false; mkTok 40 "," 58 20 false; mkTok 26 "int32" 58 21 false; mkTok 42 "packetx" 58 27 false; mkTok 43 (string_of_bytes [96; 195; 169; 96]%N) 58 34 false; mkTok 40 "," 58 37 false; mkTok 21 "u16" 58 39 false; mkTok 42 "Foo" 58 43 false; mkTok 44 "// `tick` ""quote"" 'q'" 59 4 true; mkTok 43 "`// not a comment`" 60 4 false; mkTok 44 (string_of_bytes [47; 47; 32; 240; 159; 152; 128; 32; 101; 109; 111; 106; 105]%N) 60 23 true; mkTok 40 "," 61 0 false; mkTok 19 "char" 61 1 false; mkTok 42 "uint8x" 61 6 false; mkTok 7 "@lengthOf(" 61 12 false; mkTok 42 "body" 61 23 false; mkTok 6 ")" 62 0 false; mkTok 40 "," 63 0 false; mkTok 3 "}" 64 0 false; mkTok 40 "," 65 0 false; mkTok 3 "}" 65 2 false; mkTok 35 "packet" 65 4 false; mkTok 42 "asx" 65 11 false; mkTok 44 "// trailing space " 66 4 true; mkTok 2 "{" 67 4 false; mkTok 7 "@lengthOf(" 68 0 false; mkTok 44 (string_of_bytes [47; 47; 32; 230; 179; 168; 233; 135; 138]%N) 69 0 true; mkTok 44 "// packet A { u8 x, }" 70 0 true; mkTok 42 "msg_type" 71 0 false; mkTok 6 ")" 71 8 false; mkTok 19 "char" 71 10 false; mkTok 42 "u128" 72 4 false; mkTok 40 "," 72 9 false; mkTok 25 "i16" 72 11 false; mkTok 42 "len" 72 15 false; mkTok 43 (string_of_bytes [96; 116; 97; 98; 9; 104; 101; 114; 101; 96]%N) 72 19 false; mkTok 40 "," 72 30 false; mkTok 44 "// `tick` ""quote"" 'q'" 72 32 true; mkTok 7 "@lengthOf(" 73 0 false; mkTok 42 "roots" 73 10 false; mkTok 6 ")" 73 16 false; mkTok 38 "match" 73 18 false; mkTok 42 "asx" 73 24 false; mkTok 17 "as" 73 28 false; mkTok 42 "BodyLength" 73 31 false; mkTok 2 "{" 73 42 false; mkTok 31 """packet""" 73 43 false; mkTok 39 ":" 73 52 false; mkTok 42 "trueish" 73 54 false; mkTok 40 "," 73 61 false; mkTok 31 (string_of_bytes [34; 240; 159; 152; 128; 34]%N) 73 62 false; mkTok 39 ":" 73 66 false; mkTok 42 "x" 74 0 false; mkTok 40 "," 74 2 false; mkTok 30 "3" 74 4 false; mkTok 39 ":" 75 0 false; mkTok 42 "charz" 75 2 false; mkTok 30 "0123456789" 75 8 false; mkTok 39 ":" 75 19 false; mkTok 42 "Packet" 76 0 false; mkTok 40 "," 77 0 false; mkTok 30 "007" 77 3 false; mkTok 39 ":" 77 6 false; mkTok 42 "pack" 77 8 false; mkTok 40 "," 77 13 false; mkTok 18 "[" 77 15 false; mkTok 30 "00" 78 0 false; mkTok 40 "," 78 3 false; mkTok 31 """a\""b""" 79 4 false; mkTok 13 "]" 79 10 false; mkTok 39 ":" 79 12 false; mkTok 42 "lengthOf" 80 0 false; mkTok 40 "," 80 9 false; mkTok 3 "}" 80 11 false; mkTok 40 "," 80 12 false; mkTok 7 "@lengthOf(" 81 4 false; mkTok 42 "BodyLength" 81 15 false; mkTok 6 ")" 81 26 false; mkTok 12 "char[" 81 28 false; mkTok 44 "// 50% %s" 82 0 true; mkTok 44 "//x" 83 0 true; mkTok 30 "0" 84 0 false; mkTok 13 "]" 84 2 false; mkTok 42 "u8x" 84 3 false; mkTok 7 "@lengthOf(" 85 0 false; mkTok 42 "msg_type" 85 10 false; mkTok 6 ")" 85 20 false; mkTok 40 "," 85 22 false; mkTok 5 "@calculatedFrom(" 85 24 false; mkTok 31 """it's""" 85 41 false; mkTok 6 ")" 85 48 false; mkTok 42 "options1" 85 50 false; mkTok 5 "@calculatedFrom(" 85 59 false; mkTok 31 """`tick`""" 85 76 false; mkTok 6 ")" 85 85 false; mkTok 43 "`u8 x,`" 85 87 false; mkTok 40 "," 86 0 false; mkTok 12 "char[" 86 1 false; mkTok 30 "3" 86 7 false; mkTok 13 "]" 86 9 false; mkTok 42 "repeatCount" 86 11 false; mkTok 44 "// `tick` ""quote"" 'q'" 86 22 true; mkTok 43 (string_of_bytes [96; 230; 182; 136; 230; 129; 175; 231; 177; 187; 229; 158; 139; 96]%N) 87 0 false; mkTok 40 "," 88 0 false; mkTok 42 "A" 88 2 false; mkTok 7 "@lengthOf(" 88 3 false; mkTok 42 "a1" 88 14 false; mkTok 44 (string_of_bytes [47; 47; 32; 240; 159; 152; 128; 32; 101; 109; 111; 106; 105]%N) 88 17 true; mkTok 6 ")" 89 0 false; mkTok 40 "," 89 2 false; mkTok 5 "@calculatedFrom(" 90 0 false; mkTok 31 (string_of_bytes [34; 97; 9; 98; 34]%N) 91 0 false; mkTok 6 ")" 91 6 false; mkTok 7 "@lengthOf(" 91 8 false; mkTok 42 "int" 92 0 false; mkTok 6 ")" 92 3 false; mkTok 42 "leftPad" 92 4 false; mkTok 7 "@lengthOf(" 92 12 false; mkTok 42 "Z9_" 92 23 false; mkTok 6 ")" 92 27 false; mkTok 40 "," 92 28 false; mkTok 7 "@lengthOf(" 92 30 false; mkTok 42 "f32a" 92 41 false; mkTok 6 ")" 92 46 false; mkTok 42 "roots" 93 0 false; mkTok 2 "{" 93 6 false; mkTok 44 (string_of_bytes [47; 47; 9; 116]%N) 94 4 true; mkTok 36 "repeat" 95 4 false; mkTok 42 "As" 95 11 false; mkTok 40 "," 95 14 false; mkTok 3 "}" 95 16 false; mkTok 40 "," 95 18 false; mkTok 7 "@lengthOf(" 95 19 false; mkTok 42 "pack" 96 4 false; mkTok 6 ")" 96 9 false; mkTok 20 "uint8" 96 11 false; mkTok 42 "charz" 96 17 false; mkTok 44 "//x" 97 0 true; mkTok 44 "// `tick` ""quote"" 'q'" 98 0 true; mkTok 40 "," 99 0 false; mkTok 3 "}" 99 2 false; mkTok 35 "packet" 99 4 false; mkTok 42 "repeatCount" 99 11 false; mkTok 2 "{" 99 22 false; mkTok 3 "}" 99 24 false; mkTok 0 "<EOF>" 100 0 false] (mkPacket (mkPtok 1 "options" 1 0 0) (Some (mkPtok 3 "}" 99 24 314)) [(DOption (mkOptionDef (mkSpan (mkPtok 1 "options" 1 0 0) (mkPtok 3 "}" 3 0 6)) (mkPtok 1 "options" 1 0 0) (mkPtok 2 "{" 1 8 1) [(mkOptionDecl (mkSpan (mkPtok 42 "options1" 1 10 2) (mkPtok 41 ";" 2 6 5)) (mkPtok 42 "options1" 1 10 2) (mkPtok 4 "=" 2 0 3) (VDigits (mkSpan (mkPtok 30 "007" 2 2 4) (mkPtok 30 "007" 2 2 4)) (mkPtok 30 "007" 2 2 4)) (Some (mkPtok 41 ";" 2 6 5)))] (mkPtok 3 "}" 3 0 6))); (DPacket (mkPacketDef (mkSpan (mkPtok 35 "packet" 3 3 7) (mkPtok 3 "}" 30 14 85)) None (mkPtok 35 "packet" 3 3 7) (mkPtok 42 "u" 3 10 8) (mkPtok 2 "{" 3 12 9) [(mkFieldWithAttr (mkSpan (mkPtok 9 "@tag(" 4 0 11) (mkPtok 40 "," 8 8 27)) [(FATag (mkSpan (mkPtok 9 "@tag(" 4 0 11) (mkPtok 6 ")" 4 8 13)) (mkTagAttr (mkSpan (mkPtok 9 "@tag(" 4 0 11) (mkPtok 6 ")" 4 8 13)) (mkPtok 9 "@tag(" 4 0 11) (mkPtok 30 "0" 4 6 12) (mkPtok 6 ")" 4 8 13)))] (InerObjectField (mkSpan (mkPtok 42 "tag" 5 0 15) (mkPtok 40 "," 8 8 27)) None (InerObjectDecl (mkSpan (mkPtok 42 "tag" 5 0 15) (mkPtok 3 "}" 8 6 26)) (mkPtok 42 "tag" 5 0 15) (mkPtok 2 "{" 5 5 16) [(MetaField (mkSpan (mkPtok 27 "int64" 5 7 17) (mkPtok 40 "," 6 4 19)) None (mkMetaDecl (mkSpan (mkPtok 27 "int64" 5 7 17) (mkPtok 40 "," 6 4 19)) (TyBasic (mkSpan (mkPtok 27 "int64" 5 7 17) (mkPtok 27 "int64" 5 7 17)) (mkBasicType (mkSpan (mkPtok 27 "int64" 5 7 17) (mkPtok 27 "int64" 5 7 17)) (mkPtok 27 "int64" 5 7 17))) (mkPtok 42 "_x" 5 13 18) None (mkPtok 40 "," 6 4 19))); (CheckSumField (mkSpan (mkPtok 23 "u64" 7 0 20) (mkPtok 40 "," 8 4 25)) (mkChecksumFieldDecl (mkSpan (mkPtok 23 "u64" 7 0 20) (mkPtok 40 "," 8 4 25)) (Some (TyBasic (mkSpan (mkPtok 23 "u64" 7 0 20) (mkPtok 23 "u64" 7 0 20)) (mkBasicType (mkSpan (mkPtok 23 "u64" 7 0 20) (mkPtok 23 "u64" 7 0 20)) (mkPtok 23 "u64" 7 0 20)))) (mkPtok 42 "MetaDataX" 7 4 21) (mkCalculatedFrom (mkSpan (mkPtok 5 "@calculatedFrom(" 7 14 22) (mkPtok 6 ")" 7 33 24)) (mkPtok 5 "@calculatedFrom(" 7 14 22) (mkPtok 31 """1""" 7 30 23) (mkPtok 6 ")" 7 33 24)) None (mkPtok 40 "," 8 4 25)))] (mkPtok 3 "}" 8 6 26)) (mkPtok 40 "," 8 8 27))); (mkFieldWithAttr (mkSpan (mkPtok 19 "char" 8 10 28) (mkPtok 40 "," 9 0 30)) [] (MetaField (mkSpan (mkPtok 19 "char" 8 10 28) (mkPtok 40 "," 9 0 30)) None (mkMetaDecl (mkSpan (mkPtok 19 "char" 8 10 28) (mkPtok 40 "," 9 0 30)) (TyBasic (mkSpan (mkPtok 19 "char" 8 10 28) (mkPtok 19 "char" 8 10 28)) (mkBasicType (mkSpan (mkPtok 19 "char" 8 10 28) (mkPtok 19 "char" 8 10 28)) (mkPtok 19 "char" 8 10 28))) (mkPtok 42 "charz" 8 15 29) None (mkPtok 40 "," 9 0 30)))); (mkFieldWithAttr (mkSpan (mkPtok 42 "rootA" 9 2 31) (mkPtok 40 "," 13 0 35)) [] (ObjectField (mkSpan (mkPtok 42 "rootA" 9 2 31) (mkPtok 40 "," 13 0 35)) None (mkPtok 42 "rootA" 9 2 31) None (Some (mkPtok 43 (string_of_bytes [96; 10; 96]%N) 9 8 32)) (mkPtok 40 "," 13 0 35))); (mkFieldWithAttr (mkSpan (mkPtok 38 "match" 13 1 36) (mkPtok 40 "," 16 10 47)) [] (MatchField (mkSpan (mkPtok 38 "match" 13 1 36) (mkPtok 40 "," 16 10 47)) (mkMatchFieldDecl (mkSpan (mkPtok 38 "match" 13 1 36) (mkPtok 3 "}" 16 7 46)) (mkPtok 38 "match" 13 1 36) (mkPtok 42 "string_" 14 0 37) (mkPtok 17 "as" 14 8 38) (mkPtok 42 "charz" 15 0 40) (mkPtok 2 "{" 15 5 41) [(mkMatchPair (mkSpan (mkPtok 30 "007" 15 7 42) (mkPtok 40 "," 16 5 45)) (MKDigits (mkPtok 30 "007" 15 7 42)) (mkPtok 39 ":" 16 0 43) (mkPtok 42 "x" 16 3 44) (Some (mkPtok 40 "," 16 5 45)))] (mkPtok 3 "}" 16 7 46)) (mkPtok 40 "," 16 10 47))); (mkFieldWithAttr (mkSpan (mkPtok 36 "repeat" 16 11 48) (mkPtok 40 "," 24 2 65)) [] (InerObjectField (mkSpan (mkPtok 36 "repeat" 16 11 48) (mkPtok 40 "," 24 2 65)) (Some (mkPtok 36 "repeat" 16 11 48)) (InerObjectDecl (mkSpan (mkPtok 42 "uint8x" 17 0 49) (mkPtok 3 "}" 24 0 64)) (mkPtok 42 "uint8x" 17 0 49) (mkPtok 2 "{" 17 7 50) [(InerObjectField (mkSpan (mkPtok 42 "x_y_z" 18 0 51) (mkPtok 40 "," 23 0 63)) None (InerObjectDecl (mkSpan (mkPtok 42 "x_y_z" 18 0 51) (mkPtok 3 "}" 22 16 62)) (mkPtok 42 "x_y_z" 18 0 51) (mkPtok 2 "{" 18 6 52) [(MetaField (mkSpan (mkPtok 36 "repeat" 21 0 55) (mkPtok 40 "," 22 0 58)) (Some (mkPtok 36 "repeat" 21 0 55)) (mkMetaDecl (mkSpan (mkPtok 16 "char[]" 21 7 56) (mkPtok 40 "," 22 0 58)) (TyDynamic (mkSpan (mkPtok 16 "char[]" 21 7 56) (mkPtok 16 "char[]" 21 7 56)) (mkDynamicString (mkSpan (mkPtok 16 "char[]" 21 7 56) (mkPtok 16 "char[]" 21 7 56)) (mkPtok 16 "char[]" 21 7 56))) (mkPtok 42 "pack" 21 14 57) None (mkPtok 40 "," 22 0 58))); (MetaField (mkSpan (mkPtok 16 "char[]" 22 2 59) (mkPtok 40 "," 22 15 61)) None (mkMetaDecl (mkSpan (mkPtok 16 "char[]" 22 2 59) (mkPtok 40 "," 22 15 61)) (TyDynamic (mkSpan (mkPtok 16 "char[]" 22 2 59) (mkPtok 16 "char[]" 22 2 59)) (mkDynamicString (mkSpan (mkPtok 16 "char[]" 22 2 59) (mkPtok 16 "char[]" 22 2 59)) (mkPtok 16 "char[]" 22 2 59))) (mkPtok 42 "x_y_z" 22 9 60) None (mkPtok 40 "," 22 15 61)))] (mkPtok 3 "}" 22 16 62)) (mkPtok 40 "," 23 0 63))] (mkPtok 3 "}" 24 0 64)) (mkPtok 40 "," 24 2 65))); (mkFieldWithAttr (mkSpan (mkPtok 38 "match" 24 4 66) (mkPtok 40 "," 27 3 77)) [] (MatchField (mkSpan (mkPtok 38 "match" 24 4 66) (mkPtok 40 "," 27 3 77)) (mkMatchFieldDecl (mkSpan (mkPtok 38 "match" 24 4 66) (mkPtok 3 "}" 27 1 76)) (mkPtok 38 "match" 24 4 66) (mkPtok 42 "u128" 25 0 68) (mkPtok 17 "as" 26 0 69) (mkPtok 42 "string_" 26 3 70) (mkPtok 2 "{" 26 11 71) [(mkMatchPair (mkSpan (mkPtok 31 """a\\""" 26 13 72) (mkPtok 40 "," 27 0 75)) (MKString (mkPtok 31 """a\\""" 26 13 72)) (mkPtok 39 ":" 26 19 73) (mkPtok 42 "u128" 26 21 74) (Some (mkPtok 40 "," 27 0 75)))] (mkPtok 3 "}" 27 1 76)) (mkPtok 40 "," 27 3 77))); (mkFieldWithAttr (mkSpan (mkPtok 7 "@lengthOf(" 28 0 78) (mkPtok 40 "," 30 12 84)) [(FALengthOf (mkSpan (mkPtok 7 "@lengthOf(" 28 0 78) (mkPtok 6 ")" 29 2 80)) (mkLengthOf (mkSpan (mkPtok 7 "@lengthOf(" 28 0 78) (mkPtok 6 ")" 29 2 80)) (mkPtok 7 "@lengthOf(" 28 0 78) (mkPtok 42 "A" 29 0 79) (mkPtok 6 ")" 29 2 80)))] (MetaField (mkSpan (mkPtok 20 "u8" 29 4 81) (mkPtok 40 "," 30 12 84)) None (mkMetaDecl (mkSpan (mkPtok 20 "u8" 29 4 81) (mkPtok 40 "," 30 12 84)) (TyBasic (mkSpan (mkPtok 20 "u8" 29 4 81) (mkPtok 20 "u8" 29 4 81)) (mkBasicType (mkSpan (mkPtok 20 "u8" 29 4 81) (mkPtok 20 "u8" 29 4 81)) (mkPtok 20 "u8" 29 4 81))) (mkPtok 42 "chars" 29 7 82) (Some (mkPtok 43 "`100% of %d`" 30 0 83)) (mkPtok 40 "," 30 12 84))))] (mkPtok 3 "}" 30 14 85))); (DPacket (mkPacketDef (mkSpan (mkPtok 34 "root" 30 15 86) (mkPtok 3 "}" 65 2 190)) (Some (mkPtok 34 "root" 30 15 86)) (mkPtok 35 "packet" 30 21 87) (mkPtok 42 "x" 30 28 88) (mkPtok 2 "{" 30 30 89) [(mkFieldWithAttr (mkSpan (mkPtok 36 "repeat" 30 31 90) (mkPtok 40 "," 44 0 129)) [] (InerObjectField (mkSpan (mkPtok 36 "repeat" 30 31 90) (mkPtok 40 "," 44 0 129)) (Some (mkPtok 36 "repeat" 30 31 90)) (InerObjectDecl (mkSpan (mkPtok 42 "uint8x" 31 0 92) (mkPtok 3 "}" 43 2 128)) (mkPtok 42 "uint8x" 31 0 92) (mkPtok 2 "{" 31 7 93) [(MatchField (mkSpan (mkPtok 38 "match" 32 0 95) (mkPtok 40 "," 43 0 127)) (mkMatchFieldDecl (mkSpan (mkPtok 38 "match" 32 0 95) (mkPtok 3 "}" 42 15 126)) (mkPtok 38 "match" 32 0 95) (mkPtok 42 "trueish" 33 4 96) (mkPtok 17 "as" 33 12 97) (mkPtok 42 "roots" 34 4 98) (mkPtok 2 "{" 34 10 99) [(mkMatchPair (mkSpan (mkPtok 31 """abc""" 34 12 100) (mkPtok 42 "options1" 34 21 102)) (MKString (mkPtok 31 """abc""" 34 12 100)) (mkPtok 39 ":" 34 19 101) (mkPtok 42 "options1" 34 21 102) None); (mkMatchPair (mkSpan (mkPtok 31 """a\\""" 34 30 103) (mkPtok 40 "," 35 0 106)) (MKString (mkPtok 31 """a\\""" 34 30 103)) (mkPtok 39 ":" 34 35 104) (mkPtok 42 "roots" 34 37 105) (Some (mkPtok 40 "," 35 0 106))); (mkMatchPair (mkSpan (mkPtok 30 "00" 35 2 107) (mkPtok 40 "," 37 0 110)) (MKDigits (mkPtok 30 "00" 35 2 107)) (mkPtok 39 ":" 35 4 108) (mkPtok 42 "Pad" 36 0 109) (Some (mkPtok 40 "," 37 0 110))); (mkMatchPair (mkSpan (mkPtok 31 (string_of_bytes [34; 97; 9; 98; 34]%N) 37 2 111) (mkPtok 40 "," 37 13 114)) (MKString (mkPtok 31 (string_of_bytes [34; 97; 9; 98; 34]%N) 37 2 111)) (mkPtok 39 ":" 37 7 112) (mkPtok 42 "Pad" 37 9 113) (Some (mkPtok 40 "," 37 13 114))); (mkMatchPair (mkSpan (mkPtok 18 "[" 37 15 115) (mkPtok 40 "," 41 4 121)) (MKList (mkKeyList (mkSpan (mkPtok 18 "[" 37 15 115) (mkPtok 13 "]" 38 13 117)) (mkPtok 18 "[" 37 15 115) (mkPtok 31 """packet""" 38 4 116) [] (mkPtok 13 "]" 38 13 117))) (mkPtok 39 ":" 39 0 118) (mkPtok 42 "_x" 40 0 120) (Some (mkPtok 40 "," 41 4 121))); (mkMatchPair (mkSpan (mkPtok 30 "10" 42 4 122) (mkPtok 40 "," 42 13 125)) (MKDigits (mkPtok 30 "10" 42 4 122)) (mkPtok 39 ":" 42 7 123) (mkPtok 42 "len" 42 9 124) (Some (mkPtok 40 "," 42 13 125)))] (mkPtok 3 "}" 42 15 126)) (mkPtok 40 "," 43 0 127))] (mkPtok 3 "}" 43 2 128)) (mkPtok 40 "," 44 0 129))); (mkFieldWithAttr (mkSpan (mkPtok 14 "zchar[" 45 0 131) (mkPtok 40 "," 49 0 139)) [] (LengthField (mkSpan (mkPtok 14 "zchar[" 45 0 131) (mkPtok 40 "," 49 0 139)) (mkLengthFieldDecl (mkSpan (mkPtok 14 "zchar[" 45 0 131) (mkPtok 40 "," 49 0 139)) (Some (TyFixed (mkSpan (mkPtok 14 "zchar[" 45 0 131) (mkPtok 13 "]" 46 11 133)) (mkFixedString (mkSpan (mkPtok 14 "zchar[" 45 0 131) (mkPtok 13 "]" 46 11 133)) (mkPtok 14 "zchar[" 45 0 131) (mkPtok 30 "0123456789" 46 0 132) (mkPtok 13 "]" 46 11 133)))) (mkPtok 42 "zchar" 46 13 134) (mkLengthOf (mkSpan (mkPtok 7 "@lengthOf(" 47 0 135) (mkPtok 6 ")" 48 4 137)) (mkPtok 7 "@lengthOf(" 47 0 135) (mkPtok 42 "T" 47 10 136) (mkPtok 6 ")" 48 4 137)) (Some (mkPtok 43 "`a\`" 48 5 138)) (mkPtok 40 "," 49 0 139)))); (mkFieldWithAttr (mkSpan (mkPtok 32 "@rightPad" 49 2 140) (mkPtok 40 "," 49 43 147)) [(FAPadding (mkSpan (mkPtok 32 "@rightPad" 49 2 140) (mkPtok 6 ")" 49 13 142)) (mkPaddingAttr (mkSpan (mkPtok 32 "@rightPad" 49 2 140) (mkPtok 6 ")" 49 13 142)) (mkPtok 32 "@rightPad" 49 2 140) (mkPtok 8 "(" 49 12 141) None (mkPtok 6 ")" 49 13 142))); (FALengthOf (mkSpan (mkPtok 7 "@lengthOf(" 49 15 143) (mkPtok 6 ")" 49 32 145)) (mkLengthOf (mkSpan (mkPtok 7 "@lengthOf(" 49 15 143) (mkPtok 6 ")" 49 32 145)) (mkPtok 7 "@lengthOf(" 49 15 143) (mkPtok 42 "roots" 49 26 144) (mkPtok 6 ")" 49 32 145)))] (ObjectField (mkSpan (mkPtok 42 "msg_type" 49 34 146) (mkPtok 40 "," 49 43 147)) None (mkPtok 42 "msg_type" 49 34 146) None None (mkPtok 40 "," 49 43 147))); (mkFieldWithAttr (mkSpan (mkPtok 9 "@tag(" 49 45 148) (mkPtok 40 "," 54 4 156)) [(FATag (mkSpan (mkPtok 9 "@tag(" 49 45 148) (mkPtok 6 ")" 50 0 150)) (mkTagAttr (mkSpan (mkPtok 9 "@tag(" 49 45 148) (mkPtok 6 ")" 50 0 150)) (mkPtok 9 "@tag(" 49 45 148) (mkPtok 30 "3" 49 51 149) (mkPtok 6 ")" 50 0 150)))] (LengthField (mkSpan (mkPtok 42 "Packet" 50 1 151) (mkPtok 40 "," 54 4 156)) (mkLengthFieldDecl (mkSpan (mkPtok 42 "Packet" 50 1 151) (mkPtok 40 "," 54 4 156)) None (mkPtok 42 "Packet" 50 1 151) (mkLengthOf (mkSpan (mkPtok 7 "@lengthOf(" 50 8 152) (mkPtok 6 ")" 53 4 155)) (mkPtok 7 "@lengthOf(" 50 8 152) (mkPtok 42 "rootA" 51 0 153) (mkPtok 6 ")" 53 4 155)) None (mkPtok 40 "," 54 4 156)))); (mkFieldWithAttr (mkSpan (mkPtok 42 "i8i8" 54 6 157) (mkPtok 40 "," 54 16 159)) [] (ObjectField (mkSpan (mkPtok 42 "i8i8" 54 6 157) (mkPtok 40 "," 54 16 159)) None (mkPtok 42 "i8i8" 54 6 157) None (Some (mkPtok 43 "`a\`" 54 11 158)) (mkPtok 40 "," 54 16 159))); (mkFieldWithAttr (mkSpan (mkPtok 7 "@lengthOf(" 54 17 160) (mkPtok 40 "," 65 0 189)) [(FALengthOf (mkSpan (mkPtok 7 "@lengthOf(" 54 17 160) (mkPtok 6 ")" 56 4 162)) (mkLengthOf (mkSpan (mkPtok 7 "@lengthOf(" 54 17 160) (mkPtok 6 ")" 56 4 162)) (mkPtok 7 "@lengthOf(" 54 17 160) (mkPtok 42 "rootA" 55 4 161) (mkPtok 6 ")" 56 4 162))); (FACalculatedFrom (mkSpan (mkPtok 5 "@calculatedFrom(" 56 6 163) (mkPtok 6 ")" 56 29 165)) (mkCalculatedFrom (mkSpan (mkPtok 5 "@calculatedFrom(" 56 6 163) (mkPtok 6 ")" 56 29 165)) (mkPtok 5 "@calculatedFrom(" 56 6 163) (mkPtok 31 """x y""" 56 23 164) (mkPtok 6 ")" 56 29 165)))] (InerObjectField (mkSpan (mkPtok 42 "zchar" 56 30 166) (mkPtok 40 "," 65 0 189)) None (InerObjectDecl (mkSpan (mkPtok 42 "zchar" 56 30 166) (mkPtok 3 "}" 64 0 188)) (mkPtok 42 "zchar" 56 30 166) (mkPtok 2 "{" 57 0 167) [(ObjectField (mkSpan (mkPtok 36 "repeat" 57 2 168) (mkPtok 40 "," 58 20 171)) (Some (mkPtok 36 "repeat" 57 2 168)) (mkPtok 42 "msg_type" 58 0 169) (Some (mkPtok 42 "BodyLength" 58 9 170)) None (mkPtok 40 "," 58 20 171)); (MetaField (mkSpan (mkPtok 26 "int32" 58 21 172) (mkPtok 40 "," 58 37 175)) None (mkMetaDecl (mkSpan (mkPtok 26 "int32" 58 21 172) (mkPtok 40 "," 58 37 175)) (TyBasic (mkSpan (mkPtok 26 "int32" 58 21 172) (mkPtok 26 "int32" 58 21 172)) (mkBasicType (mkSpan (mkPtok 26 "int32" 58 21 172) (mkPtok 26 "int32" 58 21 172)) (mkPtok 26 "int32" 58 21 172))) (mkPtok 42 "packetx" 58 27 173) (Some (mkPtok 43 (string_of_bytes [96; 195; 169; 96]%N) 58 34 174)) (mkPtok 40 "," 58 37 175))); (MetaField (mkSpan (mkPtok 21 "u16" 58 39 176) (mkPtok 40 "," 61 0 181)) None (mkMetaDecl (mkSpan (mkPtok 21 "u16" 58 39 176) (mkPtok 40 "," 61 0 181)) (TyBasic (mkSpan (mkPtok 21 "u16" 58 39 176) (mkPtok 21 "u16" 58 39 176)) (mkBasicType (mkSpan (mkPtok 21 "u16" 58 39 176) (mkPtok 21 "u16" 58 39 176)) (mkPtok 21 "u16" 58 39 176))) (mkPtok 42 "Foo" 58 43 177) (Some (mkPtok 43 "`// not a comment`" 60 4 179)) (mkPtok 40 "," 61 0 181))); (LengthField (mkSpan (mkPtok 19 "char" 61 1 182) (mkPtok 40 "," 63 0 187)) (mkLengthFieldDecl (mkSpan (mkPtok 19 "char" 61 1 182) (mkPtok 40 "," 63 0 187)) (Some (TyBasic (mkSpan (mkPtok 19 "char" 61 1 182) (mkPtok 19 "char" 61 1 182)) (mkBasicType (mkSpan (mkPtok 19 "char" 61 1 182) (mkPtok 19 "char" 61 1 182)) (mkPtok 19 "char" 61 1 182)))) (mkPtok 42 "uint8x" 61 6 183) (mkLengthOf (mkSpan (mkPtok 7 "@lengthOf(" 61 12 184) (mkPtok 6 ")" 62 0 186)) (mkPtok 7 "@lengthOf(" 61 12 184) (mkPtok 42 "body" 61 23 185) (mkPtok 6 ")" 62 0 186)) None (mkPtok 40 "," 63 0 187)))] (mkPtok 3 "}" 64 0 188)) (mkPtok 40 "," 65 0 189)))] (mkPtok 3 "}" 65 2 190))); (DPacket (mkPacketDef (mkSpan (mkPtok 35 "packet" 65 4 191) (mkPtok 3 "}" 99 2 310)) None (mkPtok 35 "packet" 65 4 191) (mkPtok 42 "asx" 65 11 192) (mkPtok 2 "{" 67 4 194) [(mkFieldWithAttr (mkSpan (mkPtok 7 "@lengthOf(" 68 0 195) (mkPtok 40 "," 72 9 202)) [(FALengthOf (mkSpan (mkPtok 7 "@lengthOf(" 68 0 195) (mkPtok 6 ")" 71 8 199)) (mkLengthOf (mkSpan (mkPtok 7 "@lengthOf(" 68 0 195) (mkPtok 6 ")" 71 8 199)) (mkPtok 7 "@lengthOf(" 68 0 195) (mkPtok 42 "msg_type" 71 0 198) (mkPtok 6 ")" 71 8 199)))] (MetaField (mkSpan (mkPtok 19 "char" 71 10 200) (mkPtok 40 "," 72 9 202)) None (mkMetaDecl (mkSpan (mkPtok 19 "char" 71 10 200) (mkPtok 40 "," 72 9 202)) (TyBasic (mkSpan (mkPtok 19 "char" 71 10 200) (mkPtok 19 "char" 71 10 200)) (mkBasicType (mkSpan (mkPtok 19 "char" 71 10 200) (mkPtok 19 "char" 71 10 200)) (mkPtok 19 "char" 71 10 200))) (mkPtok 42 "u128" 72 4 201) None (mkPtok 40 "," 72 9 202)))); (mkFieldWithAttr (mkSpan (mkPtok 25 "i16" 72 11 203) (mkPtok 40 "," 72 30 206)) [] (MetaField (mkSpan (mkPtok 25 "i16" 72 11 203) (mkPtok 40 "," 72 30 206)) None (mkMetaDecl (mkSpan (mkPtok 25 "i16" 72 11 203) (mkPtok 40 "," 72 30 206)) (TyBasic (mkSpan (mkPtok 25 "i16" 72 11 203) (mkPtok 25 "i16" 72 11 203)) (mkBasicType (mkSpan (mkPtok 25 "i16" 72 11 203) (mkPtok 25 "i16" 72 11 203)) (mkPtok 25 "i16" 72 11 203))) (mkPtok 42 "len" 72 15 204) (Some (mkPtok 43 (string_of_bytes [96; 116; 97; 98; 9; 104; 101; 114; 101; 96]%N) 72 19 205)) (mkPtok 40 "," 72 30 206)))); (mkFieldWithAttr (mkSpan (mkPtok 7 "@lengthOf(" 73 0 208) (mkPtok 40 "," 80 12 244)) [(FALengthOf (mkSpan (mkPtok 7 "@lengthOf(" 73 0 208) (mkPtok 6 ")" 73 16 210)) (mkLengthOf (mkSpan (mkPtok 7 "@lengthOf(" 73 0 208) (mkPtok 6 ")" 73 16 210)) (mkPtok 7 "@lengthOf(" 73 0 208) (mkPtok 42 "roots" 73 10 209) (mkPtok 6 ")" 73 16 210)))] (MatchField (mkSpan (mkPtok 38 "match" 73 18 211) (mkPtok 40 "," 80 12 244)) (mkMatchFieldDecl (mkSpan (mkPtok 38 "match" 73 18 211) (mkPtok 3 "}" 80 11 243)) (mkPtok 38 "match" 73 18 211) (mkPtok 42 "asx" 73 24 212) (mkPtok 17 "as" 73 28 213) (mkPtok 42 "BodyLength" 73 31 214) (mkPtok 2 "{" 73 42 215) [(mkMatchPair (mkSpan (mkPtok 31 """packet""" 73 43 216) (mkPtok 40 "," 73 61 219)) (MKString (mkPtok 31 """packet""" 73 43 216)) (mkPtok 39 ":" 73 52 217) (mkPtok 42 "trueish" 73 54 218) (Some (mkPtok 40 "," 73 61 219))); (mkMatchPair (mkSpan (mkPtok 31 (string_of_bytes [34; 240; 159; 152; 128; 34]%N) 73 62 220) (mkPtok 40 "," 74 2 223)) (MKString (mkPtok 31 (string_of_bytes [34; 240; 159; 152; 128; 34]%N) 73 62 220)) (mkPtok 39 ":" 73 66 221) (mkPtok 42 "x" 74 0 222) (Some (mkPtok 40 "," 74 2 223))); (mkMatchPair (mkSpan (mkPtok 30 "3" 74 4 224) (mkPtok 42 "charz" 75 2 226)) (MKDigits (mkPtok 30 "3" 74 4 224)) (mkPtok 39 ":" 75 0 225) (mkPtok 42 "charz" 75 2 226) None); (mkMatchPair (mkSpan (mkPtok 30 "0123456789" 75 8 227) (mkPtok 40 "," 77 0 230)) (MKDigits (mkPtok 30 "0123456789" 75 8 227)) (mkPtok 39 ":" 75 19 228) (mkPtok 42 "Packet" 76 0 229) (Some (mkPtok 40 "," 77 0 230))); (mkMatchPair (mkSpan (mkPtok 30 "007" 77 3 231) (mkPtok 40 "," 77 13 234)) (MKDigits (mkPtok 30 "007" 77 3 231)) (mkPtok 39 ":" 77 6 232) (mkPtok 42 "pack" 77 8 233) (Some (mkPtok 40 "," 77 13 234))); (mkMatchPair (mkSpan (mkPtok 18 "[" 77 15 235) (mkPtok 40 "," 80 9 242)) (MKList (mkKeyList (mkSpan (mkPtok 18 "[" 77 15 235) (mkPtok 13 "]" 79 10 239)) (mkPtok 18 "[" 77 15 235) (mkPtok 30 "00" 78 0 236) [((mkPtok 40 "," 78 3 237), (mkPtok 31 """a\""b""" 79 4 238))] (mkPtok 13 "]" 79 10 239))) (mkPtok 39 ":" 79 12 240) (mkPtok 42 "lengthOf" 80 0 241) (Some (mkPtok 40 "," 80 9 242)))] (mkPtok 3 "}" 80 11 243)) (mkPtok 40 "," 80 12 244))); (mkFieldWithAttr (mkSpan (mkPtok 7 "@lengthOf(" 81 4 245) (mkPtok 40 "," 85 22 257)) [(FALengthOf (mkSpan (mkPtok 7 "@lengthOf(" 81 4 245) (mkPtok 6 ")" 81 26 247)) (mkLengthOf (mkSpan (mkPtok 7 "@lengthOf(" 81 4 245) (mkPtok 6 ")" 81 26 247)) (mkPtok 7 "@lengthOf(" 81 4 245) (mkPtok 42 "BodyLength" 81 15 246) (mkPtok 6 ")" 81 26 247)))] (LengthField (mkSpan (mkPtok 12 "char[" 81 28 248) (mkPtok 40 "," 85 22 257)) (mkLengthFieldDecl (mkSpan (mkPtok 12 "char[" 81 28 248) (mkPtok 40 "," 85 22 257)) (Some (TyFixed (mkSpan (mkPtok 12 "char[" 81 28 248) (mkPtok 13 "]" 84 2 252)) (mkFixedString (mkSpan (mkPtok 12 "char[" 81 28 248) (mkPtok 13 "]" 84 2 252)) (mkPtok 12 "char[" 81 28 248) (mkPtok 30 "0" 84 0 251) (mkPtok 13 "]" 84 2 252)))) (mkPtok 42 "u8x" 84 3 253) (mkLengthOf (mkSpan (mkPtok 7 "@lengthOf(" 85 0 254) (mkPtok 6 ")" 85 20 256)) (mkPtok 7 "@lengthOf(" 85 0 254) (mkPtok 42 "msg_type" 85 10 255) (mkPtok 6 ")" 85 20 256)) None (mkPtok 40 "," 85 22 257)))); (mkFieldWithAttr (mkSpan (mkPtok 5 "@calculatedFrom(" 85 24 258) (mkPtok 40 "," 86 0 266)) [(FACalculatedFrom (mkSpan (mkPtok 5 "@calculatedFrom(" 85 24 258) (mkPtok 6 ")" 85 48 260)) (mkCalculatedFrom (mkSpan (mkPtok 5 "@calculatedFrom(" 85 24 258) (mkPtok 6 ")" 85 48 260)) (mkPtok 5 "@calculatedFrom(" 85 24 258) (mkPtok 31 """it's""" 85 41 259) (mkPtok 6 ")" 85 48 260)))] (CheckSumField (mkSpan (mkPtok 42 "options1" 85 50 261) (mkPtok 40 "," 86 0 266)) (mkChecksumFieldDecl (mkSpan (mkPtok 42 "options1" 85 50 261) (mkPtok 40 "," 86 0 266)) None (mkPtok 42 "options1" 85 50 261) (mkCalculatedFrom (mkSpan (mkPtok 5 "@calculatedFrom(" 85 59 262) (mkPtok 6 ")" 85 85 264)) (mkPtok 5 "@calculatedFrom(" 85 59 262) (mkPtok 31 """`tick`""" 85 76 263) (mkPtok 6 ")" 85 85 264)) (Some (mkPtok 43 "`u8 x,`" 85 87 265)) (mkPtok 40 "," 86 0 266)))); (mkFieldWithAttr (mkSpan (mkPtok 12 "char[" 86 1 267) (mkPtok 40 "," 88 0 273)) [] (MetaField (mkSpan (mkPtok 12 "char[" 86 1 267) (mkPtok 40 "," 88 0 273)) None (mkMetaDecl (mkSpan (mkPtok 12 "char[" 86 1 267) (mkPtok 40 "," 88 0 273)) (TyFixed (mkSpan (mkPtok 12 "char[" 86 1 267) (mkPtok 13 "]" 86 9 269)) (mkFixedString (mkSpan (mkPtok 12 "char[" 86 1 267) (mkPtok 13 "]" 86 9 269)) (mkPtok 12 "char[" 86 1 267) (mkPtok 30 "3" 86 7 268) (mkPtok 13 "]" 86 9 269))) (mkPtok 42 "repeatCount" 86 11 270) (Some (mkPtok 43 (string_of_bytes [96; 230; 182; 136; 230; 129; 175; 231; 177; 187; 229; 158; 139; 96]%N) 87 0 272)) (mkPtok 40 "," 88 0 273)))); (mkFieldWithAttr (mkSpan (mkPtok 42 "A" 88 2 274) (mkPtok 40 "," 89 2 279)) [] (LengthField (mkSpan (mkPtok 42 "A" 88 2 274) (mkPtok 40 "," 89 2 279)) (mkLengthFieldDecl (mkSpan (mkPtok 42 "A" 88 2 274) (mkPtok 40 "," 89 2 279)) None (mkPtok 42 "A" 88 2 274) (mkLengthOf (mkSpan (mkPtok 7 "@lengthOf(" 88 3 275) (mkPtok 6 ")" 89 0 278)) (mkPtok 7 "@lengthOf(" 88 3 275) (mkPtok 42 "a1" 88 14 276) (mkPtok 6 ")" 89 0 278)) None (mkPtok 40 "," 89 2 279)))); (mkFieldWithAttr (mkSpan (mkPtok 5 "@calculatedFrom(" 90 0 280) (mkPtok 40 "," 92 28 290)) [(FACalculatedFrom (mkSpan (mkPtok 5 "@calculatedFrom(" 90 0 280) (mkPtok 6 ")" 91 6 282)) (mkCalculatedFrom (mkSpan (mkPtok 5 "@calculatedFrom(" 90 0 280) (mkPtok 6 ")" 91 6 282)) (mkPtok 5 "@calculatedFrom(" 90 0 280) (mkPtok 31 (string_of_bytes [34; 97; 9; 98; 34]%N) 91 0 281) (mkPtok 6 ")" 91 6 282))); (FALengthOf (mkSpan (mkPtok 7 "@lengthOf(" 91 8 283) (mkPtok 6 ")" 92 3 285)) (mkLengthOf (mkSpan (mkPtok 7 "@lengthOf(" 91 8 283) (mkPtok 6 ")" 92 3 285)) (mkPtok 7 "@lengthOf(" 91 8 283) (mkPtok 42 "int" 92 0 284) (mkPtok 6 ")" 92 3 285)))] (LengthField (mkSpan (mkPtok 42 "leftPad" 92 4 286) (mkPtok 40 "," 92 28 290)) (mkLengthFieldDecl (mkSpan (mkPtok 42 "leftPad" 92 4 286) (mkPtok 40 "," 92 28 290)) None (mkPtok 42 "leftPad" 92 4 286) (mkLengthOf (mkSpan (mkPtok 7 "@lengthOf(" 92 12 287) (mkPtok 6 ")" 92 27 289)) (mkPtok 7 "@lengthOf(" 92 12 287) (mkPtok 42 "Z9_" 92 23 288) (mkPtok 6 ")" 92 27 289)) None (mkPtok 40 "," 92 28 290)))); (mkFieldWithAttr (mkSpan (mkPtok 7 "@lengthOf(" 92 30 291) (mkPtok 40 "," 95 18 301)) [(FALengthOf (mkSpan (mkPtok 7 "@lengthOf(" 92 30 291) (mkPtok 6 ")" 92 46 293)) (mkLengthOf (mkSpan (mkPtok 7 "@lengthOf(" 92 30 291) (mkPtok 6 ")" 92 46 293)) (mkPtok 7 "@lengthOf(" 92 30 291) (mkPtok 42 "f32a" 92 41 292) (mkPtok 6 ")" 92 46 293)))] (InerObjectField (mkSpan (mkPtok 42 "roots" 93 0 294) (mkPtok 40 "," 95 18 301)) None (InerObjectDecl (mkSpan (mkPtok 42 "roots" 93 0 294) (mkPtok 3 "}" 95 16 300)) (mkPtok 42 "roots" 93 0 294) (mkPtok 2 "{" 93 6 295) [(ObjectField (mkSpan (mkPtok 36 "repeat" 95 4 297) (mkPtok 40 "," 95 14 299)) (Some (mkPtok 36 "repeat" 95 4 297)) (mkPtok 42 "As" 95 11 298) None None (mkPtok 40 "," 95 14 299))] (mkPtok 3 "}" 95 16 300)) (mkPtok 40 "," 95 18 301))); (mkFieldWithAttr (mkSpan (mkPtok 7 "@lengthOf(" 95 19 302) (mkPtok 40 "," 99 0 309)) [(FALengthOf (mkSpan (mkPtok 7 "@lengthOf(" 95 19 302) (mkPtok 6 ")" 96 9 304)) (mkLengthOf (mkSpan (mkPtok 7 "@lengthOf(" 95 19 302) (mkPtok 6 ")" 96 9 304)) (mkPtok 7 "@lengthOf(" 95 19 302) (mkPtok 42 "pack" 96 4 303) (mkPtok 6 ")" 96 9 304)))] (MetaField (mkSpan (mkPtok 20 "uint8" 96 11 305) (mkPtok 40 "," 99 0 309)) None (mkMetaDecl (mkSpan (mkPtok 20 "uint8" 96 11 305) (mkPtok 40 "," 99 0 309)) (TyBasic (mkSpan (mkPtok 20 "uint8" 96 11 305) (mkPtok 20 "uint8" 96 11 305)) (mkBasicType (mkSpan (mkPtok 20 "uint8" 96 11 305) (mkPtok 20 "uint8" 96 11 305)) (mkPtok 20 "uint8" 96 11 305))) (mkPtok 42 "charz" 96 17 306) None (mkPtok 40 "," 99 0 309))))] (mkPtok 3 "}" 99 2 310))); (DPacket (mkPacketDef (mkSpan (mkPtok 35 "packet" 99 4 311) (mkPtok 3 "}" 99 24 314)) None (mkPtok 35 "packet" 99 4 311) (mkPtok 42 "repeatCount" 99 11 312) (mkPtok 2 "{" 99 22 313) [] (mkPtok 3 "}" 99 24 314)))])).
+Eval vm_compute in ("<<<M1522>>>" ++ check (runes_of_ascii "//	t
+ // a // b")).
+Eval vm_compute in ("<<<M1554>>>" ++ check (runes_of_ascii "options	{ chars  ='0'
+x = true ; tag = ""a	b"" ;	u128
+= ' '	; u =
+    3	;  } root packet charz {
+    @calculatedFrom( """ ++ [233]%N ++ runes_of_ascii "t" ++ [233]%N ++ runes_of_ascii """
+) int64
+A , // " ++ [27880; 37322]%N ++ runes_of_ascii "
+@leftPad (  ' '  ) i64 chars `crlf
+line`,Header
+zchar `u8 x,`, i8 zchar@lengthOf(
+len ) `
+`,} packet A{
+    @leftPad
+(' '
+// a // b
+// c
+)match
+    // `tick` ""quote"" 'q'
+    zchar as zchar {
+""a\""b"" : metadata ,255 : u8x , 0123456789 //	t
+:
+rootA , 3
+    : MetaDataX,	}, // 50% %s
+string_ x_y_z `tab	here` ,
+    @lengthOf( T/// triple
+) int @calculatedFrom(
+    ""abc"" )
+    `{ , }` , }
+")).
+Eval vm_compute in ("<<<M1586>>>" ++ check (runes_of_ascii "
+")).
+Eval vm_compute in ("<<<M1618>>>" ++ check (runes_of_ascii "MetaData pack { u64
+stringy `line1
+line2` ,	u16
+    int
+// trailing space 
+// 50% %s
+`tab	here`, //
+float roots
+    `" ++ [28040; 24687; 31867; 22411]%N ++ runes_of_ascii "` ,
+    char[]
+    Logon, } packet	matchKey
+/// triple
+// `tick` ""quote"" 'q'
+{} MetaData
+    // packet A { u8 x, }
+    A {} //x")).
+Eval vm_compute in ("<<<M1650>>>" ++ check (runes_of_ascii "options
+{ repeatCount = int8
+msg_type
+    = true	; } root packet/// triple
+options1{@tag(42  ) @calculatedFrom( ""1""
+    ) repeat
+    string u `u8 x,` // @lengthOf(
+, @leftPad
+    ( ' ')
+    stringy @lengthOf( f32a ) `u8 x,`
+, metadata { Logon @lengthOf( stringy ) `` ,
+    string Header @calculatedFrom(  ""{,}"" ) , }
+    , } root packet
+Header { @tag(0123456789
+    ) chars ,  }
+")).
+Eval vm_compute in ("<<<M1682>>>" ++ check (runes_of_ascii "packet leftPad{
+@tag(  1 ) repeat f32//	t
+tag, @lengthOf(
+    u8x)  @calculatedFrom(
+""// no comment"" ) match
+    calculatedFrom as uint8x	{4294967296
+    : // " ++ [27880; 37322]%N ++ runes_of_ascii "
+calculatedFrom , // 50% %s
+1	: chars,
+""a	b"":u
+, [ 42
+]
+    :
+    As , ""{,}""
+:
+u8x , //	t
+}
+    ,
+    matchKey /// triple
+crc,// @lengthOf(
+@tag(// a // b
+42 )f32 lengthOf, @lengthOf(As
+) char[] Foo`tab	here` ,
+    @calculatedFrom(
+    ""CRC32"" ) @calculatedFrom( ""a\\"")@calculatedFrom("""")repeat a1
+{
+uint64 body@calculatedFrom( ""{,}"" ), zchar[
+    65535 ] tag // " ++ [128512]%N ++ runes_of_ascii " emoji
+`say ""hi""`,} ,
+charz u8x,}
+")).
+Eval vm_compute in ("<<<M1714>>>" ++ check (runes_of_ascii "options // @lengthOf(
+{ float=
+    char[ 42
+]; }options {}
+    options { uint8x
+=
+false
+; }packet BodyLength {@tag(
+    00
+)@tag( 10
+)
+    uint64 calculatedFrom `// not a comment`,
+int8 // @lengthOf(
+x_y_z , } packet falsey {
+}")).
+Eval vm_compute in ("<<<T1714>>>" ++ terms [mkTok 1 "options" 1 0 false; mkTok 44 "// @lengthOf(" 1 8 true; mkTok 2 "{" 2 0 false; mkTok 42 "float" 2 2 false; mkTok 4 "=" 2 7 false; mkTok 12 "char[" 3 4 false; mkTok 30 "42" 3 10 false; mkTok 13 "]" 4 0 false; mkTok 41 ";" 4 1 false; mkTok 3 "}" 4 3 false; mkTok 1 "options" 4 4 false; mkTok 2 "{" 4 12 false; mkTok 3 "}" 4 13 false; mkTok 1 "options" 5 4 false; mkTok 2 "{" 5 12 false; mkTok 42 "uint8x" 5 14 false; mkTok 4 "=" 6 0 false; mkTok 11 "false" 7 0 false; mkTok 41 ";" 8 0 false; mkTok 3 "}" 8 2 false; mkTok 35 "packet" 8 3 false; mkTok 42 "BodyLength" 8 10 false; mkTok 2 "{" 8 21 false; mkTok 9 "@tag(" 8 22 false; mkTok 30 "00" 9 4 false; mkTok 6 ")" 10 0 false; mkTok 9 "@tag(" 10 1 false; mkTok 30 "10" 10 7 false; mkTok 6 ")" 11 0 false; mkTok 23 "uint64" 12 4 false; mkTok 42 "calculatedFrom" 12 11 false; mkTok 43 "`// not a comment`" 12 26 false; mkTok 40 "," 12 44 false; mkTok 24 "int8" 13 0 false; mkTok 44 "// @lengthOf(" 13 5 true; mkTok 42 "x_y_z" 14 0 false; mkTok 40 "," 14 6 false; mkTok 3 "}" 14 8 false; mkTok 35 "packet" 14 10 false; mkTok 42 "falsey" 14 17 false; mkTok 2 "{" 14 24 false; mkTok 3 "}" 15 0 false; mkTok 0 "<EOF>" 15 1 false] (mkPacket (mkPtok 1 "options" 1 0 0) (Some (mkPtok 3 "}" 15 0 41)) [(DOption (mkOptionDef (mkSpan (mkPtok 1 "options" 1 0 0) (mkPtok 3 "}" 4 3 9)) (mkPtok 1 "options" 1 0 0) (mkPtok 2 "{" 2 0 2) [(mkOptionDecl (mkSpan (mkPtok 42 "float" 2 2 3) (mkPtok 41 ";" 4 1 8)) (mkPtok 42 "float" 2 2 3) (mkPtok 4 "=" 2 7 4) (VType (mkSpan (mkPtok 12 "char[" 3 4 5) (mkPtok 13 "]" 4 0 7)) (TyFixed (mkSpan (mkPtok 12 "char[" 3 4 5) (mkPtok 13 "]" 4 0 7)) (mkFixedString (mkSpan (mkPtok 12 "char[" 3 4 5) (mkPtok 13 "]" 4 0 7)) (mkPtok 12 "char[" 3 4 5) (mkPtok 30 "42" 3 10 6) (mkPtok 13 "]" 4 0 7)))) (Some (mkPtok 41 ";" 4 1 8)))] (mkPtok 3 "}" 4 3 9))); (DOption (mkOptionDef (mkSpan (mkPtok 1 "options" 4 4 10) (mkPtok 3 "}" 4 13 12)) (mkPtok 1 "options" 4 4 10) (mkPtok 2 "{" 4 12 11) [] (mkPtok 3 "}" 4 13 12))); (DOption (mkOptionDef (mkSpan (mkPtok 1 "options" 5 4 13) (mkPtok 3 "}" 8 2 19)) (mkPtok 1 "options" 5 4 13) (mkPtok 2 "{" 5 12 14) [(mkOptionDecl (mkSpan (mkPtok 42 "uint8x" 5 14 15) (mkPtok 41 ";" 8 0 18)) (mkPtok 42 "uint8x" 5 14 15) (mkPtok 4 "=" 6 0 16) (VFalse (mkSpan (mkPtok 11 "false" 7 0 17) (mkPtok 11 "false" 7 0 17)) (mkPtok 11 "false" 7 0 17)) (Some (mkPtok 41 ";" 8 0 18)))] (mkPtok 3 "}" 8 2 19))); (DPacket (mkPacketDef (mkSpan (mkPtok 35 "packet" 8 3 20) (mkPtok 3 "}" 14 8 37)) None (mkPtok 35 "packet" 8 3 20) (mkPtok 42 "BodyLength" 8 10 21) (mkPtok 2 "{" 8 21 22) [(mkFieldWithAttr (mkSpan (mkPtok 9 "@tag(" 8 22 23) (mkPtok 40 "," 12 44 32)) [(FATag (mkSpan (mkPtok 9 "@tag(" 8 22 23) (mkPtok 6 ")" 10 0 25)) (mkTagAttr (mkSpan (mkPtok 9 "@tag(" 8 22 23) (mkPtok 6 ")" 10 0 25)) (mkPtok 9 "@tag(" 8 22 23) (mkPtok 30 "00" 9 4 24) (mkPtok 6 ")" 10 0 25))); (FATag (mkSpan (mkPtok 9 "@tag(" 10 1 26) (mkPtok 6 ")" 11 0 28)) (mkTagAttr (mkSpan (mkPtok 9 "@tag(" 10 1 26) (mkPtok 6 ")" 11 0 28)) (mkPtok 9 "@tag(" 10 1 26) (mkPtok 30 "10" 10 7 27) (mkPtok 6 ")" 11 0 28)))] (MetaField (mkSpan (mkPtok 23 "uint64" 12 4 29) (mkPtok 40 "," 12 44 32)) None (mkMetaDecl (mkSpan (mkPtok 23 "uint64" 12 4 29) (mkPtok 40 "," 12 44 32)) (TyBasic (mkSpan (mkPtok 23 "uint64" 12 4 29) (mkPtok 23 "uint64" 12 4 29)) (mkBasicType (mkSpan (mkPtok 23 "uint64" 12 4 29) (mkPtok 23 "uint64" 12 4 29)) (mkPtok 23 "uint64" 12 4 29))) (mkPtok 42 "calculatedFrom" 12 11 30) (Some (mkPtok 43 "`// not a comment`" 12 26 31)) (mkPtok 40 "," 12 44 32)))); (mkFieldWithAttr (mkSpan (mkPtok 24 "int8" 13 0 33) (mkPtok 40 "," 14 6 36)) [] (MetaField (mkSpan (mkPtok 24 "int8" 13 0 33) (mkPtok 40 "," 14 6 36)) None (mkMetaDecl (mkSpan (mkPtok 24 "int8" 13 0 33) (mkPtok 40 "," 14 6 36)) (TyBasic (mkSpan (mkPtok 24 "int8" 13 0 33) (mkPtok 24 "int8" 13 0 33)) (mkBasicType (mkSpan (mkPtok 24 "int8" 13 0 33) (mkPtok 24 "int8" 13 0 33)) (mkPtok 24 "int8" 13 0 33))) (mkPtok 42 "x_y_z" 14 0 35) None (mkPtok 40 "," 14 6 36))))] (mkPtok 3 "}" 14 8 37))); (DPacket (mkPacketDef (mkSpan (mkPtok 35 "packet" 14 10 38) (mkPtok 3 "}" 15 0 41)) None (mkPtok 35 "packet" 14 10 38) (mkPtok 42 "falsey" 14 17 39) (mkPtok 2 "{" 14 24 40) [] (mkPtok 3 "}" 15 0 41)))])).
+Eval vm_compute in ("<<<M1746>>>" ++ check (runes_of_ascii "MetaData _x {
+As body `u8 x,` ,i64_ body `
+` ,  char[] body `tab	here`
+,
+    char[]	Packet `" ++ [233]%N ++ runes_of_ascii "` /// triple
+,BodyLength rootA `tab	here`
+,
+    }	root packet
+    Packet {  BodyLength i8i8 /// triple
+,uint64 // @lengthOf(
+matchKey
+`" ++ [28040; 24687; 31867; 22411]%N ++ runes_of_ascii "` , @leftPad (
+'\x00'
+)
+float64 zchar , }
+")).
+Eval vm_compute in ("<<<M1778>>>" ++ check (runes_of_ascii "packet Foo
+    {
+    @lengthOf(
+T
+)calculatedFrom `two words`	, } 	 ")).
+Eval vm_compute in ("<<<M1810>>>" ++ check (runes_of_ascii "
+")).
+Eval vm_compute in ("<<<M1842>>>" ++ check (runes_of_ascii "
+// packet A { u8 x, }
+")).
+Eval vm_compute in ("<<<M1874>>>" ++ check (runes_of_ascii "root  packet /// triple
+Header {//	t
+@tag( 0
+)char[1// @lengthOf(
+]calculatedFrom @calculatedFrom( // c
+""{,}""
 // @lengthOf(
 // `tick` ""quote"" 'q'
-repeat As `" ++ [233]%N ++ runes_of_ascii "` ,	repeat string  float ,match	Pad /// triple
-as	stringy {
-    // `tick` ""quote"" 'q'
-    1 :
-repeatCount
-    1 : tag,007 :
-u , [ 3
-, 007 ]
-    : uint8x, ""`tick`"": i8i8	, ""abc"" : chars , } ,	}, @calculatedFrom(""abc""
-    ) len Packet `say ""hi""`  , @calculatedFrom(
-    // `tick` ""quote"" 'q'
-    ""1"" ) Logon , chars , }")).
-Eval vm_compute in ("<<<M1938>>>" ++ check (runes_of_ascii "
-packet
-    matchKey{
-repeat
-tag `tab	here` , Foo ,@rightPad  ( ' ' )
-@tag(  42)uint64 // " ++ [27880; 37322]%N ++ runes_of_ascii "
-i8i8 @calculatedFrom(""1"" // c
-) // packet A { u8 x, }
-, } root
-packet packetx
-// packet A { u8 x, }
+)
+    `doc` , @calculatedFrom(
+""it's"") @calculatedFrom(
+""abc"" )@leftPad ('0'	)int8  asx	@lengthOf( Z9_) `say ""hi""` , //
+repeat	x_y_z `" ++ [233]%N ++ runes_of_ascii "`
+    , int64
+// c
 //	t
-{
-// a // b
+x@calculatedFrom( ""\n"" ) , tag
+    @calculatedFrom(
+    """ ++ [233]%N ++ runes_of_ascii "t" ++ [233]%N ++ runes_of_ascii """ ) `line1
+line2` ,pack calculatedFrom `doc`
+, zchar {i16 Pad // " ++ [27880; 37322]%N ++ runes_of_ascii "
+@lengthOf(zchar
 //x
-@lengthOf( a1// `tick` ""quote"" 'q'
-) @rightPad // " ++ [27880; 37322]%N ++ runes_of_ascii "
-( ) @tag( 007
+// trailing space 
+) `" ++ [233]%N ++ runes_of_ascii "`
+    ,	}
+    , char[] /// triple
+metadata @lengthOf(
+    // 50% %s
+    i8i8 )
+    ,	}
 //
-//
-)repeat u8 Header `{ , }` , } MetaData matchKey { } // trailing space ")).
-Eval vm_compute in ("<<<T1938>>>" ++ terms [mkTok 35 "packet" 2 0 false; mkTok 42 "matchKey" 3 4 false; mkTok 2 "{" 3 12 false; mkTok 36 "repeat" 4 0 false; mkTok 42 "tag" 5 0 false; mkTok 43 (string_of_bytes [96; 116; 97; 98; 9; 104; 101; 114; 101; 96]%N) 5 4 false; mkTok 40 "," 5 15 false; mkTok 42 "Foo" 5 17 false; mkTok 40 "," 5 21 false; mkTok 32 "@rightPad" 5 22 false; mkTok 8 "(" 5 33 false; mkTok 33 "' '" 5 35 false; mkTok 6 ")" 5 39 false; mkTok 9 "@tag(" 6 0 false; mkTok 30 "42" 6 7 false; mkTok 6 ")" 6 9 false; mkTok 23 "uint64" 6 10 false; mkTok 44 (string_of_bytes [47; 47; 32; 230; 179; 168; 233; 135; 138]%N) 6 17 true; mkTok 42 "i8i8" 7 0 false; mkTok 5 "@calculatedFrom(" 7 5 false; mkTok 31 """1""" 7 21 false; mkTok 44 "// c" 7 25 true; mkTok 6 ")" 8 0 false; mkTok 44 "// packet A { u8 x, }" 8 2 true; mkTok 40 "," 9 0 false; mkTok 3 "}" 9 2 false; mkTok 34 "root" 9 4 false; mkTok 35 "packet" 10 0 false; mkTok 42 "packetx" 10 7 false; mkTok 44 "// packet A { u8 x, }" 11 0 true; mkTok 44 (string_of_bytes [47; 47; 9; 116]%N) 12 0 true; mkTok 2 "{" 13 0 false; mkTok 44 "// a // b" 14 0 true; mkTok 44 "//x" 15 0 true; mkTok 7 "@lengthOf(" 16 0 false; mkTok 42 "a1" 16 11 false; mkTok 44 "// `tick` ""quote"" 'q'" 16 13 true; mkTok 6 ")" 17 0 false; mkTok 32 "@rightPad" 17 2 false; mkTok 44 (string_of_bytes [47; 47; 32; 230; 179; 168; 233; 135; 138]%N) 17 12 true; mkTok 8 "(" 18 0 false; mkTok 6 ")" 18 2 false; mkTok 9 "@tag(" 18 4 false; mkTok 30 "007" 18 10 false; mkTok 44 "//" 19 0 true; mkTok 44 "//" 20 0 true; mkTok 6 ")" 21 0 false; mkTok 36 "repeat" 21 1 false; mkTok 20 "u8" 21 8 false; mkTok 42 "Header" 21 11 false; mkTok 43 "`{ , }`" 21 18 false; mkTok 40 "," 21 26 false; mkTok 3 "}" 21 28 false; mkTok 37 "MetaData" 21 30 false; mkTok 42 "matchKey" 21 39 false; mkTok 2 "{" 21 48 false; mkTok 3 "}" 21 50 false; mkTok 44 "// trailing space " 21 52 true; mkTok 0 "<EOF>" 21 70 false] (mkPacket (mkPtok 35 "packet" 2 0 0) (Some (mkPtok 3 "}" 21 50 56)) [(DPacket (mkPacketDef (mkSpan (mkPtok 35 "packet" 2 0 0) (mkPtok 3 "}" 9 2 25)) None (mkPtok 35 "packet" 2 0 0) (mkPtok 42 "matchKey" 3 4 1) (mkPtok 2 "{" 3 12 2) [(mkFieldWithAttr (mkSpan (mkPtok 36 "repeat" 4 0 3) (mkPtok 40 "," 5 15 6)) [] (ObjectField (mkSpan (mkPtok 36 "repeat" 4 0 3) (mkPtok 40 "," 5 15 6)) (Some (mkPtok 36 "repeat" 4 0 3)) (mkPtok 42 "tag" 5 0 4) None (Some (mkPtok 43 (string_of_bytes [96; 116; 97; 98; 9; 104; 101; 114; 101; 96]%N) 5 4 5)) (mkPtok 40 "," 5 15 6))); (mkFieldWithAttr (mkSpan (mkPtok 42 "Foo" 5 17 7) (mkPtok 40 "," 5 21 8)) [] (ObjectField (mkSpan (mkPtok 42 "Foo" 5 17 7) (mkPtok 40 "," 5 21 8)) None (mkPtok 42 "Foo" 5 17 7) None None (mkPtok 40 "," 5 21 8))); (mkFieldWithAttr (mkSpan (mkPtok 32 "@rightPad" 5 22 9) (mkPtok 40 "," 9 0 24)) [(FAPadding (mkSpan (mkPtok 32 "@rightPad" 5 22 9) (mkPtok 6 ")" 5 39 12)) (mkPaddingAttr (mkSpan (mkPtok 32 "@rightPad" 5 22 9) (mkPtok 6 ")" 5 39 12)) (mkPtok 32 "@rightPad" 5 22 9) (mkPtok 8 "(" 5 33 10) (Some (mkPtok 33 "' '" 5 35 11)) (mkPtok 6 ")" 5 39 12))); (FATag (mkSpan (mkPtok 9 "@tag(" 6 0 13) (mkPtok 6 ")" 6 9 15)) (mkTagAttr (mkSpan (mkPtok 9 "@tag(" 6 0 13) (mkPtok 6 ")" 6 9 15)) (mkPtok 9 "@tag(" 6 0 13) (mkPtok 30 "42" 6 7 14) (mkPtok 6 ")" 6 9 15)))] (CheckSumField (mkSpan (mkPtok 23 "uint64" 6 10 16) (mkPtok 40 "," 9 0 24)) (mkChecksumFieldDecl (mkSpan (mkPtok 23 "uint64" 6 10 16) (mkPtok 40 "," 9 0 24)) (Some (TyBasic (mkSpan (mkPtok 23 "uint64" 6 10 16) (mkPtok 23 "uint64" 6 10 16)) (mkBasicType (mkSpan (mkPtok 23 "uint64" 6 10 16) (mkPtok 23 "uint64" 6 10 16)) (mkPtok 23 "uint64" 6 10 16)))) (mkPtok 42 "i8i8" 7 0 18) (mkCalculatedFrom (mkSpan (mkPtok 5 "@calculatedFrom(" 7 5 19) (mkPtok 6 ")" 8 0 22)) (mkPtok 5 "@calculatedFrom(" 7 5 19) (mkPtok 31 """1""" 7 21 20) (mkPtok 6 ")" 8 0 22)) None (mkPtok 40 "," 9 0 24))))] (mkPtok 3 "}" 9 2 25))); (DPacket (mkPacketDef (mkSpan (mkPtok 34 "root" 9 4 26) (mkPtok 3 "}" 21 28 52)) (Some (mkPtok 34 "root" 9 4 26)) (mkPtok 35 "packet" 10 0 27) (mkPtok 42 "packetx" 10 7 28) (mkPtok 2 "{" 13 0 31) [(mkFieldWithAttr (mkSpan (mkPtok 7 "@lengthOf(" 16 0 34) (mkPtok 40 "," 21 26 51)) [(FALengthOf (mkSpan (mkPtok 7 "@lengthOf(" 16 0 34) (mkPtok 6 ")" 17 0 37)) (mkLengthOf (mkSpan (mkPtok 7 "@lengthOf(" 16 0 34) (mkPtok 6 ")" 17 0 37)) (mkPtok 7 "@lengthOf(" 16 0 34) (mkPtok 42 "a1" 16 11 35) (mkPtok 6 ")" 17 0 37))); (FAPadding (mkSpan (mkPtok 32 "@rightPad" 17 2 38) (mkPtok 6 ")" 18 2 41)) (mkPaddingAttr (mkSpan (mkPtok 32 "@rightPad" 17 2 38) (mkPtok 6 ")" 18 2 41)) (mkPtok 32 "@rightPad" 17 2 38) (mkPtok 8 "(" 18 0 40) None (mkPtok 6 ")" 18 2 41))); (FATag (mkSpan (mkPtok 9 "@tag(" 18 4 42) (mkPtok 6 ")" 21 0 46)) (mkTagAttr (mkSpan (mkPtok 9 "@tag(" 18 4 42) (mkPtok 6 ")" 21 0 46)) (mkPtok 9 "@tag(" 18 4 42) (mkPtok 30 "007" 18 10 43) (mkPtok 6 ")" 21 0 46)))] (MetaField (mkSpan (mkPtok 36 "repeat" 21 1 47) (mkPtok 40 "," 21 26 51)) (Some (mkPtok 36 "repeat" 21 1 47)) (mkMetaDecl (mkSpan (mkPtok 20 "u8" 21 8 48) (mkPtok 40 "," 21 26 51)) (TyBasic (mkSpan (mkPtok 20 "u8" 21 8 48) (mkPtok 20 "u8" 21 8 48)) (mkBasicType (mkSpan (mkPtok 20 "u8" 21 8 48) (mkPtok 20 "u8" 21 8 48)) (mkPtok 20 "u8" 21 8 48))) (mkPtok 42 "Header" 21 11 49) (Some (mkPtok 43 "`{ , }`" 21 18 50)) (mkPtok 40 "," 21 26 51))))] (mkPtok 3 "}" 21 28 52))); (DMeta (mkMetaDef (mkSpan (mkPtok 37 "MetaData" 21 30 53) (mkPtok 3 "}" 21 50 56)) (mkPtok 37 "MetaData" 21 30 53) (mkPtok 42 "matchKey" 21 39 54) (mkPtok 2 "{" 21 48 55) [] (mkPtok 3 "}" 21 50 56)))])).
-Eval vm_compute in ("<<<M1970>>>" ++ check (runes_of_ascii "packet x_y_z
-    {char[]
-i8i8, repeat BodyLength
-{
-repeat
-    _x
-    {
-    u64 packetx
-,
-// a // b
-//
-repeat matchKey BodyLength , }, repeat
-f32a len `u8 x,` , repeat repeatCount {	repeat As
-{ falsey@lengthOf( u128 ) `" ++ [28040; 24687; 31867; 22411]%N ++ runes_of_ascii "`
-// packet A { u8 x, }
-//
-, // trailing space 
-} ,	}	,
-} , zchar chars
-    `// not a comment`, o chars
-,// " ++ [128512]%N ++ runes_of_ascii " emoji
-@tag( 007 )
-@calculatedFrom( """" ) @lengthOf(
-    u8x
-    ) match
-    crc as
-    rootA{ [""a\""b"" , 007  ]// a // b
-: u8x
-""\" ++ [233]%N ++ runes_of_ascii """ :
-asx ,10 :string_
-, [3 , 255  ,
-""// no comment"" ,  3 , 00 , ""packet""] : x , } , Packet {
-repeat
-falsey	u128
-, Foo
-u8x`it's` ,u128 // c
-`u8 x,` , } , uint64 Logon
-    ,
-/// triple
 //	t
-@tag( // c
-1 )	chars , }
-packet
-    body {zchar[	0 ] _x, match trueish as repeatCount { ""x y"":
-    charz ""// no comment"" : options1,	4294967296 : int ,	} , } // `tick` ""quote"" 'q'")).
+root
+packet i64_ {// packet A { u8 x, }
+calculatedFrom tag ,// trailing space 
+repeat u128 // @lengthOf(
+{ u Packet , match
+i64_ as falsey {	[
+    ""a	b""]  : Logon	[3 , // `tick` ""quote"" 'q'
+0123456789 , ""a\\"" ,
+65535 , 3 ] : msg_type 255 : f32a,""abc"":
+MetaDataX , 1	: x_y_z	""" ++ [233]%N ++ runes_of_ascii "t" ++ [233]%N ++ runes_of_ascii """
+:tag ,}, repeat
+chars packetx `u8 x,`
+, repeat lengthOf a1 ,}
+,	repeat i64 u128 , }
+")).
+Eval vm_compute in ("<<<M1906>>>" ++ check (runes_of_ascii "packet
+pack{char[]	leftPad , } packet i8i8
+{ Foo ,	}
+// `tick` ""quote"" 'q'
+// @lengthOf(
+packet options1{
+}
+packet rootA
+{	repeat char[
+    007 //
+]  Header ,  char o , int {
+char[1]	falsey @calculatedFrom( // " ++ [27880; 37322]%N ++ runes_of_ascii "
+""a\\"" ) ,string
+    _x ,o @calculatedFrom( """ ++ [28040; 24687]%N ++ runes_of_ascii """	) ,  }
+    , uint32 calculatedFrom  `two words`
+, @calculatedFrom( ""a\\"" )repeat // " ++ [27880; 37322]%N ++ runes_of_ascii "
+rootA zchar ,	repeat
+charz , } root packet msg_type // trailing space 
+{ }")).
+Eval vm_compute in ("<<<M1938>>>" ++ check (runes_of_ascii "
+options {// a // b
+msg_type = u64	}packet
+MetaDataX { @tag(4294967296 ) zchar[ 4294967296	] Logon , //x
+match asx // @lengthOf(
+as stringy // @lengthOf(
+{ 3
+    :chars , ""a	b"" // @lengthOf(
+: string_ ,  ""a	b"":x , [ 4294967296 ,
+""\n"" ]: u ,
+},	@lengthOf(o	) Z9_ { zchar[ 3] i64_  , repeat A
+, match A
+    as //	t
+stringy{ //
+[	10 ] : BodyLength
+// `tick` ""quote"" 'q'
+// " ++ [27880; 37322]%N ++ runes_of_ascii "
+,42 : calculatedFrom , ""1"": msg_type 1:
+    charz , ""\n"":	asx ""abc""	: // a // b
+Logon }
+    ,
+    }
+,} options
+//	t
+//x
+{ rootA =f32
+    ;
+// trailing space 
+//	t
+msg_type =
+""it's"" }
+
+")).
+Eval vm_compute in ("<<<T1938>>>" ++ terms [mkTok 1 "options" 2 0 false; mkTok 2 "{" 2 8 false; mkTok 44 "// a // b" 2 9 true; mkTok 42 "msg_type" 3 0 false; mkTok 4 "=" 3 9 false; mkTok 23 "u64" 3 11 false; mkTok 3 "}" 3 15 false; mkTok 35 "packet" 3 16 false; mkTok 42 "MetaDataX" 4 0 false; mkTok 2 "{" 4 10 false; mkTok 9 "@tag(" 4 12 false; mkTok 30 "4294967296" 4 17 false; mkTok 6 ")" 4 28 false; mkTok 14 "zchar[" 4 30 false; mkTok 30 "4294967296" 4 37 false; mkTok 13 "]" 4 48 false; mkTok 42 "Logon" 4 50 false; mkTok 40 "," 4 56 false; mkTok 44 "//x" 4 58 true; mkTok 38 "match" 5 0 false; mkTok 42 "asx" 5 6 false; mkTok 44 "// @lengthOf(" 5 10 true; mkTok 17 "as" 6 0 false; mkTok 42 "stringy" 6 3 false; mkTok 44 "// @lengthOf(" 6 11 true; mkTok 2 "{" 7 0 false; mkTok 30 "3" 7 2 false; mkTok 39 ":" 8 4 false; mkTok 42 "chars" 8 5 false; mkTok 40 "," 8 11 false; mkTok 31 (string_of_bytes [34; 97; 9; 98; 34]%N) 8 13 false; mkTok 44 "// @lengthOf(" 8 19 true; mkTok 39 ":" 9 0 false; mkTok 42 "string_" 9 2 false; mkTok 40 "," 9 10 false; mkTok 31 (string_of_bytes [34; 97; 9; 98; 34]%N) 9 13 false; mkTok 39 ":" 9 18 false; mkTok 42 "x" 9 19 false; mkTok 40 "," 9 21 false; mkTok 18 "[" 9 23 false; mkTok 30 "4294967296" 9 25 false; mkTok 40 "," 9 36 false; mkTok 31 """\n""" 10 0 false; mkTok 13 "]" 10 5 false; mkTok 39 ":" 10 6 false; mkTok 42 "u" 10 8 false; mkTok 40 "," 10 10 false; mkTok 3 "}" 11 0 false; mkTok 40 "," 11 1 false; mkTok 7 "@lengthOf(" 11 3 false; mkTok 42 "o" 11 13 false; mkTok 6 ")" 11 15 false; mkTok 42 "Z9_" 11 17 false; mkTok 2 "{" 11 21 false; mkTok 14 "zchar[" 11 23 false; mkTok 30 "3" 11 30 false; mkTok 13 "]" 11 31 false; mkTok 42 "i64_" 11 33 false; mkTok 40 "," 11 39 false; mkTok 36 "repeat" 11 41 false; mkTok 42 "A" 11 48 false; mkTok 40 "," 12 0 false; mkTok 38 "match" 12 2 false; mkTok 42 "A" 12 8 false; mkTok 17 "as" 13 4 false; mkTok 44 (string_of_bytes [47; 47; 9; 116]%N) 13 7 true; mkTok 42 "stringy" 14 0 false; mkTok 2 "{" 14 7 false; mkTok 44 "//" 14 9 true; mkTok 18 "[" 15 0 false; mkTok 30 "10" 15 2 false; mkTok 13 "]" 15 5 false; mkTok 39 ":" 15 7 false; mkTok 42 "BodyLength" 15 9 false; mkTok 44 "// `tick` ""quote"" 'q'" 16 0 true; mkTok 44 (string_of_bytes [47; 47; 32; 230; 179; 168; 233; 135; 138]%N) 17 0 true; mkTok 40 "," 18 0 false; mkTok 30 "42" 18 1 false; mkTok 39 ":" 18 4 false; mkTok 42 "calculatedFrom" 18 6 false; mkTok 40 "," 18 21 false; mkTok 31 """1""" 18 23 false; mkTok 39 ":" 18 26 false; mkTok 42 "msg_type" 18 28 false; mkTok 30 "1" 18 37 false; mkTok 39 ":" 18 38 false; mkTok 42 "charz" 19 4 false; mkTok 40 "," 19 10 false; mkTok 31 """\n""" 19 12 false; mkTok 39 ":" 19 16 false; mkTok 42 "asx" 19 18 false; mkTok 31 """abc""" 19 22 false; mkTok 39 ":" 19 28 false; mkTok 44 "// a // b" 19 30 true; mkTok 42 "Logon" 20 0 false; mkTok 3 "}" 20 6 false; mkTok 40 "," 21 4 false; mkTok 3 "}" 22 4 false; mkTok 40 "," 23 0 false; mkTok 3 "}" 23 1 false; mkTok 1 "options" 23 3 false; mkTok 44 (string_of_bytes [47; 47; 9; 116]%N) 24 0 true; mkTok 44 "//x" 25 0 true; mkTok 2 "{" 26 0 false; mkTok 42 "rootA" 26 2 false; mkTok 4 "=" 26 8 false; mkTok 28 "f32" 26 9 false; mkTok 41 ";" 27 4 false; mkTok 44 "// trailing space " 28 0 true; mkTok 44 (string_of_bytes [47; 47; 9; 116]%N) 29 0 true; mkTok 42 "msg_type" 30 0 false; mkTok 4 "=" 30 9 false; mkTok 31 """it's""" 31 0 false; mkTok 3 "}" 31 7 false; mkTok 0 "<EOF>" 33 0 false] (mkPacket (mkPtok 1 "options" 2 0 0) (Some (mkPtok 3 "}" 31 7 113)) [(DOption (mkOptionDef (mkSpan (mkPtok 1 "options" 2 0 0) (mkPtok 3 "}" 3 15 6)) (mkPtok 1 "options" 2 0 0) (mkPtok 2 "{" 2 8 1) [(mkOptionDecl (mkSpan (mkPtok 42 "msg_type" 3 0 3) (mkPtok 23 "u64" 3 11 5)) (mkPtok 42 "msg_type" 3 0 3) (mkPtok 4 "=" 3 9 4) (VType (mkSpan (mkPtok 23 "u64" 3 11 5) (mkPtok 23 "u64" 3 11 5)) (TyBasic (mkSpan (mkPtok 23 "u64" 3 11 5) (mkPtok 23 "u64" 3 11 5)) (mkBasicType (mkSpan (mkPtok 23 "u64" 3 11 5) (mkPtok 23 "u64" 3 11 5)) (mkPtok 23 "u64" 3 11 5)))) None)] (mkPtok 3 "}" 3 15 6))); (DPacket (mkPacketDef (mkSpan (mkPtok 35 "packet" 3 16 7) (mkPtok 3 "}" 23 1 99)) None (mkPtok 35 "packet" 3 16 7) (mkPtok 42 "MetaDataX" 4 0 8) (mkPtok 2 "{" 4 10 9) [(mkFieldWithAttr (mkSpan (mkPtok 9 "@tag(" 4 12 10) (mkPtok 40 "," 4 56 17)) [(FATag (mkSpan (mkPtok 9 "@tag(" 4 12 10) (mkPtok 6 ")" 4 28 12)) (mkTagAttr (mkSpan (mkPtok 9 "@tag(" 4 12 10) (mkPtok 6 ")" 4 28 12)) (mkPtok 9 "@tag(" 4 12 10) (mkPtok 30 "4294967296" 4 17 11) (mkPtok 6 ")" 4 28 12)))] (MetaField (mkSpan (mkPtok 14 "zchar[" 4 30 13) (mkPtok 40 "," 4 56 17)) None (mkMetaDecl (mkSpan (mkPtok 14 "zchar[" 4 30 13) (mkPtok 40 "," 4 56 17)) (TyFixed (mkSpan (mkPtok 14 "zchar[" 4 30 13) (mkPtok 13 "]" 4 48 15)) (mkFixedString (mkSpan (mkPtok 14 "zchar[" 4 30 13) (mkPtok 13 "]" 4 48 15)) (mkPtok 14 "zchar[" 4 30 13) (mkPtok 30 "4294967296" 4 37 14) (mkPtok 13 "]" 4 48 15))) (mkPtok 42 "Logon" 4 50 16) None (mkPtok 40 "," 4 56 17)))); (mkFieldWithAttr (mkSpan (mkPtok 38 "match" 5 0 19) (mkPtok 40 "," 11 1 48)) [] (MatchField (mkSpan (mkPtok 38 "match" 5 0 19) (mkPtok 40 "," 11 1 48)) (mkMatchFieldDecl (mkSpan (mkPtok 38 "match" 5 0 19) (mkPtok 3 "}" 11 0 47)) (mkPtok 38 "match" 5 0 19) (mkPtok 42 "asx" 5 6 20) (mkPtok 17 "as" 6 0 22) (mkPtok 42 "stringy" 6 3 23) (mkPtok 2 "{" 7 0 25) [(mkMatchPair (mkSpan (mkPtok 30 "3" 7 2 26) (mkPtok 40 "," 8 11 29)) (MKDigits (mkPtok 30 "3" 7 2 26)) (mkPtok 39 ":" 8 4 27) (mkPtok 42 "chars" 8 5 28) (Some (mkPtok 40 "," 8 11 29))); (mkMatchPair (mkSpan (mkPtok 31 (string_of_bytes [34; 97; 9; 98; 34]%N) 8 13 30) (mkPtok 40 "," 9 10 34)) (MKString (mkPtok 31 (string_of_bytes [34; 97; 9; 98; 34]%N) 8 13 30)) (mkPtok 39 ":" 9 0 32) (mkPtok 42 "string_" 9 2 33) (Some (mkPtok 40 "," 9 10 34))); (mkMatchPair (mkSpan (mkPtok 31 (string_of_bytes [34; 97; 9; 98; 34]%N) 9 13 35) (mkPtok 40 "," 9 21 38)) (MKString (mkPtok 31 (string_of_bytes [34; 97; 9; 98; 34]%N) 9 13 35)) (mkPtok 39 ":" 9 18 36) (mkPtok 42 "x" 9 19 37) (Some (mkPtok 40 "," 9 21 38))); (mkMatchPair (mkSpan (mkPtok 18 "[" 9 23 39) (mkPtok 40 "," 10 10 46)) (MKList (mkKeyList (mkSpan (mkPtok 18 "[" 9 23 39) (mkPtok 13 "]" 10 5 43)) (mkPtok 18 "[" 9 23 39) (mkPtok 30 "4294967296" 9 25 40) [((mkPtok 40 "," 9 36 41), (mkPtok 31 """\n""" 10 0 42))] (mkPtok 13 "]" 10 5 43))) (mkPtok 39 ":" 10 6 44) (mkPtok 42 "u" 10 8 45) (Some (mkPtok 40 "," 10 10 46)))] (mkPtok 3 "}" 11 0 47)) (mkPtok 40 "," 11 1 48))); (mkFieldWithAttr (mkSpan (mkPtok 7 "@lengthOf(" 11 3 49) (mkPtok 40 "," 23 0 98)) [(FALengthOf (mkSpan (mkPtok 7 "@lengthOf(" 11 3 49) (mkPtok 6 ")" 11 15 51)) (mkLengthOf (mkSpan (mkPtok 7 "@lengthOf(" 11 3 49) (mkPtok 6 ")" 11 15 51)) (mkPtok 7 "@lengthOf(" 11 3 49) (mkPtok 42 "o" 11 13 50) (mkPtok 6 ")" 11 15 51)))] (InerObjectField (mkSpan (mkPtok 42 "Z9_" 11 17 52) (mkPtok 40 "," 23 0 98)) None (InerObjectDecl (mkSpan (mkPtok 42 "Z9_" 11 17 52) (mkPtok 3 "}" 22 4 97)) (mkPtok 42 "Z9_" 11 17 52) (mkPtok 2 "{" 11 21 53) [(MetaField (mkSpan (mkPtok 14 "zchar[" 11 23 54) (mkPtok 40 "," 11 39 58)) None (mkMetaDecl (mkSpan (mkPtok 14 "zchar[" 11 23 54) (mkPtok 40 "," 11 39 58)) (TyFixed (mkSpan (mkPtok 14 "zchar[" 11 23 54) (mkPtok 13 "]" 11 31 56)) (mkFixedString (mkSpan (mkPtok 14 "zchar[" 11 23 54) (mkPtok 13 "]" 11 31 56)) (mkPtok 14 "zchar[" 11 23 54) (mkPtok 30 "3" 11 30 55) (mkPtok 13 "]" 11 31 56))) (mkPtok 42 "i64_" 11 33 57) None (mkPtok 40 "," 11 39 58))); (ObjectField (mkSpan (mkPtok 36 "repeat" 11 41 59) (mkPtok 40 "," 12 0 61)) (Some (mkPtok 36 "repeat" 11 41 59)) (mkPtok 42 "A" 11 48 60) None None (mkPtok 40 "," 12 0 61)); (MatchField (mkSpan (mkPtok 38 "match" 12 2 62) (mkPtok 40 "," 21 4 96)) (mkMatchFieldDecl (mkSpan (mkPtok 38 "match" 12 2 62) (mkPtok 3 "}" 20 6 95)) (mkPtok 38 "match" 12 2 62) (mkPtok 42 "A" 12 8 63) (mkPtok 17 "as" 13 4 64) (mkPtok 42 "stringy" 14 0 66) (mkPtok 2 "{" 14 7 67) [(mkMatchPair (mkSpan (mkPtok 18 "[" 15 0 69) (mkPtok 40 "," 18 0 76)) (MKList (mkKeyList (mkSpan (mkPtok 18 "[" 15 0 69) (mkPtok 13 "]" 15 5 71)) (mkPtok 18 "[" 15 0 69) (mkPtok 30 "10" 15 2 70) [] (mkPtok 13 "]" 15 5 71))) (mkPtok 39 ":" 15 7 72) (mkPtok 42 "BodyLength" 15 9 73) (Some (mkPtok 40 "," 18 0 76))); (mkMatchPair (mkSpan (mkPtok 30 "42" 18 1 77) (mkPtok 40 "," 18 21 80)) (MKDigits (mkPtok 30 "42" 18 1 77)) (mkPtok 39 ":" 18 4 78) (mkPtok 42 "calculatedFrom" 18 6 79) (Some (mkPtok 40 "," 18 21 80))); (mkMatchPair (mkSpan (mkPtok 31 """1""" 18 23 81) (mkPtok 42 "msg_type" 18 28 83)) (MKString (mkPtok 31 """1""" 18 23 81)) (mkPtok 39 ":" 18 26 82) (mkPtok 42 "msg_type" 18 28 83) None); (mkMatchPair (mkSpan (mkPtok 30 "1" 18 37 84) (mkPtok 40 "," 19 10 87)) (MKDigits (mkPtok 30 "1" 18 37 84)) (mkPtok 39 ":" 18 38 85) (mkPtok 42 "charz" 19 4 86) (Some (mkPtok 40 "," 19 10 87))); (mkMatchPair (mkSpan (mkPtok 31 """\n""" 19 12 88) (mkPtok 42 "asx" 19 18 90)) (MKString (mkPtok 31 """\n""" 19 12 88)) (mkPtok 39 ":" 19 16 89) (mkPtok 42 "asx" 19 18 90) None); (mkMatchPair (mkSpan (mkPtok 31 """abc""" 19 22 91) (mkPtok 42 "Logon" 20 0 94)) (MKString (mkPtok 31 """abc""" 19 22 91)) (mkPtok 39 ":" 19 28 92) (mkPtok 42 "Logon" 20 0 94) None)] (mkPtok 3 "}" 20 6 95)) (mkPtok 40 "," 21 4 96))] (mkPtok 3 "}" 22 4 97)) (mkPtok 40 "," 23 0 98)))] (mkPtok 3 "}" 23 1 99))); (DOption (mkOptionDef (mkSpan (mkPtok 1 "options" 23 3 100) (mkPtok 3 "}" 31 7 113)) (mkPtok 1 "options" 23 3 100) (mkPtok 2 "{" 26 0 103) [(mkOptionDecl (mkSpan (mkPtok 42 "rootA" 26 2 104) (mkPtok 41 ";" 27 4 107)) (mkPtok 42 "rootA" 26 2 104) (mkPtok 4 "=" 26 8 105) (VType (mkSpan (mkPtok 28 "f32" 26 9 106) (mkPtok 28 "f32" 26 9 106)) (TyBasic (mkSpan (mkPtok 28 "f32" 26 9 106) (mkPtok 28 "f32" 26 9 106)) (mkBasicType (mkSpan (mkPtok 28 "f32" 26 9 106) (mkPtok 28 "f32" 26 9 106)) (mkPtok 28 "f32" 26 9 106)))) (Some (mkPtok 41 ";" 27 4 107))); (mkOptionDecl (mkSpan (mkPtok 42 "msg_type" 30 0 110) (mkPtok 31 """it's""" 31 0 112)) (mkPtok 42 "msg_type" 30 0 110) (mkPtok 4 "=" 30 9 111) (VString (mkSpan (mkPtok 31 """it's""" 31 0 112) (mkPtok 31 """it's""" 31 0 112)) (mkPtok 31 """it's""" 31 0 112)) None)] (mkPtok 3 "}" 31 7 113)))])).
+Eval vm_compute in ("<<<M1970>>>" ++ check (runes_of_ascii "
+MetaData Z9_ {
+    calculatedFrom calculatedFrom // @lengthOf(
+`u8 x,` // c
+, float32 i64_ `a\` , stringy
+    // trailing space 
+    Z9_,
+}")).
 Eval vm_compute in ("<<<M2002>>>" ++ check (runes_of_ascii "options {
 	StringPrefixLenType = u16;
 	ArrayPrefixLenType = u16;
@@ -1531,472 +1416,384 @@ packet Detail {
 	string RuleName `" ++ [35268; 21017; 21517; 31216]%N ++ runes_of_ascii "`,
 	u16 Code `" ++ [21407; 22240; 20195; 30721]%N ++ runes_of_ascii "`,
 }")).
-Eval vm_compute in ("<<<M2034>>>" ++ check (runes_of_ascii "options{ i64_ = string  trueish =
+Eval vm_compute in ("<<<M2034>>>" ++ check (runes_of_ascii "MetaData repeatCount { float64 packetx
+} root packet  metadata {
+char _x @lengthOf( trueish ), @leftPad
+( ' '// " ++ [27880; 37322]%N ++ runes_of_ascii "
+)/// triple
+char[] len`doc` , // packet A { u8 x, }
+repeatCount , }
+")).
+Eval vm_compute in ("<<<M2066>>>" ++ check (runes_of_ascii "MetaData repeatCount { float64 packetx,
+} root packet  metadata {
+_x char @lengthOf( trueish ), @leftPad
+( ' '// " ++ [27880; 37322]%N ++ runes_of_ascii "
+)/// triple
+char[] len`doc` , // packet A { u8 x, }
+repeatCount , }
+")).
+Eval vm_compute in ("<<<M2098>>>" ++ check (runes_of_ascii "MetaData repeatCount { float64 packetx,
+} root packet  metadata {
+char _x @lengthOf( trueish ),")).
+Eval vm_compute in ("<<<M2130>>>" ++ check (runes_of_ascii "MetaData repeatCount { float64 packetx,
+} root packet  metadata {
+char _x @lengthOf( trueish ), @leftPad
+( ' '// " ++ [27880; 37322]%N ++ runes_of_ascii "
+)/// triple
+char[] len`doc` , , // packet A { u8 x, }
+repeatCount , }
+")).
+Eval vm_compute in ("<<<M2162>>>" ++ check (runes_of_ascii "MetaData repeatCount { float64 packetx,
+} root packet  metadata {
+char _x @lengthOf( trueish ), @left'\x01'Pad
+( ' '// " ++ [27880; 37322]%N ++ runes_of_ascii "
+)/// triple
+char[] len`doc` , // packet A { u8 x, }
+repeatCount , }
+")).
+Eval vm_compute in ("<<<M2194>>>" ++ check (runes_of_ascii "options{
+leftPad
+    =")).
+Eval vm_compute in ("<<<M2226>>>" ++ check (runes_of_ascii "options{
+leftPad
+    =65535
+;
+a1 = true ; packetx= =  '\x00' ; packetx
+=  """ ++ [28040; 24687]%N ++ runes_of_ascii """MetaDataX= // " ++ [27880; 37322]%N ++ runes_of_ascii "
+false }root // c
+packet // packet A { u8 x, }
+Pad { repeat
+u8 Header
+// packet A { u8 x, }
+//	t
+`{ , }`
+// a // b
+//x
+, }
+")).
+Eval vm_compute in ("<<<M2258>>>" ++ check (runes_of_ascii "options{
+leftPad
+    =65535
+;
+a1 = true ; packetx=  '\x00' ; packetx
+=  """ ++ [28040; 24687]%N ++ runes_of_ascii """packet= // " ++ [27880; 37322]%N ++ runes_of_ascii "
+false }root // c
+packet // packet A { u8 x, }
+Pad { repeat
+u8 Header
+// packet A { u8 x, }
+//	t
+`{ , }`
+// a // b
+//x
+, }
+")).
+Eval vm_compute in ("<<<M2290>>>" ++ check (runes_of_ascii "options{
+leftPad
+    =65535
+;
+a1 = true ; packetx=  '\x00' ; packetx
+=  """ ++ [28040; 24687]%N ++ runes_of_ascii """MetaDataX= // " ++ [27880; 37322]%N ++ runes_of_ascii "
+false }root // c
+packet // packet A { u8 x, }
+Pad  repeat
+u8 Header
+// packet A { u8 x, }
+//	t
+`{ , }`
+// a // b
+//x
+, }
+")).
+Eval vm_compute in ("<<<M2322>>>" ++ check (runes_of_ascii "options{
+leftPad
+    =65535
+;
+a1 = true ; packetx=  '\x00' ; packetx
+=  """ ++ [28040; 24687]%N ++ runes_of_ascii """MetaDataX= // " ++ [27880; 37322]%N ++ runes_of_ascii "
+false }root // c
+packet // packet A { u8 x, }
+Pad { repeat
+u8 Header
+// packet A { u8 x, }
+//	t
+`{ , }`
+// a // b
+//x
+, [
+")).
+Eval vm_compute in ("<<<M2354>>>" ++ check (runes_of_ascii "
+packet (
+{	@calculatedFrom( """ ++ [233]%N ++ runes_of_ascii "t" ++ [233]%N ++ runes_of_ascii """ )
+@rightPad ( '\x00' )
+    @calculatedFrom( ""x y"" ) string chars  ,
+    // a // b
+    char[0 ]
+    u	@lengthOf( i8i8 ) `{ , }` ,repeat char[] o //x
+`// not a comment`, } // c")).
+Eval vm_compute in ("<<<M2386>>>" ++ check (runes_of_ascii "
+packet float
+{	@calculatedFrom( """ ++ [233]%N ++ runes_of_ascii "t" ++ [233]%N ++ runes_of_ascii """ )
+@rightPad (  )
+    @calculatedFrom( ""x y"" ) string chars  ,
+    // a // b
+    char[0 ]
+    u	@lengthOf( i8i8 ) `{ , }` ,repeat char[] o //x
+`// not a comment`, } // c")).
+Eval vm_compute in ("<<<M2418>>>" ++ check (runes_of_ascii "
+packet float
+{	@calculatedFrom( """ ++ [233]%N ++ runes_of_ascii "t" ++ [233]%N ++ runes_of_ascii """ )
+@rightPad ( '\x00' )
+    @calculatedFrom( ""x y"" ) string ,  chars
+    // a // b
+    char[0 ]
+    u	@lengthOf( i8i8 ) `{ , }` ,repeat char[] o //x
+`// not a comment`, } // c")).
+Eval vm_compute in ("<<<M2450>>>" ++ check (runes_of_ascii "
+packet float
+{	@calculatedFrom( """ ++ [233]%N ++ runes_of_ascii "t" ++ [233]%N ++ runes_of_ascii """ )
+@rightPad ( '\x00' )
+    @calculatedFrom( ""x y"" ) string chars  ,
+    // a // b
+    char[0 ]
+    u")).
+Eval vm_compute in ("<<<M2482>>>" ++ check (runes_of_ascii "
+packet float
+{	@calculatedFrom( """ ++ [233]%N ++ runes_of_ascii "t" ++ [233]%N ++ runes_of_ascii """ )
+@rightPad ( '\x00' )
+    @calculatedFrom( ""x y"" ) string chars  ,
+    // a // b
+    char[0 ]
+    u	@lengthOf( i8i8 ) `{ , }` ,repeat char[] o o //x
+`// not a comment`, } // c")).
+Eval vm_compute in ("<<<M2514>>>" ++ check (runes_of_ascii "
+packet float
+{	@calculatedFrom( """ ++ [233]%N ++ runes_of_ascii "|t" ++ [233]%N ++ runes_of_ascii """ )
+@rightPad ( '\x00' )
+    @calculatedFrom( ""x y"" ) string chars  ,
+    // a // b
+    char[0 ]
+    u	@lengthOf( i8i8 ) `{ , }` ,repeat char[] o //x
+`// not a comment`, } // c")).
+Eval vm_compute in ("<<<M2546>>>" ++ check (runes_of_ascii "root packet u128{")).
+Eval vm_compute in ("<<<M2578>>>" ++ check (runes_of_ascii "root packet u128{
+    repeat
+    zchar[ 65535 ] u `" ++ [28040; 24687; 31867; 22411]%N ++ runes_of_ascii "` ,// `tick` ""quote"" 'q'
+} } packet i64_ {repeatCount
+    `
+` ,	} // " ++ [128512]%N ++ runes_of_ascii " emoji")).
+Eval vm_compute in ("<<<M2610>>>" ++ check (runes_of_ascii "root packet u128{
+    repeat
+    zchar[ 65535 ] u `" ++ [28040; 24687; 31867; 22411]%N ++ runes_of_ascii "` ,// `tick` ""quote"" 'q'
+} packet i64_ {repeatCount
+    `
+` float32	} // " ++ [128512]%N ++ runes_of_ascii " emoji")).
+Eval vm_compute in ("<<<M2642>>>" ++ check (runes_of_ascii "
+")).
+Eval vm_compute in ("<<<M2674>>>" ++ check (@nil rune)).
+Eval vm_compute in ("<<<T2674>>>" ++ terms [mkTok 0 "<EOF>" 1 0 false] (mkPacket (mkPtok 0 "<EOF>" 1 0 0) None [])).
+Eval vm_compute in ("<<<M2706>>>" ++ check (runes_of_ascii "options {= Packet ""CRC32""i8i8 = false; leftPad =
     '\x00'
-    leftPad = ""a\\"" /// triple
-; crc
-    = 255; uint8x
-=
-""abc""
-    ;}")).
-Eval vm_compute in ("<<<M2066>>>" ++ check (runes_of_ascii "options{ i64_ = string ; trueish =
+    // `tick` ""quote"" 'q'
+    ; o=255  ;
+    // packet A { u8 x, }
+    }")).
+Eval vm_compute in ("<<<M2738>>>" ++ check (runes_of_ascii "options {Packet = ""CRC32""i8i8 = false")).
+Eval vm_compute in ("<<<M2770>>>" ++ check (runes_of_ascii "options {Packet = ""CRC32""i8i8 = false; leftPad =
     '\x00'
-    leftPad = ; /// triple
-""a\\"" crc
-    = 255; uint8x
-=
-""abc""
-    ;}")).
-Eval vm_compute in ("<<<M2098>>>" ++ check (runes_of_ascii "options{ i64_ = string ; trueish =
+    // `tick` ""quote"" 'q'
+    ; o=255 255  ;
+    // packet A { u8 x, }
+    }")).
+Eval vm_compute in ("<<<M2802>>>" ++ check (runes_of_ascii "options {Packet = ""CRC32""i8i8 = false; leftPad =
     '\x00'
-    leftPad = ""a\\"" /// triple
-; crc
-    = 255;")).
-Eval vm_compute in ("<<<M2130>>>" ++ check (runes_of_ascii "o/ptions{ i64_ = string ; trueish =
-    '\x00'
-    leftPad = ""a\\"" /// triple
-; crc
-    = 255; uint8x
-=
-""abc""
-    ;}")).
-Eval vm_compute in ("<<<M2162>>>" ++ check (runes_of_ascii "  packet
-asx
-{
-/// triple
-// @lengthOf(
-u32 `" ++ [28040; 24687; 31867; 22411]%N ++ runes_of_ascii "`
-stringy ,} MetaData
-    A {string  _x, zchar Header `a\`
-// @lengthOf(
-// packet A { u8 x, }
-, char[] MetaDataX
-,zchar[ 1 ]
-    matchKey
-    , char[] //
-u,	char[0123456789 ]
-    matchKey
-    `{ , }`, }
-")).
-Eval vm_compute in ("<<<M2194>>>" ++ check (runes_of_ascii "  packet
-asx
-{
-/// triple
-// @lengthOf(
-u32 stringy
-`" ++ [28040; 24687; 31867; 22411]%N ++ runes_of_ascii "` ,} MetaData
-    A")).
-Eval vm_compute in ("<<<M2226>>>" ++ check (runes_of_ascii "  packet
-asx
-{
-/// triple
-// @lengthOf(
-u32 stringy
-`" ++ [28040; 24687; 31867; 22411]%N ++ runes_of_ascii "` ,} MetaData
-    A {string  _x, zchar Header `a\`
-// @lengthOf(
-// packet A { u8 x, }
-, , char[] MetaDataX
-,zchar[ 1 ]
-    matchKey
-    , char[] //
-u,	char[0123456789 ]
-    matchKey
-    `{ , }`, }
-")).
-Eval vm_compute in ("<<<M2258>>>" ++ check (runes_of_ascii "  packet
-asx
-{
-/// triple
-// @lengthOf(
-u32 stringy
-`" ++ [28040; 24687; 31867; 22411]%N ++ runes_of_ascii "` ,} MetaData
-    A {string  _x, zchar Header `a\`
-// @lengthOf(
-// packet A { u8 x, }
-, char[] MetaDataX
-,zchar[ 1 [
-    matchKey
-    , char[] //
-u,	char[0123456789 ]
-    matchKey
-    `{ , }`, }
-")).
-Eval vm_compute in ("<<<M2290>>>" ++ check (runes_of_ascii "  packet
-asx
-{
-/// triple
-// @lengthOf(
-u32 stringy
-`" ++ [28040; 24687; 31867; 22411]%N ++ runes_of_ascii "` ,} MetaData
-    A {string  _x, zchar Header `a\`
-// @lengthOf(
-// packet A { u8 x, }
-, char[] MetaDataX
-,zchar[ 1 ]
-    matchKey
-    , char[] //
-u,	char[ ]
-    matchKey
-    `{ , }`, }
-")).
-Eval vm_compute in ("<<<M2322>>>" ++ check (runes_of_ascii "  packet
-asx
-{
-/// triple
-// @lengthOf(
-u32 stringy
-`" ++ [28040; 24687; 31867; 22411]%N ++ runes_of_ascii "` ,} MetaData
-    A {string  _x, zchar Header `a\`
-// @lengthOf(
-// packet A { u8 x, }
-, char[] MetaDataX
-,zchar[ 1 ]
-    matchKey
-    , char[] //
-u,	char[0")).
-Eval vm_compute in ("<<<M2354>>>" ++ check (runes_of_ascii "root
-    packet
-int8
-{ // trailing space 
-matchKey `tab	here` ,}")).
-Eval vm_compute in ("<<<M2386>>>" ++ check (runes_of_ascii "root
-    pac#ket
-Packet
-{ // trailing space 
-matchKey `tab	here` ,}")).
-Eval vm_compute in ("<<<M2418>>>" ++ check (runes_of_ascii "options{ falsey // a // b
-= =
-    '0' } options { repeatCount =
-true ; string_// a // b
-=
-// c
-// " ++ [27880; 37322]%N ++ runes_of_ascii "
-int64
-// trailing space 
-/// triple
-; } // @lengthOf(")).
-Eval vm_compute in ("<<<M2450>>>" ++ check (runes_of_ascii "options{ falsey // a // b
-=
-    '0' } options { repeatCount MetaData
-true ; string_// a // b
-=
-// c
-// " ++ [27880; 37322]%N ++ runes_of_ascii "
-int64
-// trailing space 
-/// triple
-; } // @lengthOf(")).
-Eval vm_compute in ("<<<M2482>>>" ++ check (runes_of_ascii "options{ falsey // a // b
-=
-    '0' } options { repeatCount =
-true ; string_// a // b
-=
-// c
-// " ++ [27880; 37322]%N ++ runes_of_ascii "
-int64
-// trailing space 
-/// triple
-;  // @lengthOf(")).
-Eval vm_compute in ("<<<M2514>>>" ++ check (runes_of_ascii "options{ {}root packet
-metadata {
-@lengthOf(x ) float32
-body ``, }
-    MetaData
-Z9_
-    {
-    string string_ , Logon x
-,
-uint32
+    // `tick` ""quote"" 'q'
+    ; " ++ [21517; 23383]%N ++ runes_of_ascii "=255  ;
     // packet A { u8 x, }
-    Z9_,asx
-_x
-    `tab	here` , }
-")).
-Eval vm_compute in ("<<<M2546>>>" ++ check (runes_of_ascii "options{}root packet
-metadata {
-]x ) float32
-body ``, }
-    MetaData
-Z9_
-    {
-    string string_ , Logon x
-,
-uint32
-    // packet A { u8 x, }
-    Z9_,asx
-_x
-    `tab	here` , }
-")).
-Eval vm_compute in ("<<<M2578>>>" ++ check (runes_of_ascii "options{}root packet
-metadata {
-@lengthOf(x ) float32
-body ``, 
-    MetaData
-Z9_
-    {
-    string string_ , Logon x
-,
-uint32
-    // packet A { u8 x, }
-    Z9_,asx
-_x
-    `tab	here` , }
-")).
-Eval vm_compute in ("<<<M2610>>>" ++ check (runes_of_ascii "options{}root packet
-metadata {
-@lengthOf(x ) float32
-body ``, }
-    MetaData
-Z9_
-    {
-    string string_ Logon , x
-,
-uint32
-    // packet A { u8 x, }
-    Z9_,asx
-_x
-    `tab	here` , }
-")).
-Eval vm_compute in ("<<<M2642>>>" ++ check (runes_of_ascii "options{}root packet
-metadata {
-@lengthOf(x ) float32
-body ``, }
-    MetaData
-Z9_
-    {
-    string string_ , Logon x
-,
-uint32
-    // packet A { u8 x, }
-    Z9_")).
-Eval vm_compute in ("<<<M2674>>>" ++ check (runes_of_ascii "options{}root packet
-metadata {
-@lengthOf(x ) float32
-|body ``, }
-    MetaData
-Z9_
-    {
-    string string_ , Logon x
-,
-uint32
-    // packet A { u8 x, }
-    Z9_,asx
-_x
-    `tab	here` , }
-")).
-Eval vm_compute in ("<<<M2706>>>" ++ check (runes_of_ascii "options {
-    falsey""a\\""
-= ; }")).
-Eval vm_compute in ("<<<M2738>>>" ++ check (runes_of_ascii "options '\x01' {
-    falsey=
-""a\\"" ; }")).
-Eval vm_compute in ("<<<M2770>>>" ++ check (runes_of_ascii "MetaData f32a
-{
-    //	t
-    }root
-     tag  {
-}
-")).
-Eval vm_compute in ("<<<M2802>>>" ++ check (runes_of_ascii "MetaData f32a
-{
-    //	t
-    }root
-    `packet tag  {
-}
-")).
+    }")).
 Eval vm_compute in ("<<<M2834>>>" ++ check (runes_of_ascii "
-options
-    {msg_type =
-    match  }root
-packet Z9_{ char /// triple
-crc @lengthOf(
-options1 ) //
-,} MetaData a1{}
-")).
+packet metadata { @rightPad (")).
 Eval vm_compute in ("<<<M2866>>>" ++ check (runes_of_ascii "
-options
-    {msg_type =
-    float32  }root
-packet Z9_{ char /// triple
- @lengthOf(
-options1 ) //
-,} MetaData a1{}
-")).
+packet metadata { @rightPad (
+    // packet A { u8 x, }
+    ' ' ) repeat u32	A
+,matchKey , ,
+    @lengthOf( string_ ) @lengthOf( body )
+    // a // b
+    @lengthOf(float  )	repeat
+int32 u8x
+    // c
+    `tab	here`
+, } // a // b")).
 Eval vm_compute in ("<<<M2898>>>" ++ check (runes_of_ascii "
-options
-    {msg_type =
-    float32  }root
-packet Z9_{ char /// triple
-crc @lengthOf(
-options1 ) //
-,} a1 MetaData{}
-")).
+packet metadata { @rightPad (
+    // packet A { u8 x, }
+    ' ' ) repeat u32	A
+,matchKey ,
+    @lengthOf( string_ ) @lengthOf( body @rightPad
+    // a // b
+    @lengthOf(float  )	repeat
+int32 u8x
+    // c
+    `tab	here`
+, } // a // b")).
 Eval vm_compute in ("<<<M2930>>>" ++ check (runes_of_ascii "
-options
-    {" ++ [0]%N ++ runes_of_ascii " msg_type =
-    float32  }root
-packet Z9_{ char /// triple
-crc @lengthOf(
-options1 ) //
-,} MetaData a1{}
+packet metadata { @rightPad (
+    // packet A { u8 x, }
+    ' ' ) repeat u32	A
+,matchKey ,
+    @lengthOf( string_ ) @lengthOf( body )
+    // a // b
+    @lengthOf(float  )	repeat
+int32 u8x
+    // c
+    
+, } // a // b")).
+Eval vm_compute in ("<<<M2962>>>" ++ check (runes_of_ascii "
+packet metadata { @rightPad (
+    // packet A { u8 x, }
+    ' ' ) repeat u32	A
+,matchKey ,
+  @leftpad  @lengthOf( string_ ) @lengthOf( body )
+    // a // b
+    @lengthOf(float  )	repeat
+int32 u8x
+    // c
+    `tab	here`
+, } // a // b")).
+Eval vm_compute in ("<<<M2994>>>" ++ check (runes_of_ascii "packet x{
+string
+zchar [ //	t
+}
 ")).
-Eval vm_compute in ("<<<M2962>>>" ++ check (runes_of_ascii "packet crc{ // " ++ [128512]%N ++ runes_of_ascii " emoji
-repeat string 
-`a\`, }
+Eval vm_compute in ("<<<M3026>>>" ++ check (runes_of_ascii "
 ")).
-Eval vm_compute in ("<<<M2994>>>" ++ check (runes_of_ascii "$ packet crc{ // " ++ [128512]%N ++ runes_of_ascii " emoji
-repeat string i8i8
-`a\`, }
-")).
-Eval vm_compute in ("<<<M3026>>>" ++ check (runes_of_ascii "packet BodyLength {} ; zchar{ zchar[// @lengthOf(
-42 ]
-    pack , string_
-A , char[]crc , _x trueish ,
-// " ++ [27880; 37322]%N ++ runes_of_ascii "
-// " ++ [128512]%N ++ runes_of_ascii " emoji
-zchar[
-    3 ]	T // trailing space 
-, } packet body
+Eval vm_compute in ("<<<T3026>>>" ++ terms [mkTok 0 "<EOF>" 2 0 false] (mkPacket (mkPtok 0 "<EOF>" 2 0 0) None [])).
+Eval vm_compute in ("<<<M3058>>>" ++ check (runes_of_ascii "
+MetaData Logon
+{ // c
+}root packet
+    Pad { {
+    } options
 {
-    }
-")).
-Eval vm_compute in ("<<<M3058>>>" ++ check (runes_of_ascii "packet BodyLength {} MetaData zchar{ zchar[// @lengthOf(
-42 ]
-    pack  string_
-A , char[]crc , _x trueish ,
-// " ++ [27880; 37322]%N ++ runes_of_ascii "
-// " ++ [128512]%N ++ runes_of_ascii " emoji
-zchar[
-    3 ]	T // trailing space 
-, } packet body
+u
+    =
+    ""CRC32""
+    // " ++ [128512]%N ++ runes_of_ascii " emoji
+    i64_ = u16;
+T =65535 x = ' '
+    ; u128
+= true ; }")).
+Eval vm_compute in ("<<<M3090>>>" ++ check (runes_of_ascii "
+MetaData Logon
+{ // c
+}root packet
+    Pad {
+    } options
 {
-    }
-")).
-Eval vm_compute in ("<<<M3090>>>" ++ check (runes_of_ascii "packet BodyLength {} MetaData zchar{ zchar[// @lengthOf(
-42 ]
-    pack , string_
-A , char[]crc _x , trueish ,
-// " ++ [27880; 37322]%N ++ runes_of_ascii "
-// " ++ [128512]%N ++ runes_of_ascii " emoji
-zchar[
-    3 ]	T // trailing space 
-, } packet body
+u
+    =
+    `// not a comment`
+    // " ++ [128512]%N ++ runes_of_ascii " emoji
+    i64_ = u16;
+T =65535 x = ' '
+    ; u128
+= true ; }")).
+Eval vm_compute in ("<<<M3122>>>" ++ check (runes_of_ascii "
+MetaData Logon
+{ // c
+}root packet
+    Pad {
+    } options
 {
-    }
-")).
-Eval vm_compute in ("<<<M3122>>>" ++ check (runes_of_ascii "packet BodyLength {} MetaData zchar{ zchar[// @lengthOf(
-42 ]
-    pack , string_
-A , char[]crc , _x trueish ,
-// " ++ [27880; 37322]%N ++ runes_of_ascii "
-// " ++ [128512]%N ++ runes_of_ascii " emoji
-zchar[
-    3")).
-Eval vm_compute in ("<<<M3154>>>" ++ check (runes_of_ascii "packet BodyLength {} MetaData zchar{ zchar[// @lengthOf(
-42 ]
-    pack , string_
-A , char[]crc , _x trueish ,
-// " ++ [27880; 37322]%N ++ runes_of_ascii "
-// " ++ [128512]%N ++ runes_of_ascii " emoji
-zchar[
-    3 ]	T // trailing space 
-, } packet body
+u
+    =
+    ""CRC32""
+    // " ++ [128512]%N ++ runes_of_ascii " emoji
+    i64_ = u16;
+T = x = ' '
+    ; u128
+= true ; }")).
+Eval vm_compute in ("<<<M3154>>>" ++ check (runes_of_ascii "
+MetaData Logon
+{ // c
+}root packet
+    Pad {
+    } options
 {
-    } }
+u
+    =
+    ""CRC32""
+    // " ++ [128512]%N ++ runes_of_ascii " emoji
+    i64_ = u16;
+T =65535 x = ' '
+    ; u128
+true = ; }")).
+Eval vm_compute in ("<<<M3186>>>" ++ check (runes_of_ascii "
+MetaData Logon
+{ // c
+}root packet
+    Pad {
+    } options
+{
+u
+    =
+    ""CRC32""
+    // " ++ [128512]%N ++ runes_of_ascii " emoji
+    i64_ @lengthOf = u16;
+T =65535 x = ' '
+    ; u128
+= true ; }")).
+Eval vm_compute in ("<<<M3218>>>" ++ check (runes_of_ascii "MetaData body{}
+packet	 { x_y_z @calculatedFrom(  ""a\\"")// `tick` ""quote"" 'q'
+, }
 ")).
-Eval vm_compute in ("<<<M3186>>>" ++ check (runes_of_ascii "packet
-{ string_@lengthOf( int ) match packetx as f32a {
-    1 :	calculatedFrom , }  ,
-    } packet len
-    //	t
-    { @calculatedFrom( """ ++ [233]%N ++ runes_of_ascii "t" ++ [233]%N ++ runes_of_ascii """ ) body Header , char[] lengthOf  `two words` ,chars{repeat string_ matchKey ,
-    } ,
-    }
+Eval vm_compute in ("<<<M3250>>>" ++ check (runes_of_ascii "MetaData body{}
+packet	Packet { x_y_z @calculatedFrom(  ""a\\"")// `tick` ""quote"" 'q'
+} ,
 ")).
-Eval vm_compute in ("<<<M3218>>>" ++ check (runes_of_ascii "packet
-string_ {@lengthOf( int ) match")).
-Eval vm_compute in ("<<<M3250>>>" ++ check (runes_of_ascii "packet
-string_ {@lengthOf( int ) match packetx as f32a {
-    1 :	calculatedFrom , , }  ,
-    } packet len
-    //	t
-    { @calculatedFrom( """ ++ [233]%N ++ runes_of_ascii "t" ++ [233]%N ++ runes_of_ascii """ ) body Header , char[] lengthOf  `two words` ,chars{repeat string_ matchKey ,
-    } ,
-    }
+Eval vm_compute in ("<<<M3282>>>" ++ check (runes_of_ascii "1 f32a {} root packet len {repeat u // " ++ [128512]%N ++ runes_of_ascii " emoji
+`{ , }` , }
 ")).
-Eval vm_compute in ("<<<M3282>>>" ++ check (runes_of_ascii "packet
-string_ {@lengthOf( int ) match packetx as f32a {
-    1 :	calculatedFrom , }  ,
-    } packet len
-    //	t
-    @leftPad @calculatedFrom( """ ++ [233]%N ++ runes_of_ascii "t" ++ [233]%N ++ runes_of_ascii """ ) body Header , char[] lengthOf  `two words` ,chars{repeat string_ matchKey ,
-    } ,
-    }
+Eval vm_compute in ("<<<M3314>>>" ++ check (runes_of_ascii "packet f32a {} root packet len repeat u // " ++ [128512]%N ++ runes_of_ascii " emoji
+`{ , }` , }
 ")).
-Eval vm_compute in ("<<<M3314>>>" ++ check (runes_of_ascii "packet
-string_ {@lengthOf( int ) match packetx as f32a {
-    1 :	calculatedFrom , }  ,
-    } packet len
-    //	t
-    { @calculatedFrom( """ ++ [233]%N ++ runes_of_ascii "t" ++ [233]%N ++ runes_of_ascii """ ) body Header ,  lengthOf  `two words` ,chars{repeat string_ matchKey ,
-    } ,
-    }
-")).
-Eval vm_compute in ("<<<M3346>>>" ++ check (runes_of_ascii "packet
-string_ {@lengthOf( int ) match packetx as f32a {
-    1 :	calculatedFrom , }  ,
-    } packet len
-    //	t
-    { @calculatedFrom( """ ++ [233]%N ++ runes_of_ascii "t" ++ [233]%N ++ runes_of_ascii """ ) body Header , char[] lengthOf  `two words` ,chars{string_ repeat matchKey ,
-    } ,
-    }
-")).
-Eval vm_compute in ("<<<M3378>>>" ++ check (runes_of_ascii "packet
-string_ {@lengthOf( int ) match packetx as f32a {
-    1 :	calculatedFrom , }  ,
-    } packet len
-    //	t
-    { @calculatedFrom( """ ++ [233]%N ++ runes_of_ascii "t" ++ [233]%N ++ runes_of_ascii """ ) body Header , char[] lengthOf  `two words` ,chars{repeat st")).
-Eval vm_compute in ("<<<M3410>>>" ++ check (runes_of_ascii "/// triple
-root
-packet // packet A { u8 x, }
-chars { @lengthOf(charz )
-stringy,  @tag(  0 ) // a // b
-asx
-    As
-,
-// trailing space 
-// trailing space 
-x_y_z {
-repeat i16 , charz } ,	int16  crc ,}
-")).
-Eval vm_compute in ("<<<M3442>>>" ++ check (runes_of_ascii "/// triple
-root
-packet // packet A { u8 x, }
-chars { @lengthOf(charz )
-stringy,  @tag(  0 ) // a // b
-repeat
-    As
-,
-// trailing space 
-// trailing space 
-x_y_z {
-repeat i16 charz , } ,	int16  crc ,}
-")).
-Eval vm_compute in ("<<<M3474>>>" ++ check (runes_of_ascii "/// triple
-root
-packet // packet A { u8 x, }
-chars { @lengthOf(charz )
-stringy,  @tag(  0 ) // a // b
-asx
-    As
-,
-// trailing space 
-// trailing space 
-x_y_z {
-repeat i16 charz , } ,	int16  crc ,
-")).
+Eval vm_compute in ("<<<M3346>>>" ++ check (runes_of_ascii "packet f32a {} root packet le")).
+Eval vm_compute in ("<<<M3378>>>" ++ check (runes_of_ascii "options{ _x=""\" ++ [233]%N ++ runes_of_ascii """;
+    Logon = 10	; Foo= 7")).
+Eval vm_compute in ("<<<M3410>>>" ++ check (runes_of_ascii "options{ _x=""\" ++ [233]%N ++ runes_of_ascii """;
+    = Logon 10	; Foo= 7;
+i64_= char[]} options {
+matchKey = ""// no comment"" // a // b
+falsey = string
+; trueish =
+    4294967296
+options1=
+    ""it's"" string_	= true } options {
+    /// triple
+    }")).
+Eval vm_compute in ("<<<M3442>>>" ++ check (runes_of_ascii "options{ _x=""\" ++ [233]%N ++ runes_of_ascii """;
+    Logon = 10	; Foo= 7;
+i64_= char[]} options {
+matchKey = ""// no comment"" // a // b
+falsey  string
+; trueish =
+    4294967296
+options1=
+    ""it's"" string_	= true } options {
+    /// triple
+    }")).
+Eval vm_compute in ("<<<M3474>>>" ++ check (runes_of_ascii "options{ _x=""\" ++ [233]%N ++ runes_of_ascii """;
+    Logon = 10	; Foo= 7:
+i64_= char[]} options {
+matchKey = ""// no comment"" // a // b
+falsey = string
+; trueish =
+    4294967296
+options1=
+    ""it's"" string_	= true } options {
+    /// triple
+    }")).
 Eval vm_compute in ("<<<M3506>>>" ++ check (runes_of_ascii "uint")).
 Eval vm_compute in ("<<<M3538>>>" ++ check (runes_of_ascii "' '")).
 Eval vm_compute in ("<<<M3570>>>" ++ check (runes_of_ascii "// a
@@ -2007,10 +1804,11 @@ Eval vm_compute in ("<<<M3666>>>" ++ check (runes_of_ascii "packet A { repeat B 
 Eval vm_compute in ("<<<M3698>>>" ++ check (runes_of_ascii "packet A { } packet")).
 Eval vm_compute in ("<<<M3730>>>" ++ check (runes_of_ascii "options { = 1; }")).
 Eval vm_compute in ("<<<M3762>>>" ++ check ([0]%N)).
-Eval vm_compute in ("<<<M3794>>>" ++ check (runes_of_ascii "float32 int16 match true root `doc` , @tag( {")).
-Eval vm_compute in ("<<<M3826>>>" ++ check (runes_of_ascii """" ++ [128512]%N ++ runes_of_ascii """ f64 repeat u32 float32 @calculatedFrom(")).
-Eval vm_compute in ("<<<M3858>>>" ++ check (runes_of_ascii "match ) int32 as '0' @lengthOf( @calculatedFrom( (")).
-Eval vm_compute in ("<<<M3890>>>" ++ check (runes_of_ascii "uint16 char[] int64 repeat i64 packet @calculatedFrom( ) u16 options")).
-Eval vm_compute in ("<<<M3922>>>" ++ check (runes_of_ascii "= true string")).
-Eval vm_compute in ("<<<M3954>>>" ++ check (runes_of_ascii "65535 @tag( ""a	b"" @lengthOf( i8 @rightPad uint8x repeat as true ,")).
-Eval vm_compute in ("<<<M3986>>>" ++ check (runes_of_ascii "char[")).
+Eval vm_compute in ("<<<M3794>>>" ++ check (runes_of_ascii "char[ char[] u8 u16 char[] packet ) ""`tick`"" char[ @rightPad f32 true")).
+Eval vm_compute in ("<<<M3826>>>" ++ check (runes_of_ascii "int32 u32 @tag( ) (")).
+Eval vm_compute in ("<<<M3858>>>" ++ check (runes_of_ascii "match packet )")).
+Eval vm_compute in ("<<<M3890>>>" ++ check (runes_of_ascii "options @rightPad = ) MetaData ""\" ++ [233]%N ++ runes_of_ascii """ uint8 @calculatedFrom( `
+` float32")).
+Eval vm_compute in ("<<<M3922>>>" ++ check (runes_of_ascii "'\x00' char[ f64 : @rightPad } 65535 `u8 x,` root")).
+Eval vm_compute in ("<<<M3954>>>" ++ check (runes_of_ascii "char[]")).
+Eval vm_compute in ("<<<M3986>>>" ++ check (runes_of_ascii "zchar[ repeat packet char root float32 u8 uint32 root u32 float64")).
